@@ -16,1602 +16,1986 @@ Definition terms (ts : list tok) (t : pt) : string :=
   digest (show_toks (Some ts)) ++ " " ++ digest (show_pt (Some t)) ++ " " ++ digest (show_pt (parse ts)).
 Definition terms_full (ts : list tok) (t : pt) : string :=
   show_toks (Some ts) ++ nl ++ show_pt (Some t) ++ nl ++ show_pt (parse ts).
-Eval vm_compute in ("<<<M27>>>" ++ check (runes_of_ascii "options // " ++ [27880; 37322]%N ++ runes_of_ascii "
-{Packet = 4294967296
-; i64_  = // c
-""1"" ;	Z9_ = ""abc"" ; options1 =
-""a\\""
-; o=0  ; }")).
-Eval vm_compute in ("<<<T27>>>" ++ terms [mkTok 1 "options" 1 0 false; mkTok 44 (string_of_bytes [47; 47; 32; 230; 179; 168; 233; 135; 138]%N) 1 8 true; mkTok 2 "{" 2 0 false; mkTok 42 "Packet" 2 1 false; mkTok 4 "=" 2 8 false; mkTok 30 "4294967296" 2 10 false; mkTok 41 ";" 3 0 false; mkTok 42 "i64_" 3 2 false; mkTok 4 "=" 3 8 false; mkTok 44 "// c" 3 10 true; mkTok 31 """1""" 4 0 false; mkTok 41 ";" 4 4 false; mkTok 42 "Z9_" 4 6 false; mkTok 4 "=" 4 10 false; mkTok 31 """abc""" 4 12 false; mkTok 41 ";" 4 18 false; mkTok 42 "options1" 4 20 false; mkTok 4 "=" 4 29 false; mkTok 31 """a\\""" 5 0 false; mkTok 41 ";" 6 0 false; mkTok 42 "o" 6 2 false; mkTok 4 "=" 6 3 false; mkTok 30 "0" 6 4 false; mkTok 41 ";" 6 7 false; mkTok 3 "}" 6 9 false; mkTok 0 "<EOF>" 6 10 false] (mkPacket (mkPtok 1 "options" 1 0 0) (Some (mkPtok 3 "}" 6 9 24)) [(DOption (mkOptionDef (mkSpan (mkPtok 1 "options" 1 0 0) (mkPtok 3 "}" 6 9 24)) (mkPtok 1 "options" 1 0 0) (mkPtok 2 "{" 2 0 2) [(mkOptionDecl (mkSpan (mkPtok 42 "Packet" 2 1 3) (mkPtok 41 ";" 3 0 6)) (mkPtok 42 "Packet" 2 1 3) (mkPtok 4 "=" 2 8 4) (VDigits (mkSpan (mkPtok 30 "4294967296" 2 10 5) (mkPtok 30 "4294967296" 2 10 5)) (mkPtok 30 "4294967296" 2 10 5)) (Some (mkPtok 41 ";" 3 0 6))); (mkOptionDecl (mkSpan (mkPtok 42 "i64_" 3 2 7) (mkPtok 41 ";" 4 4 11)) (mkPtok 42 "i64_" 3 2 7) (mkPtok 4 "=" 3 8 8) (VString (mkSpan (mkPtok 31 """1""" 4 0 10) (mkPtok 31 """1""" 4 0 10)) (mkPtok 31 """1""" 4 0 10)) (Some (mkPtok 41 ";" 4 4 11))); (mkOptionDecl (mkSpan (mkPtok 42 "Z9_" 4 6 12) (mkPtok 41 ";" 4 18 15)) (mkPtok 42 "Z9_" 4 6 12) (mkPtok 4 "=" 4 10 13) (VString (mkSpan (mkPtok 31 """abc""" 4 12 14) (mkPtok 31 """abc""" 4 12 14)) (mkPtok 31 """abc""" 4 12 14)) (Some (mkPtok 41 ";" 4 18 15))); (mkOptionDecl (mkSpan (mkPtok 42 "options1" 4 20 16) (mkPtok 41 ";" 6 0 19)) (mkPtok 42 "options1" 4 20 16) (mkPtok 4 "=" 4 29 17) (VString (mkSpan (mkPtok 31 """a\\""" 5 0 18) (mkPtok 31 """a\\""" 5 0 18)) (mkPtok 31 """a\\""" 5 0 18)) (Some (mkPtok 41 ";" 6 0 19))); (mkOptionDecl (mkSpan (mkPtok 42 "o" 6 2 20) (mkPtok 41 ";" 6 7 23)) (mkPtok 42 "o" 6 2 20) (mkPtok 4 "=" 6 3 21) (VDigits (mkSpan (mkPtok 30 "0" 6 4 22) (mkPtok 30 "0" 6 4 22)) (mkPtok 30 "0" 6 4 22)) (Some (mkPtok 41 ";" 6 7 23)))] (mkPtok 3 "}" 6 9 24)))])).
-Eval vm_compute in ("<<<M59>>>" ++ check (runes_of_ascii "root
-packet string_{ i32 uint8x @calculatedFrom( ""\" ++ [233]%N ++ runes_of_ascii """ ) , body ,@tag(// a // b
-0  ) Z9_
-    @calculatedFrom(
-""" ++ [28040; 24687]%N ++ runes_of_ascii """),
-@lengthOf( stringy	)  falsey
-    { repeat trueish { u64 i8i8 , }
-,  } ,
-char[] leftPad
-@lengthOf( falsey
-    // c
-    ),	@calculatedFrom(	""a	b""
-    )
-//x
-// " ++ [27880; 37322]%N ++ runes_of_ascii "
-char[]  BodyLength,//x
-match
-falsey as crc{255 :falsey ,[
-//x
-// @lengthOf(
-7,7] // @lengthOf(
-:
-//
-//x
-crc, ""a	b""// `tick` ""quote"" 'q'
-: i8i8,255  : a1
-, } ,Logon@lengthOf( _x // `tick` ""quote"" 'q'
-)
-, match	lengthOf as  o{ ""packet"" :	x_y_z ,} , } options
-{
-//	t
-// `tick` ""quote"" 'q'
-calculatedFrom
-=
-""// no comment""  ;
-    x
-    ='\x00' a1
-= ""abc"" ; x_y_z=
-65535 ; } packet Foo
-{ } packet o { }")).
-Eval vm_compute in ("<<<M91>>>" ++ check (runes_of_ascii "packet Logon{
-    repeat string
-a1 `crlf
-line` ,@lengthOf(
-Pad
-    ) match  Pad as
-u8x
-    { 4294967296
-//
-// " ++ [128512]%N ++ runes_of_ascii " emoji
-: // `tick` ""quote"" 'q'
-i8i8 , } ,
-asx a1 ,
-// a // b
-// @lengthOf(
-@lengthOf(body ) //x
-msg_type int
-,tag`line1
-line2` , repeat
-// packet A { u8 x, }
-// packet A { u8 x, }
-Z9_{ u16
-    packetx	@calculatedFrom(
-    ""it's"" ) , } , @lengthOf(
-// " ++ [128512]%N ++ runes_of_ascii " emoji
-//	t
-Logon ) // " ++ [128512]%N ++ runes_of_ascii " emoji
-@rightPad (
-)	@calculatedFrom(""" ++ [233]%N ++ runes_of_ascii "t" ++ [233]%N ++ runes_of_ascii """ ) repeat roots	u128 // `tick` ""quote"" 'q'
-,@calculatedFrom( ""{,}"") chars{ match // " ++ [128512]%N ++ runes_of_ascii " emoji
-roots as Foo {
-    10 :trueish
-// trailing space 
-// @lengthOf(
-, },} , i8i8 ,@calculatedFrom( ""x y"" ) @calculatedFrom( ""a\""b"" ) repeat Z9_
-{  f32a msg_type ,
-repeat o{
-// " ++ [128512]%N ++ runes_of_ascii " emoji
-// @lengthOf(
-zchar[ 0	]
-charz @calculatedFrom(""CRC32"" ) ,
-}
-,}
-    ,
-} root
-    packet	BodyLength
-{ calculatedFrom
-{
-char[]x@calculatedFrom(
-""\n""
-)
-    , // @lengthOf(
-_x @calculatedFrom( ""`tick`""
-    ),	repeat u128,float Packet
-`" ++ [28040; 24687; 31867; 22411]%N ++ runes_of_ascii "`
-    ,}
-    , repeat Foo	{ uint64 a1
-    // `tick` ""quote"" 'q'
-    , } , /// triple
-repeat char[ 42 ] matchKey `it's` ,	lengthOf{ // " ++ [27880; 37322]%N ++ runes_of_ascii "
-u128 trueish  `// not a comment`, match
-chars as MetaDataX {
-00
-    : x_y_z 1
-: trueish, [ 0123456789 ]
-    :	calculatedFrom , [
-    ""CRC32"" ,	""\" ++ [233]%N ++ runes_of_ascii """
-, ""// no comment""
-    , ""it's"" ,	""packet""
-    , 007 ] : Pad
-,
-} ,  } /// triple
-, repeat char[] Logon // `tick` ""quote"" 'q'
-, @leftPad
-    ( '0' //x
-) f32
-    Pad
-    @calculatedFrom(""CRC32"" ) , @lengthOf(
-BodyLength )  options1 @calculatedFrom( ""`tick`"") , A {
-// " ++ [27880; 37322]%N ++ runes_of_ascii "
-//	t
-uint8 charz`u8 x,`
-, falsey x
-`line1
-line2`  , repeat
-    int8 Packet
-    ,zchar[ 1 ] float
-    , }
-, char[ 65535 ] matchKey
-@calculatedFrom( //
-""x y""
-    ) // trailing space 
-, @lengthOf( o//x
-)match	chars
-    as As {	1
-    : f32a
-,
-} , }
-packet
-//	t
-// packet A { u8 x, }
-int
-{ @calculatedFrom( // trailing space 
-""// no comment"" ) @rightPad ( ) @calculatedFrom( """ ++ [233]%N ++ runes_of_ascii "t" ++ [233]%N ++ runes_of_ascii """ ) roots _x
+Eval vm_compute in ("<<<M27>>>" ++ check (runes_of_ascii "MetaData charz
 /// triple
-// trailing space 
-`say ""hi""`	, // `tick` ""quote"" 'q'
-} options { o= ""{,}"" Pad =
-    255 ;  } // " ++ [27880; 37322]%N)).
-Eval vm_compute in ("<<<M123>>>" ++ check (runes_of_ascii "options{
-i64_ = ""`tick`""}
-
+// 50% %s
+{
+u32 metadata , }
+root packet u{ @tag( 42 )
+    repeat uint8
+Foo , }
 ")).
-Eval vm_compute in ("<<<M155>>>" ++ check (runes_of_ascii "packet Foo  { Logon A`a\`, a1 A
-, @lengthOf(
-//	t
-// trailing space 
-tag ) // trailing space 
-x_y_z
-@lengthOf( leftPad
-    ) `it's`, @tag( 255 ) match crc// @lengthOf(
-as  roots {
-""" ++ [233]%N ++ runes_of_ascii "t" ++ [233]%N ++ runes_of_ascii """	:Foo ,[ 10 , 007 //
-, // a // b
-""" ++ [233]%N ++ runes_of_ascii "t" ++ [233]%N ++ runes_of_ascii """ ,
-// c
+Eval vm_compute in ("<<<T27>>>" ++ terms [mkTok 37 "MetaData" 1 0 false; mkTok 42 "charz" 1 9 false; mkTok 44 "/// triple" 2 0 true; mkTok 44 "// 50% %s" 3 0 true; mkTok 2 "{" 4 0 false; mkTok 22 "u32" 5 0 false; mkTok 42 "metadata" 5 4 false; mkTok 40 "," 5 13 false; mkTok 3 "}" 5 15 false; mkTok 34 "root" 6 0 false; mkTok 35 "packet" 6 5 false; mkTok 42 "u" 6 12 false; mkTok 2 "{" 6 13 false; mkTok 9 "@tag(" 6 15 false; mkTok 30 "42" 6 21 false; mkTok 6 ")" 6 24 false; mkTok 36 "repeat" 7 4 false; mkTok 20 "uint8" 7 11 false; mkTok 42 "Foo" 8 0 false; mkTok 40 "," 8 4 false; mkTok 3 "}" 8 6 false; mkTok 0 "<EOF>" 9 0 false] (mkPacket (mkPtok 37 "MetaData" 1 0 0) (Some (mkPtok 3 "}" 8 6 20)) [(DMeta (mkMetaDef (mkSpan (mkPtok 37 "MetaData" 1 0 0) (mkPtok 3 "}" 5 15 8)) (mkPtok 37 "MetaData" 1 0 0) (mkPtok 42 "charz" 1 9 1) (mkPtok 2 "{" 4 0 4) [(MIDecl (mkMetaDecl (mkSpan (mkPtok 22 "u32" 5 0 5) (mkPtok 40 "," 5 13 7)) (TyBasic (mkSpan (mkPtok 22 "u32" 5 0 5) (mkPtok 22 "u32" 5 0 5)) (mkBasicType (mkSpan (mkPtok 22 "u32" 5 0 5) (mkPtok 22 "u32" 5 0 5)) (mkPtok 22 "u32" 5 0 5))) (mkPtok 42 "metadata" 5 4 6) None (mkPtok 40 "," 5 13 7)))] (mkPtok 3 "}" 5 15 8))); (DPacket (mkPacketDef (mkSpan (mkPtok 34 "root" 6 0 9) (mkPtok 3 "}" 8 6 20)) (Some (mkPtok 34 "root" 6 0 9)) (mkPtok 35 "packet" 6 5 10) (mkPtok 42 "u" 6 12 11) (mkPtok 2 "{" 6 13 12) [(mkFieldWithAttr (mkSpan (mkPtok 9 "@tag(" 6 15 13) (mkPtok 40 "," 8 4 19)) [(FATag (mkSpan (mkPtok 9 "@tag(" 6 15 13) (mkPtok 6 ")" 6 24 15)) (mkTagAttr (mkSpan (mkPtok 9 "@tag(" 6 15 13) (mkPtok 6 ")" 6 24 15)) (mkPtok 9 "@tag(" 6 15 13) (mkPtok 30 "42" 6 21 14) (mkPtok 6 ")" 6 24 15)))] (MetaField (mkSpan (mkPtok 36 "repeat" 7 4 16) (mkPtok 40 "," 8 4 19)) (Some (mkPtok 36 "repeat" 7 4 16)) (mkMetaDecl (mkSpan (mkPtok 20 "uint8" 7 11 17) (mkPtok 40 "," 8 4 19)) (TyBasic (mkSpan (mkPtok 20 "uint8" 7 11 17) (mkPtok 20 "uint8" 7 11 17)) (mkBasicType (mkSpan (mkPtok 20 "uint8" 7 11 17) (mkPtok 20 "uint8" 7 11 17)) (mkPtok 20 "uint8" 7 11 17))) (mkPtok 42 "Foo" 8 0 18) None (mkPtok 40 "," 8 4 19))))] (mkPtok 3 "}" 8 6 20)))])).
+Eval vm_compute in ("<<<M59>>>" ++ check (runes_of_ascii "packet Header { repeat int32 options1
+, } //x")).
+Eval vm_compute in ("<<<M91>>>" ++ check (runes_of_ascii "root packet
+f32a { i8i8 @lengthOf( BodyLength) `line1
+line2` , /// triple
+string_ _x , zchar
+,  char rootA
+,@rightPad()
 // @lengthOf(
-""a	b""]
-    :x_y_z}
-    , // @lengthOf(
-}  root packet As { }	MetaData calculatedFrom // trailing space 
-{ Z9_ _x ``	,
-} MetaData tag { // " ++ [27880; 37322]%N ++ runes_of_ascii "
-string body , string options1 ,i8i8 pack, }
-")).
-Eval vm_compute in ("<<<M187>>>" ++ check (runes_of_ascii "  packet repeatCount {
-@rightPad (' ' )
-char[42]	Header @calculatedFrom( ""a\\"" )
-    ,
-// packet A { u8 x, }
-// packet A { u8 x, }
-@tag( 10 ) i64 options1@calculatedFrom( ""x y"" )
-,  Packet{ i64 lengthOf@calculatedFrom( ""abc""
+// 50% %s
+@lengthOf(
+charz//
 )
-    // " ++ [128512]%N ++ runes_of_ascii " emoji
-    , repeat zchar[
-00 ] i64_`u8 x,`
-    , } ,
-    string tag , string
-    o `" ++ [233]%N ++ runes_of_ascii "`
-/// triple
-// " ++ [128512]%N ++ runes_of_ascii " emoji
-, repeat char[  42] a1 `doc`,
-string leftPad @calculatedFrom(""a\\"" ), } 	 ")).
-Eval vm_compute in ("<<<M219>>>" ++ check (runes_of_ascii "packet
-i64_
-{ f64 float,@tag( 0 ) @lengthOf(u )
-    float64 _x  @calculatedFrom(
-    ""x y"" )
-,}
-MetaData matchKey {
-} packet roots { }")).
-Eval vm_compute in ("<<<M251>>>" ++ check (runes_of_ascii "packet
-    uint8x { @tag(	0123456789 // a // b
-) match u as
-As
+    u128 `it's`, i16 uint8x// packet A { u8 x, }
+@lengthOf(tag )	, char[]
+string_, // a // b
+@calculatedFrom(
+""a\""b""  ) //x
+@calculatedFrom( ""\" ++ [233]%N ++ runes_of_ascii """) @calculatedFrom( // " ++ [128512]%N ++ runes_of_ascii " emoji
+""packet"")
+repeat A
+    { match uint8x
+as metadata
+{  [ 65535
+    ,""\" ++ [233]%N ++ runes_of_ascii """,	3]
+: MetaDataX , } , x
     {
-    ""1""
-    :	o ,4294967296 : charz [ ""CRC32""
-    ]	: A , 42: zchar, ""CRC32"" : leftPad //	t
-,
-    """ ++ [28040; 24687]%N ++ runes_of_ascii """// " ++ [128512]%N ++ runes_of_ascii " emoji
-: uint8x, } , }
-    options {
-u128 = uint32
-}
-    packet
-chars
-{
-    // a // b
-    float @lengthOf( _x ) // `tick` ""quote"" 'q'
-, string
-    chars@lengthOf(
-matchKey
-// @lengthOf(
-// packet A { u8 x, }
-) , match  crc as
-    Z9_ {0123456789 : int
-    ,""x y"" //
-:
-    rootA,	""`tick`""
-    : As,
-    // @lengthOf(
-    } ,@tag(7 )
-Pad @lengthOf( trueish  )`u8 x,`
-,}
-packet float
-{ repeat Packet{ lengthOf {
-    //
-    repeat f32a`it's`
-, } ,	o @lengthOf( calculatedFrom	)  , }
-,}
-
-")).
-Eval vm_compute in ("<<<T251>>>" ++ terms [mkTok 35 "packet" 1 0 false; mkTok 42 "uint8x" 2 4 false; mkTok 2 "{" 2 11 false; mkTok 9 "@tag(" 2 13 false; mkTok 30 "0123456789" 2 19 false; mkTok 44 "// a // b" 2 30 true; mkTok 6 ")" 3 0 false; mkTok 38 "match" 3 2 false; mkTok 42 "u" 3 8 false; mkTok 17 "as" 3 10 false; mkTok 42 "As" 4 0 false; mkTok 2 "{" 5 4 false; mkTok 31 """1""" 6 4 false; mkTok 39 ":" 7 4 false; mkTok 42 "o" 7 6 false; mkTok 40 "," 7 8 false; mkTok 30 "4294967296" 7 9 false; mkTok 39 ":" 7 20 false; mkTok 42 "charz" 7 22 false; mkTok 18 "[" 7 28 false; mkTok 31 """CRC32""" 7 30 false; mkTok 13 "]" 8 4 false; mkTok 39 ":" 8 6 false; mkTok 42 "A" 8 8 false; mkTok 40 "," 8 10 false; mkTok 30 "42" 8 12 false; mkTok 39 ":" 8 14 false; mkTok 42 "zchar" 8 16 false; mkTok 40 "," 8 21 false; mkTok 31 """CRC32""" 8 23 false; mkTok 39 ":" 8 31 false; mkTok 42 "leftPad" 8 33 false; mkTok 44 (string_of_bytes [47; 47; 9; 116]%N) 8 41 true; mkTok 40 "," 9 0 false; mkTok 31 (string_of_bytes [34; 230; 182; 136; 230; 129; 175; 34]%N) 10 4 false; mkTok 44 (string_of_bytes [47; 47; 32; 240; 159; 152; 128; 32; 101; 109; 111; 106; 105]%N) 10 8 true; mkTok 39 ":" 11 0 false; mkTok 42 "uint8x" 11 2 false; mkTok 40 "," 11 8 false; mkTok 3 "}" 11 10 false; mkTok 40 "," 11 12 false; mkTok 3 "}" 11 14 false; mkTok 1 "options" 12 4 false; mkTok 2 "{" 12 12 false; mkTok 42 "u128" 13 0 false; mkTok 4 "=" 13 5 false; mkTok 22 "uint32" 13 7 false; mkTok 3 "}" 14 0 false; mkTok 35 "packet" 15 4 false; mkTok 42 "chars" 16 0 false; mkTok 2 "{" 17 0 false; mkTok 44 "// a // b" 18 4 true; mkTok 42 "float" 19 4 false; mkTok 7 "@lengthOf(" 19 10 false; mkTok 42 "_x" 19 21 false; mkTok 6 ")" 19 24 false; mkTok 44 "// `tick` ""quote"" 'q'" 19 26 true; mkTok 40 "," 20 0 false; mkTok 15 "string" 20 2 false; mkTok 42 "chars" 21 4 false; mkTok 7 "@lengthOf(" 21 9 false; mkTok 42 "matchKey" 22 0 false; mkTok 44 "// @lengthOf(" 23 0 true; mkTok 44 "// packet A { u8 x, }" 24 0 true; mkTok 6 ")" 25 0 false; mkTok 40 "," 25 2 false; mkTok 38 "match" 25 4 false; mkTok 42 "crc" 25 11 false; mkTok 17 "as" 25 15 false; mkTok 42 "Z9_" 26 4 false; mkTok 2 "{" 26 8 false; mkTok 30 "0123456789" 26 9 false; mkTok 39 ":" 26 20 false; mkTok 42 "int" 26 22 false; mkTok 40 "," 27 4 false; mkTok 31 """x y""" 27 5 false; mkTok 44 "//" 27 11 true; mkTok 39 ":" 28 0 false; mkTok 42 "rootA" 29 4 false; mkTok 40 "," 29 9 false; mkTok 31 """`tick`""" 29 11 false; mkTok 39 ":" 30 4 false; mkTok 42 "As" 30 6 false; mkTok 40 "," 30 8 false; mkTok 44 "// @lengthOf(" 31 4 true; mkTok 3 "}" 32 4 false; mkTok 40 "," 32 6 false; mkTok 9 "@tag(" 32 7 false; mkTok 30 "7" 32 12 false; mkTok 6 ")" 32 14 false; mkTok 42 "Pad" 33 0 false; mkTok 7 "@lengthOf(" 33 4 false; mkTok 42 "trueish" 33 15 false; mkTok 6 ")" 33 24 false; mkTok 43 "`u8 x,`" 33 25 false; mkTok 40 "," 34 0 false; mkTok 3 "}" 34 1 false; mkTok 35 "packet" 35 0 false; mkTok 42 "float" 35 7 false; mkTok 2 "{" 36 0 false; mkTok 36 "repeat" 36 2 false; mkTok 42 "Packet" 36 9 false; mkTok 2 "{" 36 15 false; mkTok 42 "lengthOf" 36 17 false; mkTok 2 "{" 36 26 false; mkTok 44 "//" 37 4 true; mkTok 36 "repeat" 38 4 false; mkTok 42 "f32a" 38 11 false; mkTok 43 "`it's`" 38 15 false; mkTok 40 "," 39 0 false; mkTok 3 "}" 39 2 false; mkTok 40 "," 39 4 false; mkTok 42 "o" 39 6 false; mkTok 7 "@lengthOf(" 39 8 false; mkTok 42 "calculatedFrom" 39 19 false; mkTok 6 ")" 39 34 false; mkTok 40 "," 39 37 false; mkTok 3 "}" 39 39 false; mkTok 40 "," 40 0 false; mkTok 3 "}" 40 1 false; mkTok 0 "<EOF>" 42 0 false] (mkPacket (mkPtok 35 "packet" 1 0 0) (Some (mkPtok 3 "}" 40 1 119)) [(DPacket (mkPacketDef (mkSpan (mkPtok 35 "packet" 1 0 0) (mkPtok 3 "}" 11 14 41)) None (mkPtok 35 "packet" 1 0 0) (mkPtok 42 "uint8x" 2 4 1) (mkPtok 2 "{" 2 11 2) [(mkFieldWithAttr (mkSpan (mkPtok 9 "@tag(" 2 13 3) (mkPtok 40 "," 11 12 40)) [(FATag (mkSpan (mkPtok 9 "@tag(" 2 13 3) (mkPtok 6 ")" 3 0 6)) (mkTagAttr (mkSpan (mkPtok 9 "@tag(" 2 13 3) (mkPtok 6 ")" 3 0 6)) (mkPtok 9 "@tag(" 2 13 3) (mkPtok 30 "0123456789" 2 19 4) (mkPtok 6 ")" 3 0 6)))] (MatchField (mkSpan (mkPtok 38 "match" 3 2 7) (mkPtok 40 "," 11 12 40)) (mkMatchFieldDecl (mkSpan (mkPtok 38 "match" 3 2 7) (mkPtok 3 "}" 11 10 39)) (mkPtok 38 "match" 3 2 7) (mkPtok 42 "u" 3 8 8) (mkPtok 17 "as" 3 10 9) (mkPtok 42 "As" 4 0 10) (mkPtok 2 "{" 5 4 11) [(mkMatchPair (mkSpan (mkPtok 31 """1""" 6 4 12) (mkPtok 40 "," 7 8 15)) (MKString (mkPtok 31 """1""" 6 4 12)) (mkPtok 39 ":" 7 4 13) (mkPtok 42 "o" 7 6 14) (Some (mkPtok 40 "," 7 8 15))); (mkMatchPair (mkSpan (mkPtok 30 "4294967296" 7 9 16) (mkPtok 42 "charz" 7 22 18)) (MKDigits (mkPtok 30 "4294967296" 7 9 16)) (mkPtok 39 ":" 7 20 17) (mkPtok 42 "charz" 7 22 18) None); (mkMatchPair (mkSpan (mkPtok 18 "[" 7 28 19) (mkPtok 40 "," 8 10 24)) (MKList (mkKeyList (mkSpan (mkPtok 18 "[" 7 28 19) (mkPtok 13 "]" 8 4 21)) (mkPtok 18 "[" 7 28 19) (mkPtok 31 """CRC32""" 7 30 20) [] (mkPtok 13 "]" 8 4 21))) (mkPtok 39 ":" 8 6 22) (mkPtok 42 "A" 8 8 23) (Some (mkPtok 40 "," 8 10 24))); (mkMatchPair (mkSpan (mkPtok 30 "42" 8 12 25) (mkPtok 40 "," 8 21 28)) (MKDigits (mkPtok 30 "42" 8 12 25)) (mkPtok 39 ":" 8 14 26) (mkPtok 42 "zchar" 8 16 27) (Some (mkPtok 40 "," 8 21 28))); (mkMatchPair (mkSpan (mkPtok 31 """CRC32""" 8 23 29) (mkPtok 40 "," 9 0 33)) (MKString (mkPtok 31 """CRC32""" 8 23 29)) (mkPtok 39 ":" 8 31 30) (mkPtok 42 "leftPad" 8 33 31) (Some (mkPtok 40 "," 9 0 33))); (mkMatchPair (mkSpan (mkPtok 31 (string_of_bytes [34; 230; 182; 136; 230; 129; 175; 34]%N) 10 4 34) (mkPtok 40 "," 11 8 38)) (MKString (mkPtok 31 (string_of_bytes [34; 230; 182; 136; 230; 129; 175; 34]%N) 10 4 34)) (mkPtok 39 ":" 11 0 36) (mkPtok 42 "uint8x" 11 2 37) (Some (mkPtok 40 "," 11 8 38)))] (mkPtok 3 "}" 11 10 39)) (mkPtok 40 "," 11 12 40)))] (mkPtok 3 "}" 11 14 41))); (DOption (mkOptionDef (mkSpan (mkPtok 1 "options" 12 4 42) (mkPtok 3 "}" 14 0 47)) (mkPtok 1 "options" 12 4 42) (mkPtok 2 "{" 12 12 43) [(mkOptionDecl (mkSpan (mkPtok 42 "u128" 13 0 44) (mkPtok 22 "uint32" 13 7 46)) (mkPtok 42 "u128" 13 0 44) (mkPtok 4 "=" 13 5 45) (VType (mkSpan (mkPtok 22 "uint32" 13 7 46) (mkPtok 22 "uint32" 13 7 46)) (TyBasic (mkSpan (mkPtok 22 "uint32" 13 7 46) (mkPtok 22 "uint32" 13 7 46)) (mkBasicType (mkSpan (mkPtok 22 "uint32" 13 7 46) (mkPtok 22 "uint32" 13 7 46)) (mkPtok 22 "uint32" 13 7 46)))) None)] (mkPtok 3 "}" 14 0 47))); (DPacket (mkPacketDef (mkSpan (mkPtok 35 "packet" 15 4 48) (mkPtok 3 "}" 34 1 96)) None (mkPtok 35 "packet" 15 4 48) (mkPtok 42 "chars" 16 0 49) (mkPtok 2 "{" 17 0 50) [(mkFieldWithAttr (mkSpan (mkPtok 42 "float" 19 4 52) (mkPtok 40 "," 20 0 57)) [] (LengthField (mkSpan (mkPtok 42 "float" 19 4 52) (mkPtok 40 "," 20 0 57)) (mkLengthFieldDecl (mkSpan (mkPtok 42 "float" 19 4 52) (mkPtok 40 "," 20 0 57)) None (mkPtok 42 "float" 19 4 52) (mkLengthOf (mkSpan (mkPtok 7 "@lengthOf(" 19 10 53) (mkPtok 6 ")" 19 24 55)) (mkPtok 7 "@lengthOf(" 19 10 53) (mkPtok 42 "_x" 19 21 54) (mkPtok 6 ")" 19 24 55)) None (mkPtok 40 "," 20 0 57)))); (mkFieldWithAttr (mkSpan (mkPtok 15 "string" 20 2 58) (mkPtok 40 "," 25 2 65)) [] (LengthField (mkSpan (mkPtok 15 "string" 20 2 58) (mkPtok 40 "," 25 2 65)) (mkLengthFieldDecl (mkSpan (mkPtok 15 "string" 20 2 58) (mkPtok 40 "," 25 2 65)) (Some (TyDynamic (mkSpan (mkPtok 15 "string" 20 2 58) (mkPtok 15 "string" 20 2 58)) (mkDynamicString (mkSpan (mkPtok 15 "string" 20 2 58) (mkPtok 15 "string" 20 2 58)) (mkPtok 15 "string" 20 2 58)))) (mkPtok 42 "chars" 21 4 59) (mkLengthOf (mkSpan (mkPtok 7 "@lengthOf(" 21 9 60) (mkPtok 6 ")" 25 0 64)) (mkPtok 7 "@lengthOf(" 21 9 60) (mkPtok 42 "matchKey" 22 0 61) (mkPtok 6 ")" 25 0 64)) None (mkPtok 40 "," 25 2 65)))); (mkFieldWithAttr (mkSpan (mkPtok 38 "match" 25 4 66) (mkPtok 40 "," 32 6 86)) [] (MatchField (mkSpan (mkPtok 38 "match" 25 4 66) (mkPtok 40 "," 32 6 86)) (mkMatchFieldDecl (mkSpan (mkPtok 38 "match" 25 4 66) (mkPtok 3 "}" 32 4 85)) (mkPtok 38 "match" 25 4 66) (mkPtok 42 "crc" 25 11 67) (mkPtok 17 "as" 25 15 68) (mkPtok 42 "Z9_" 26 4 69) (mkPtok 2 "{" 26 8 70) [(mkMatchPair (mkSpan (mkPtok 30 "0123456789" 26 9 71) (mkPtok 40 "," 27 4 74)) (MKDigits (mkPtok 30 "0123456789" 26 9 71)) (mkPtok 39 ":" 26 20 72) (mkPtok 42 "int" 26 22 73) (Some (mkPtok 40 "," 27 4 74))); (mkMatchPair (mkSpan (mkPtok 31 """x y""" 27 5 75) (mkPtok 40 "," 29 9 79)) (MKString (mkPtok 31 """x y""" 27 5 75)) (mkPtok 39 ":" 28 0 77) (mkPtok 42 "rootA" 29 4 78) (Some (mkPtok 40 "," 29 9 79))); (mkMatchPair (mkSpan (mkPtok 31 """`tick`""" 29 11 80) (mkPtok 40 "," 30 8 83)) (MKString (mkPtok 31 """`tick`""" 29 11 80)) (mkPtok 39 ":" 30 4 81) (mkPtok 42 "As" 30 6 82) (Some (mkPtok 40 "," 30 8 83)))] (mkPtok 3 "}" 32 4 85)) (mkPtok 40 "," 32 6 86))); (mkFieldWithAttr (mkSpan (mkPtok 9 "@tag(" 32 7 87) (mkPtok 40 "," 34 0 95)) [(FATag (mkSpan (mkPtok 9 "@tag(" 32 7 87) (mkPtok 6 ")" 32 14 89)) (mkTagAttr (mkSpan (mkPtok 9 "@tag(" 32 7 87) (mkPtok 6 ")" 32 14 89)) (mkPtok 9 "@tag(" 32 7 87) (mkPtok 30 "7" 32 12 88) (mkPtok 6 ")" 32 14 89)))] (LengthField (mkSpan (mkPtok 42 "Pad" 33 0 90) (mkPtok 40 "," 34 0 95)) (mkLengthFieldDecl (mkSpan (mkPtok 42 "Pad" 33 0 90) (mkPtok 40 "," 34 0 95)) None (mkPtok 42 "Pad" 33 0 90) (mkLengthOf (mkSpan (mkPtok 7 "@lengthOf(" 33 4 91) (mkPtok 6 ")" 33 24 93)) (mkPtok 7 "@lengthOf(" 33 4 91) (mkPtok 42 "trueish" 33 15 92) (mkPtok 6 ")" 33 24 93)) (Some (mkPtok 43 "`u8 x,`" 33 25 94)) (mkPtok 40 "," 34 0 95))))] (mkPtok 3 "}" 34 1 96))); (DPacket (mkPacketDef (mkSpan (mkPtok 35 "packet" 35 0 97) (mkPtok 3 "}" 40 1 119)) None (mkPtok 35 "packet" 35 0 97) (mkPtok 42 "float" 35 7 98) (mkPtok 2 "{" 36 0 99) [(mkFieldWithAttr (mkSpan (mkPtok 36 "repeat" 36 2 100) (mkPtok 40 "," 40 0 118)) [] (InerObjectField (mkSpan (mkPtok 36 "repeat" 36 2 100) (mkPtok 40 "," 40 0 118)) (Some (mkPtok 36 "repeat" 36 2 100)) (InerObjectDecl (mkSpan (mkPtok 42 "Packet" 36 9 101) (mkPtok 3 "}" 39 39 117)) (mkPtok 42 "Packet" 36 9 101) (mkPtok 2 "{" 36 15 102) [(InerObjectField (mkSpan (mkPtok 42 "lengthOf" 36 17 103) (mkPtok 40 "," 39 4 111)) None (InerObjectDecl (mkSpan (mkPtok 42 "lengthOf" 36 17 103) (mkPtok 3 "}" 39 2 110)) (mkPtok 42 "lengthOf" 36 17 103) (mkPtok 2 "{" 36 26 104) [(ObjectField (mkSpan (mkPtok 36 "repeat" 38 4 106) (mkPtok 40 "," 39 0 109)) (Some (mkPtok 36 "repeat" 38 4 106)) (mkPtok 42 "f32a" 38 11 107) None (Some (mkPtok 43 "`it's`" 38 15 108)) (mkPtok 40 "," 39 0 109))] (mkPtok 3 "}" 39 2 110)) (mkPtok 40 "," 39 4 111)); (LengthField (mkSpan (mkPtok 42 "o" 39 6 112) (mkPtok 40 "," 39 37 116)) (mkLengthFieldDecl (mkSpan (mkPtok 42 "o" 39 6 112) (mkPtok 40 "," 39 37 116)) None (mkPtok 42 "o" 39 6 112) (mkLengthOf (mkSpan (mkPtok 7 "@lengthOf(" 39 8 113) (mkPtok 6 ")" 39 34 115)) (mkPtok 7 "@lengthOf(" 39 8 113) (mkPtok 42 "calculatedFrom" 39 19 114) (mkPtok 6 ")" 39 34 115)) None (mkPtok 40 "," 39 37 116)))] (mkPtok 3 "}" 39 39 117)) (mkPtok 40 "," 40 0 118)))] (mkPtok 3 "}" 40 1 119)))])).
-Eval vm_compute in ("<<<M283>>>" ++ check (@nil rune)).
-Eval vm_compute in ("<<<M315>>>" ++ check (runes_of_ascii "  MetaData // c
-crc
-{ i64 matchKey,
-    _x msg_type//
-, zchar zchar
-    ,
-    MetaDataX	matchKey
-    `a\` ,
-    u32 Header // " ++ [128512]%N ++ runes_of_ascii " emoji
-, } MetaData
-_x{
-    } root packet
-    calculatedFrom
-// `tick` ""quote"" 'q'
-// @lengthOf(
-{	}
-")).
-Eval vm_compute in ("<<<M347>>>" ++ check (runes_of_ascii "
-")).
-Eval vm_compute in ("<<<M379>>>" ++ check (runes_of_ascii "root packet falsey { @lengthOf(Pad	)repeatCount
-    @calculatedFrom( ""1"")
-    ,@calculatedFrom( """"
-)
-@lengthOf(
-stringy ) A
-leftPad , @calculatedFrom(""{,}""
-    ) // " ++ [128512]%N ++ runes_of_ascii " emoji
-f32 calculatedFrom `{ , }` , char[007
-    ] a1,
-repeat char[ 007 ] repeatCount`it's`
-, char[] pack `line1
-line2`, } packet // " ++ [128512]%N ++ runes_of_ascii " emoji
-trueish{ repeat zchar[10 ]options1 `a\`
-,  roots@calculatedFrom(
-""" ++ [128512]%N ++ runes_of_ascii """	) `{ , }`
-,  @calculatedFrom(	""a\""b""	)
-_x _x `
-` , //x
-i8 pack
-    , @lengthOf(  string_ )
-match charz
-as
-repeatCount
-{[
-0123456789 ]
-    : x// a // b
-,255:
-    Foo, [ 0123456789 , ""1"" ] : f32a """" :
-    // " ++ [128512]%N ++ runes_of_ascii " emoji
-    len
-,	[0 ,
-0123456789 ,""a\\"" ,65535]
-    : int ,[""packet"" , ""1"" ,65535 ,  ""a\""b""
-    ,	4294967296
-, ""x y""
-    , ""// no comment"" ]
-: calculatedFrom , // trailing space 
-},
-@calculatedFrom( // " ++ [27880; 37322]%N ++ runes_of_ascii "
-""" ++ [28040; 24687]%N ++ runes_of_ascii """
-)Pad int  `tab	here`,
-} packet // c
-As
-{
-    options1
-,  @lengthOf( int // a // b
-)int8
-options1 @lengthOf( u8x)
-`crlf
-line`, } packet falsey { @rightPad ( ) char[ 3] o
-    , }root
-packet
-    // @lengthOf(
-    _x {@tag( 42
-) trueish
-    @calculatedFrom(
-""" ++ [128512]%N ++ runes_of_ascii """ )
-`
-` , f32a `crlf
-line` , match
-rootA as stringy  { // trailing space 
-[ ""packet""
-    ,
-//
+    repeat crc Pad `crlf
+line` ,
+u32 string_ `tab	here`	,} , //
+falsey	@lengthOf( x
 // " ++ [27880; 37322]%N ++ runes_of_ascii "
-"""" ]:
-    uint8x ,  ""\" ++ [233]%N ++ runes_of_ascii """
-: uint8x , [""\n"" ,1 ]
-    : zchar // packet A { u8 x, }
-, 255:
-// `tick` ""quote"" 'q'
-//
-int ,[ ""packet""]: roots }
-, repeat u16 // c
-x_y_z// a // b
-`// not a comment` , }")).
-Eval vm_compute in ("<<<M411>>>" ++ check (runes_of_ascii "// @lengthOf(
-root packet uint8x { repeat
-x_y_z //	t
-{ zchar[ 10
-] stringy@calculatedFrom(// `tick` ""quote"" 'q'
-""x y"" ) , // a // b
-}//	t
-,
-    i64
-body @lengthOf( options1
-    ) `u8 x,` ,lengthOf  {
-    // packet A { u8 x, }
-    match T
-as
-len {007
-    :
-    BodyLength 1 :	_x ""\n"" :	chars , 255
-: /// triple
-a1 , } , f64 roots
-@lengthOf(  Foo)
-    , lengthOf @lengthOf(  x_y_z
-    )`
-`,	repeat // `tick` ""quote"" 'q'
-string tag
-`tab	here` , } , // @lengthOf(
-} options
-{
-    falsey = char[ 0123456789
-    ]roots
-    // `tick` ""quote"" 'q'
-    = int64 // packet A { u8 x, }
-; A	= 007 }
-")).
-Eval vm_compute in ("<<<M443>>>" ++ check (runes_of_ascii "/// triple
-root
-packet Logon{@calculatedFrom(	""CRC32""	) uint8x {
-roots pack  `line1
-line2`,},
-    string u
-    ,  }packet body {
-uint64 Logon ,
-}
-    root packet lengthOf { } packet A {u32 pack // `tick` ""quote"" 'q'
-@calculatedFrom(// c
-""" ++ [128512]%N ++ runes_of_ascii """ ) ,
-    }")).
-Eval vm_compute in ("<<<M475>>>" ++ check (runes_of_ascii "// a // b
-MetaData x{ i8 MetaDataX
-`" ++ [233]%N ++ runes_of_ascii "`
-,
-string matchKey
-//	t
-// " ++ [27880; 37322]%N ++ runes_of_ascii "
-, // packet A { u8 x, }
-BodyLength
-f32a,
-char[ 7 ] u8x ,	char[] len , int16
-msg_type
-    , }packet o{ match roots as T{ [
-    255 , 1 , 1 , """ ++ [28040; 24687]%N ++ runes_of_ascii """
-, ""`tick`"",
-    ""a\""b""
-// c
-//x
-, 42	] :pack
-, [ 0 //
-,
-""// no comment"" ] :
-    Logon, [ ""1"", ""abc""
-, 255 , 3 , ""\n""	, 255 , """ ++ [128512]%N ++ runes_of_ascii """
-    ,
-    ""{,}""
-] // a // b
-:
-    x_y_z , }
-,
-    char[] len
-    @lengthOf(Pad )
-,
-char[]
-BodyLength ,trueish @calculatedFrom(""1"" )`" ++ [233]%N ++ runes_of_ascii "` , match
-chars as x_y_z{ ""`tick`""
-:calculatedFrom , } , @lengthOf( string_ ) char[
-    3 ]f32a,falsey `" ++ [28040; 24687; 31867; 22411]%N ++ runes_of_ascii "` ,
-repeat int64 //
-u128 `tab	here`, uint8 msg_type @calculatedFrom( ""a\\"" )  `line1
-line2`	, } options
-{
-    body =zchar[ 4294967296
-] ;u128 = '\x00' BodyLength= float32 }
-// @lengthOf(
-")).
-Eval vm_compute in ("<<<T475>>>" ++ terms [mkTok 44 "// a // b" 1 0 true; mkTok 37 "MetaData" 2 0 false; mkTok 42 "x" 2 9 false; mkTok 2 "{" 2 10 false; mkTok 24 "i8" 2 12 false; mkTok 42 "MetaDataX" 2 15 false; mkTok 43 (string_of_bytes [96; 195; 169; 96]%N) 3 0 false; mkTok 40 "," 4 0 false; mkTok 15 "string" 5 0 false; mkTok 42 "matchKey" 5 7 false; mkTok 44 (string_of_bytes [47; 47; 9; 116]%N) 6 0 true; mkTok 44 (string_of_bytes [47; 47; 32; 230; 179; 168; 233; 135; 138]%N) 7 0 true; mkTok 40 "," 8 0 false; mkTok 44 "// packet A { u8 x, }" 8 2 true; mkTok 42 "BodyLength" 9 0 false; mkTok 42 "f32a" 10 0 false; mkTok 40 "," 10 4 false; mkTok 12 "char[" 11 0 false; mkTok 30 "7" 11 6 false; mkTok 13 "]" 11 8 false; mkTok 42 "u8x" 11 10 false; mkTok 40 "," 11 14 false; mkTok 16 "char[]" 11 16 false; mkTok 42 "len" 11 23 false; mkTok 40 "," 11 27 false; mkTok 25 "int16" 11 29 false; mkTok 42 "msg_type" 12 0 false; mkTok 40 "," 13 4 false; mkTok 3 "}" 13 6 false; mkTok 35 "packet" 13 7 false; mkTok 42 "o" 13 14 false; mkTok 2 "{" 13 15 false; mkTok 38 "match" 13 17 false; mkTok 42 "roots" 13 23 false; mkTok 17 "as" 13 29 false; mkTok 42 "T" 13 32 false; mkTok 2 "{" 13 33 false; mkTok 18 "[" 13 35 false; mkTok 30 "255" 14 4 false; mkTok 40 "," 14 8 false; mkTok 30 "1" 14 10 false; mkTok 40 "," 14 12 false; mkTok 30 "1" 14 14 false; mkTok 40 "," 14 16 false; mkTok 31 (string_of_bytes [34; 230; 182; 136; 230; 129; 175; 34]%N) 14 18 false; mkTok 40 "," 15 0 false; mkTok 31 """`tick`""" 15 2 false; mkTok 40 "," 15 10 false; mkTok 31 """a\""b""" 16 4 false; mkTok 44 "// c" 17 0 true; mkTok 44 "//x" 18 0 true; mkTok 40 "," 19 0 false; mkTok 30 "42" 19 2 false; mkTok 13 "]" 19 5 false; mkTok 39 ":" 19 7 false; mkTok 42 "pack" 19 8 false; mkTok 40 "," 20 0 false; mkTok 18 "[" 20 2 false; mkTok 30 "0" 20 4 false; mkTok 44 "//" 20 6 true; mkTok 40 "," 21 0 false; mkTok 31 """// no comment""" 22 0 false; mkTok 13 "]" 22 16 false; mkTok 39 ":" 22 18 false; mkTok 42 "Logon" 23 4 false; mkTok 40 "," 23 9 false; mkTok 18 "[" 23 11 false; mkTok 31 """1""" 23 13 false; mkTok 40 "," 23 16 false; mkTok 31 """abc""" 23 18 false; mkTok 40 "," 24 0 false; mkTok 30 "255" 24 2 false; mkTok 40 "," 24 6 false; mkTok 30 "3" 24 8 false; mkTok 40 "," 24 10 false; mkTok 31 """\n""" 24 12 false; mkTok 40 "," 24 17 false; mkTok 30 "255" 24 19 false; mkTok 40 "," 24 23 false; mkTok 31 (string_of_bytes [34; 240; 159; 152; 128; 34]%N) 24 25 false; mkTok 40 "," 25 4 false; mkTok 31 """{,}""" 26 4 false; mkTok 13 "]" 27 0 false; mkTok 44 "// a // b" 27 2 true; mkTok 39 ":" 28 0 false; mkTok 42 "x_y_z" 29 4 false; mkTok 40 "," 29 10 false; mkTok 3 "}" 29 12 false; mkTok 40 "," 30 0 false; mkTok 16 "char[]" 31 4 false; mkTok 42 "len" 31 11 false; mkTok 7 "@lengthOf(" 32 4 false; mkTok 42 "Pad" 32 14 false; mkTok 6 ")" 32 18 false; mkTok 40 "," 33 0 false; mkTok 16 "char[]" 34 0 false; mkTok 42 "BodyLength" 35 0 false; mkTok 40 "," 35 11 false; mkTok 42 "trueish" 35 12 false; mkTok 5 "@calculatedFrom(" 35 20 false; mkTok 31 """1""" 35 36 false; mkTok 6 ")" 35 40 false; mkTok 43 (string_of_bytes [96; 195; 169; 96]%N) 35 41 false; mkTok 40 "," 35 45 false; mkTok 38 "match" 35 47 false; mkTok 42 "chars" 36 0 false; mkTok 17 "as" 36 6 false; mkTok 42 "x_y_z" 36 9 false; mkTok 2 "{" 36 14 false; mkTok 31 """`tick`""" 36 16 false; mkTok 39 ":" 37 0 false; mkTok 42 "calculatedFrom" 37 1 false; mkTok 40 "," 37 16 false; mkTok 3 "}" 37 18 false; mkTok 40 "," 37 20 false; mkTok 7 "@lengthOf(" 37 22 false; mkTok 42 "string_" 37 33 false; mkTok 6 ")" 37 41 false; mkTok 12 "char[" 37 43 false; mkTok 30 "3" 38 4 false; mkTok 13 "]" 38 6 false; mkTok 42 "f32a" 38 7 false; mkTok 40 "," 38 11 false; mkTok 42 "falsey" 38 12 false; mkTok 43 (string_of_bytes [96; 230; 182; 136; 230; 129; 175; 231; 177; 187; 229; 158; 139; 96]%N) 38 19 false; mkTok 40 "," 38 26 false; mkTok 36 "repeat" 39 0 false; mkTok 27 "int64" 39 7 false; mkTok 44 "//" 39 13 true; mkTok 42 "u128" 40 0 false; mkTok 43 (string_of_bytes [96; 116; 97; 98; 9; 104; 101; 114; 101; 96]%N) 40 5 false; mkTok 40 "," 40 15 false; mkTok 20 "uint8" 40 17 false; mkTok 42 "msg_type" 40 23 false; mkTok 5 "@calculatedFrom(" 40 32 false; mkTok 31 """a\\""" 40 49 false; mkTok 6 ")" 40 55 false; mkTok 43 (string_of_bytes [96; 108; 105; 110; 101; 49; 10; 108; 105; 110; 101; 50; 96]%N) 40 58 false; mkTok 40 "," 41 7 false; mkTok 3 "}" 41 9 false; mkTok 1 "options" 41 11 false; mkTok 2 "{" 42 0 false; mkTok 42 "body" 43 4 false; mkTok 4 "=" 43 9 false; mkTok 14 "zchar[" 43 10 false; mkTok 30 "4294967296" 43 17 false; mkTok 13 "]" 44 0 false; mkTok 41 ";" 44 2 false; mkTok 42 "u128" 44 3 false; mkTok 4 "=" 44 8 false; mkTok 33 "'\x00'" 44 10 false; mkTok 42 "BodyLength" 44 17 false; mkTok 4 "=" 44 27 false; mkTok 28 "float32" 44 29 false; mkTok 3 "}" 44 37 false; mkTok 44 "// @lengthOf(" 45 0 true; mkTok 0 "<EOF>" 46 0 false] (mkPacket (mkPtok 37 "MetaData" 2 0 1) (Some (mkPtok 3 "}" 44 37 154)) [(DMeta (mkMetaDef (mkSpan (mkPtok 37 "MetaData" 2 0 1) (mkPtok 3 "}" 13 6 28)) (mkPtok 37 "MetaData" 2 0 1) (mkPtok 42 "x" 2 9 2) (mkPtok 2 "{" 2 10 3) [(MIDecl (mkMetaDecl (mkSpan (mkPtok 24 "i8" 2 12 4) (mkPtok 40 "," 4 0 7)) (TyBasic (mkSpan (mkPtok 24 "i8" 2 12 4) (mkPtok 24 "i8" 2 12 4)) (mkBasicType (mkSpan (mkPtok 24 "i8" 2 12 4) (mkPtok 24 "i8" 2 12 4)) (mkPtok 24 "i8" 2 12 4))) (mkPtok 42 "MetaDataX" 2 15 5) (Some (mkPtok 43 (string_of_bytes [96; 195; 169; 96]%N) 3 0 6)) (mkPtok 40 "," 4 0 7))); (MIDecl (mkMetaDecl (mkSpan (mkPtok 15 "string" 5 0 8) (mkPtok 40 "," 8 0 12)) (TyDynamic (mkSpan (mkPtok 15 "string" 5 0 8) (mkPtok 15 "string" 5 0 8)) (mkDynamicString (mkSpan (mkPtok 15 "string" 5 0 8) (mkPtok 15 "string" 5 0 8)) (mkPtok 15 "string" 5 0 8))) (mkPtok 42 "matchKey" 5 7 9) None (mkPtok 40 "," 8 0 12))); (MIRef (mkRefMetaDecl (mkSpan (mkPtok 42 "BodyLength" 9 0 14) (mkPtok 40 "," 10 4 16)) (mkPtok 42 "BodyLength" 9 0 14) (mkPtok 42 "f32a" 10 0 15) None (mkPtok 40 "," 10 4 16))); (MIDecl (mkMetaDecl (mkSpan (mkPtok 12 "char[" 11 0 17) (mkPtok 40 "," 11 14 21)) (TyFixed (mkSpan (mkPtok 12 "char[" 11 0 17) (mkPtok 13 "]" 11 8 19)) (mkFixedString (mkSpan (mkPtok 12 "char[" 11 0 17) (mkPtok 13 "]" 11 8 19)) (mkPtok 12 "char[" 11 0 17) (mkPtok 30 "7" 11 6 18) (mkPtok 13 "]" 11 8 19))) (mkPtok 42 "u8x" 11 10 20) None (mkPtok 40 "," 11 14 21))); (MIDecl (mkMetaDecl (mkSpan (mkPtok 16 "char[]" 11 16 22) (mkPtok 40 "," 11 27 24)) (TyDynamic (mkSpan (mkPtok 16 "char[]" 11 16 22) (mkPtok 16 "char[]" 11 16 22)) (mkDynamicString (mkSpan (mkPtok 16 "char[]" 11 16 22) (mkPtok 16 "char[]" 11 16 22)) (mkPtok 16 "char[]" 11 16 22))) (mkPtok 42 "len" 11 23 23) None (mkPtok 40 "," 11 27 24))); (MIDecl (mkMetaDecl (mkSpan (mkPtok 25 "int16" 11 29 25) (mkPtok 40 "," 13 4 27)) (TyBasic (mkSpan (mkPtok 25 "int16" 11 29 25) (mkPtok 25 "int16" 11 29 25)) (mkBasicType (mkSpan (mkPtok 25 "int16" 11 29 25) (mkPtok 25 "int16" 11 29 25)) (mkPtok 25 "int16" 11 29 25))) (mkPtok 42 "msg_type" 12 0 26) None (mkPtok 40 "," 13 4 27)))] (mkPtok 3 "}" 13 6 28))); (DPacket (mkPacketDef (mkSpan (mkPtok 35 "packet" 13 7 29) (mkPtok 3 "}" 41 9 139)) None (mkPtok 35 "packet" 13 7 29) (mkPtok 42 "o" 13 14 30) (mkPtok 2 "{" 13 15 31) [(mkFieldWithAttr (mkSpan (mkPtok 38 "match" 13 17 32) (mkPtok 40 "," 30 0 88)) [] (MatchField (mkSpan (mkPtok 38 "match" 13 17 32) (mkPtok 40 "," 30 0 88)) (mkMatchFieldDecl (mkSpan (mkPtok 38 "match" 13 17 32) (mkPtok 3 "}" 29 12 87)) (mkPtok 38 "match" 13 17 32) (mkPtok 42 "roots" 13 23 33) (mkPtok 17 "as" 13 29 34) (mkPtok 42 "T" 13 32 35) (mkPtok 2 "{" 13 33 36) [(mkMatchPair (mkSpan (mkPtok 18 "[" 13 35 37) (mkPtok 40 "," 20 0 56)) (MKList (mkKeyList (mkSpan (mkPtok 18 "[" 13 35 37) (mkPtok 13 "]" 19 5 53)) (mkPtok 18 "[" 13 35 37) (mkPtok 30 "255" 14 4 38) [((mkPtok 40 "," 14 8 39), (mkPtok 30 "1" 14 10 40)); ((mkPtok 40 "," 14 12 41), (mkPtok 30 "1" 14 14 42)); ((mkPtok 40 "," 14 16 43), (mkPtok 31 (string_of_bytes [34; 230; 182; 136; 230; 129; 175; 34]%N) 14 18 44)); ((mkPtok 40 "," 15 0 45), (mkPtok 31 """`tick`""" 15 2 46)); ((mkPtok 40 "," 15 10 47), (mkPtok 31 """a\""b""" 16 4 48)); ((mkPtok 40 "," 19 0 51), (mkPtok 30 "42" 19 2 52))] (mkPtok 13 "]" 19 5 53))) (mkPtok 39 ":" 19 7 54) (mkPtok 42 "pack" 19 8 55) (Some (mkPtok 40 "," 20 0 56))); (mkMatchPair (mkSpan (mkPtok 18 "[" 20 2 57) (mkPtok 40 "," 23 9 65)) (MKList (mkKeyList (mkSpan (mkPtok 18 "[" 20 2 57) (mkPtok 13 "]" 22 16 62)) (mkPtok 18 "[" 20 2 57) (mkPtok 30 "0" 20 4 58) [((mkPtok 40 "," 21 0 60), (mkPtok 31 """// no comment""" 22 0 61))] (mkPtok 13 "]" 22 16 62))) (mkPtok 39 ":" 22 18 63) (mkPtok 42 "Logon" 23 4 64) (Some (mkPtok 40 "," 23 9 65))); (mkMatchPair (mkSpan (mkPtok 18 "[" 23 11 66) (mkPtok 40 "," 29 10 86)) (MKList (mkKeyList (mkSpan (mkPtok 18 "[" 23 11 66) (mkPtok 13 "]" 27 0 82)) (mkPtok 18 "[" 23 11 66) (mkPtok 31 """1""" 23 13 67) [((mkPtok 40 "," 23 16 68), (mkPtok 31 """abc""" 23 18 69)); ((mkPtok 40 "," 24 0 70), (mkPtok 30 "255" 24 2 71)); ((mkPtok 40 "," 24 6 72), (mkPtok 30 "3" 24 8 73)); ((mkPtok 40 "," 24 10 74), (mkPtok 31 """\n""" 24 12 75)); ((mkPtok 40 "," 24 17 76), (mkPtok 30 "255" 24 19 77)); ((mkPtok 40 "," 24 23 78), (mkPtok 31 (string_of_bytes [34; 240; 159; 152; 128; 34]%N) 24 25 79)); ((mkPtok 40 "," 25 4 80), (mkPtok 31 """{,}""" 26 4 81))] (mkPtok 13 "]" 27 0 82))) (mkPtok 39 ":" 28 0 84) (mkPtok 42 "x_y_z" 29 4 85) (Some (mkPtok 40 "," 29 10 86)))] (mkPtok 3 "}" 29 12 87)) (mkPtok 40 "," 30 0 88))); (mkFieldWithAttr (mkSpan (mkPtok 16 "char[]" 31 4 89) (mkPtok 40 "," 33 0 94)) [] (LengthField (mkSpan (mkPtok 16 "char[]" 31 4 89) (mkPtok 40 "," 33 0 94)) (mkLengthFieldDecl (mkSpan (mkPtok 16 "char[]" 31 4 89) (mkPtok 40 "," 33 0 94)) (Some (TyDynamic (mkSpan (mkPtok 16 "char[]" 31 4 89) (mkPtok 16 "char[]" 31 4 89)) (mkDynamicString (mkSpan (mkPtok 16 "char[]" 31 4 89) (mkPtok 16 "char[]" 31 4 89)) (mkPtok 16 "char[]" 31 4 89)))) (mkPtok 42 "len" 31 11 90) (mkLengthOf (mkSpan (mkPtok 7 "@lengthOf(" 32 4 91) (mkPtok 6 ")" 32 18 93)) (mkPtok 7 "@lengthOf(" 32 4 91) (mkPtok 42 "Pad" 32 14 92) (mkPtok 6 ")" 32 18 93)) None (mkPtok 40 "," 33 0 94)))); (mkFieldWithAttr (mkSpan (mkPtok 16 "char[]" 34 0 95) (mkPtok 40 "," 35 11 97)) [] (MetaField (mkSpan (mkPtok 16 "char[]" 34 0 95) (mkPtok 40 "," 35 11 97)) None (mkMetaDecl (mkSpan (mkPtok 16 "char[]" 34 0 95) (mkPtok 40 "," 35 11 97)) (TyDynamic (mkSpan (mkPtok 16 "char[]" 34 0 95) (mkPtok 16 "char[]" 34 0 95)) (mkDynamicString (mkSpan (mkPtok 16 "char[]" 34 0 95) (mkPtok 16 "char[]" 34 0 95)) (mkPtok 16 "char[]" 34 0 95))) (mkPtok 42 "BodyLength" 35 0 96) None (mkPtok 40 "," 35 11 97)))); (mkFieldWithAttr (mkSpan (mkPtok 42 "trueish" 35 12 98) (mkPtok 40 "," 35 45 103)) [] (CheckSumField (mkSpan (mkPtok 42 "trueish" 35 12 98) (mkPtok 40 "," 35 45 103)) (mkChecksumFieldDecl (mkSpan (mkPtok 42 "trueish" 35 12 98) (mkPtok 40 "," 35 45 103)) None (mkPtok 42 "trueish" 35 12 98) (mkCalculatedFrom (mkSpan (mkPtok 5 "@calculatedFrom(" 35 20 99) (mkPtok 6 ")" 35 40 101)) (mkPtok 5 "@calculatedFrom(" 35 20 99) (mkPtok 31 """1""" 35 36 100) (mkPtok 6 ")" 35 40 101)) (Some (mkPtok 43 (string_of_bytes [96; 195; 169; 96]%N) 35 41 102)) (mkPtok 40 "," 35 45 103)))); (mkFieldWithAttr (mkSpan (mkPtok 38 "match" 35 47 104) (mkPtok 40 "," 37 20 114)) [] (MatchField (mkSpan (mkPtok 38 "match" 35 47 104) (mkPtok 40 "," 37 20 114)) (mkMatchFieldDecl (mkSpan (mkPtok 38 "match" 35 47 104) (mkPtok 3 "}" 37 18 113)) (mkPtok 38 "match" 35 47 104) (mkPtok 42 "chars" 36 0 105) (mkPtok 17 "as" 36 6 106) (mkPtok 42 "x_y_z" 36 9 107) (mkPtok 2 "{" 36 14 108) [(mkMatchPair (mkSpan (mkPtok 31 """`tick`""" 36 16 109) (mkPtok 40 "," 37 16 112)) (MKString (mkPtok 31 """`tick`""" 36 16 109)) (mkPtok 39 ":" 37 0 110) (mkPtok 42 "calculatedFrom" 37 1 111) (Some (mkPtok 40 "," 37 16 112)))] (mkPtok 3 "}" 37 18 113)) (mkPtok 40 "," 37 20 114))); (mkFieldWithAttr (mkSpan (mkPtok 7 "@lengthOf(" 37 22 115) (mkPtok 40 "," 38 11 122)) [(FALengthOf (mkSpan (mkPtok 7 "@lengthOf(" 37 22 115) (mkPtok 6 ")" 37 41 117)) (mkLengthOf (mkSpan (mkPtok 7 "@lengthOf(" 37 22 115) (mkPtok 6 ")" 37 41 117)) (mkPtok 7 "@lengthOf(" 37 22 115) (mkPtok 42 "string_" 37 33 116) (mkPtok 6 ")" 37 41 117)))] (MetaField (mkSpan (mkPtok 12 "char[" 37 43 118) (mkPtok 40 "," 38 11 122)) None (mkMetaDecl (mkSpan (mkPtok 12 "char[" 37 43 118) (mkPtok 40 "," 38 11 122)) (TyFixed (mkSpan (mkPtok 12 "char[" 37 43 118) (mkPtok 13 "]" 38 6 120)) (mkFixedString (mkSpan (mkPtok 12 "char[" 37 43 118) (mkPtok 13 "]" 38 6 120)) (mkPtok 12 "char[" 37 43 118) (mkPtok 30 "3" 38 4 119) (mkPtok 13 "]" 38 6 120))) (mkPtok 42 "f32a" 38 7 121) None (mkPtok 40 "," 38 11 122)))); (mkFieldWithAttr (mkSpan (mkPtok 42 "falsey" 38 12 123) (mkPtok 40 "," 38 26 125)) [] (ObjectField (mkSpan (mkPtok 42 "falsey" 38 12 123) (mkPtok 40 "," 38 26 125)) None (mkPtok 42 "falsey" 38 12 123) None (Some (mkPtok 43 (string_of_bytes [96; 230; 182; 136; 230; 129; 175; 231; 177; 187; 229; 158; 139; 96]%N) 38 19 124)) (mkPtok 40 "," 38 26 125))); (mkFieldWithAttr (mkSpan (mkPtok 36 "repeat" 39 0 126) (mkPtok 40 "," 40 15 131)) [] (MetaField (mkSpan (mkPtok 36 "repeat" 39 0 126) (mkPtok 40 "," 40 15 131)) (Some (mkPtok 36 "repeat" 39 0 126)) (mkMetaDecl (mkSpan (mkPtok 27 "int64" 39 7 127) (mkPtok 40 "," 40 15 131)) (TyBasic (mkSpan (mkPtok 27 "int64" 39 7 127) (mkPtok 27 "int64" 39 7 127)) (mkBasicType (mkSpan (mkPtok 27 "int64" 39 7 127) (mkPtok 27 "int64" 39 7 127)) (mkPtok 27 "int64" 39 7 127))) (mkPtok 42 "u128" 40 0 129) (Some (mkPtok 43 (string_of_bytes [96; 116; 97; 98; 9; 104; 101; 114; 101; 96]%N) 40 5 130)) (mkPtok 40 "," 40 15 131)))); (mkFieldWithAttr (mkSpan (mkPtok 20 "uint8" 40 17 132) (mkPtok 40 "," 41 7 138)) [] (CheckSumField (mkSpan (mkPtok 20 "uint8" 40 17 132) (mkPtok 40 "," 41 7 138)) (mkChecksumFieldDecl (mkSpan (mkPtok 20 "uint8" 40 17 132) (mkPtok 40 "," 41 7 138)) (Some (TyBasic (mkSpan (mkPtok 20 "uint8" 40 17 132) (mkPtok 20 "uint8" 40 17 132)) (mkBasicType (mkSpan (mkPtok 20 "uint8" 40 17 132) (mkPtok 20 "uint8" 40 17 132)) (mkPtok 20 "uint8" 40 17 132)))) (mkPtok 42 "msg_type" 40 23 133) (mkCalculatedFrom (mkSpan (mkPtok 5 "@calculatedFrom(" 40 32 134) (mkPtok 6 ")" 40 55 136)) (mkPtok 5 "@calculatedFrom(" 40 32 134) (mkPtok 31 """a\\""" 40 49 135) (mkPtok 6 ")" 40 55 136)) (Some (mkPtok 43 (string_of_bytes [96; 108; 105; 110; 101; 49; 10; 108; 105; 110; 101; 50; 96]%N) 40 58 137)) (mkPtok 40 "," 41 7 138))))] (mkPtok 3 "}" 41 9 139))); (DOption (mkOptionDef (mkSpan (mkPtok 1 "options" 41 11 140) (mkPtok 3 "}" 44 37 154)) (mkPtok 1 "options" 41 11 140) (mkPtok 2 "{" 42 0 141) [(mkOptionDecl (mkSpan (mkPtok 42 "body" 43 4 142) (mkPtok 41 ";" 44 2 147)) (mkPtok 42 "body" 43 4 142) (mkPtok 4 "=" 43 9 143) (VType (mkSpan (mkPtok 14 "zchar[" 43 10 144) (mkPtok 13 "]" 44 0 146)) (TyFixed (mkSpan (mkPtok 14 "zchar[" 43 10 144) (mkPtok 13 "]" 44 0 146)) (mkFixedString (mkSpan (mkPtok 14 "zchar[" 43 10 144) (mkPtok 13 "]" 44 0 146)) (mkPtok 14 "zchar[" 43 10 144) (mkPtok 30 "4294967296" 43 17 145) (mkPtok 13 "]" 44 0 146)))) (Some (mkPtok 41 ";" 44 2 147))); (mkOptionDecl (mkSpan (mkPtok 42 "u128" 44 3 148) (mkPtok 33 "'\x00'" 44 10 150)) (mkPtok 42 "u128" 44 3 148) (mkPtok 4 "=" 44 8 149) (VPaddingChar (mkSpan (mkPtok 33 "'\x00'" 44 10 150) (mkPtok 33 "'\x00'" 44 10 150)) (mkPtok 33 "'\x00'" 44 10 150)) None); (mkOptionDecl (mkSpan (mkPtok 42 "BodyLength" 44 17 151) (mkPtok 28 "float32" 44 29 153)) (mkPtok 42 "BodyLength" 44 17 151) (mkPtok 4 "=" 44 27 152) (VType (mkSpan (mkPtok 28 "float32" 44 29 153) (mkPtok 28 "float32" 44 29 153)) (TyBasic (mkSpan (mkPtok 28 "float32" 44 29 153) (mkPtok 28 "float32" 44 29 153)) (mkBasicType (mkSpan (mkPtok 28 "float32" 44 29 153) (mkPtok 28 "float32" 44 29 153)) (mkPtok 28 "float32" 44 29 153)))) None)] (mkPtok 3 "}" 44 37 154)))])).
-Eval vm_compute in ("<<<M507>>>" ++ check (runes_of_ascii "
-")).
-Eval vm_compute in ("<<<M539>>>" ++ check (runes_of_ascii "MetaData metadata { //	t
-uint8x pack , a1
-f32a , zchar a1 , rootA Header ,
-    char[  42
-    ]	string_,
-    asx charz `crlf
-line`
-    // @lengthOf(
-    , } options /// triple
-{
-    } 	 ")).
-Eval vm_compute in ("<<<M571>>>" ++ check (runes_of_ascii "packet _x	{ }
-")).
-Eval vm_compute in ("<<<M603>>>" ++ check (runes_of_ascii "
-packet T {
-@leftPad ( )
-@calculatedFrom(""" ++ [233]%N ++ runes_of_ascii "t" ++ [233]%N ++ runes_of_ascii """ ) msg_type // trailing space 
-@lengthOf( i8i8
-)`a\`
-    ,
-// `tick` ""quote"" 'q'
-// " ++ [128512]%N ++ runes_of_ascii " emoji
-}")).
-Eval vm_compute in ("<<<M635>>>" ++ check (runes_of_ascii "root packet matchKey // trailing space 
-{ // a // b
-u8 roots `two words` , // " ++ [27880; 37322]%N ++ runes_of_ascii "
-} //	t
-root packet float {	@rightPad ( '0') i8i8
-    , packetx @calculatedFrom( ""a\\""
-) ,float32
-    trueish
-    `
-`  ,
-    @calculatedFrom(
-""x y"" // c
-)
-    @lengthOf( //
-o
-// c
 /// triple
-) @lengthOf( uint8x ) i16 Logon
-    , @leftPad (
-    ' ' ) @lengthOf(
-zchar	)
-@lengthOf(
-    x_y_z )
-o
-matchKey
-    `" ++ [233]%N ++ runes_of_ascii "` ,
-    match u8x	as Z9_  { ""a\""b"":// " ++ [27880; 37322]%N ++ runes_of_ascii "
-_x , } , crc
-BodyLength `it's` ,}
-//
-")).
-Eval vm_compute in ("<<<M667>>>" ++ check (runes_of_ascii "packet x_y_z {
-@lengthOf(
-roots
-) u32  Pad `{ , }` ,
-    // packet A { u8 x, }
-    repeat body{ repeat
-    body roots `line1
-line2` , }
-    ,
-}
-
-")).
-Eval vm_compute in ("<<<M699>>>" ++ check (runes_of_ascii "options {Pad = ""a	b""
-    ;
-//
-// `tick` ""quote"" 'q'
-u
-= '\x00'
-;lengthOf
-= ' '
-    ; }
-")).
-Eval vm_compute in ("<<<T699>>>" ++ terms [mkTok 1 "options" 1 0 false; mkTok 2 "{" 1 8 false; mkTok 42 "Pad" 1 9 false; mkTok 4 "=" 1 13 false; mkTok 31 (string_of_bytes [34; 97; 9; 98; 34]%N) 1 15 false; mkTok 41 ";" 2 4 false; mkTok 44 "//" 3 0 true; mkTok 44 "// `tick` ""quote"" 'q'" 4 0 true; mkTok 42 "u" 5 0 false; mkTok 4 "=" 6 0 false; mkTok 33 "'\x00'" 6 2 false; mkTok 41 ";" 7 0 false; mkTok 42 "lengthOf" 7 1 false; mkTok 4 "=" 8 0 false; mkTok 33 "' '" 8 2 false; mkTok 41 ";" 9 4 false; mkTok 3 "}" 9 6 false; mkTok 0 "<EOF>" 10 0 false] (mkPacket (mkPtok 1 "options" 1 0 0) (Some (mkPtok 3 "}" 9 6 16)) [(DOption (mkOptionDef (mkSpan (mkPtok 1 "options" 1 0 0) (mkPtok 3 "}" 9 6 16)) (mkPtok 1 "options" 1 0 0) (mkPtok 2 "{" 1 8 1) [(mkOptionDecl (mkSpan (mkPtok 42 "Pad" 1 9 2) (mkPtok 41 ";" 2 4 5)) (mkPtok 42 "Pad" 1 9 2) (mkPtok 4 "=" 1 13 3) (VString (mkSpan (mkPtok 31 (string_of_bytes [34; 97; 9; 98; 34]%N) 1 15 4) (mkPtok 31 (string_of_bytes [34; 97; 9; 98; 34]%N) 1 15 4)) (mkPtok 31 (string_of_bytes [34; 97; 9; 98; 34]%N) 1 15 4)) (Some (mkPtok 41 ";" 2 4 5))); (mkOptionDecl (mkSpan (mkPtok 42 "u" 5 0 8) (mkPtok 41 ";" 7 0 11)) (mkPtok 42 "u" 5 0 8) (mkPtok 4 "=" 6 0 9) (VPaddingChar (mkSpan (mkPtok 33 "'\x00'" 6 2 10) (mkPtok 33 "'\x00'" 6 2 10)) (mkPtok 33 "'\x00'" 6 2 10)) (Some (mkPtok 41 ";" 7 0 11))); (mkOptionDecl (mkSpan (mkPtok 42 "lengthOf" 7 1 12) (mkPtok 41 ";" 9 4 15)) (mkPtok 42 "lengthOf" 7 1 12) (mkPtok 4 "=" 8 0 13) (VPaddingChar (mkSpan (mkPtok 33 "' '" 8 2 14) (mkPtok 33 "' '" 8 2 14)) (mkPtok 33 "' '" 8 2 14)) (Some (mkPtok 41 ";" 9 4 15)))] (mkPtok 3 "}" 9 6 16)))])).
-Eval vm_compute in ("<<<M731>>>" ++ check (runes_of_ascii "MetaData
-u128
-    {string	falsey `u8 x,` // c
-,
-trueish
-roots , } options
-    {msg_type =
-/// triple
-// trailing space 
-""" ++ [128512]%N ++ runes_of_ascii """ ; }")).
-Eval vm_compute in ("<<<M763>>>" ++ check (runes_of_ascii "  root packet u128 { string
-// trailing space 
-//	t
-Pad  `" ++ [28040; 24687; 31867; 22411]%N ++ runes_of_ascii "`
-, @calculatedFrom( ""a\\"")	msg_type, @calculatedFrom( """ ++ [233]%N ++ runes_of_ascii "t" ++ [233]%N ++ runes_of_ascii """ )	match Pad as f32a {	3 :// trailing space 
-repeatCount  ,	} , } // c")).
-Eval vm_compute in ("<<<M795>>>" ++ check (runes_of_ascii "packet calculatedFrom { match
-    Logon as	u128 { [ 1 ,
-""// no comment"" ] : u8x ""`tick`"" : Header ,
-    ""`tick`"":
-    BodyLength ""it's""
-// a // b
-// packet A { u8 x, }
-: zchar
-} // " ++ [27880; 37322]%N ++ runes_of_ascii "
-, // `tick` ""quote"" 'q'
-char metadata @calculatedFrom( ""a\\"" ), }
-")).
-Eval vm_compute in ("<<<M827>>>" ++ check (runes_of_ascii "
-
-")).
-Eval vm_compute in ("<<<M859>>>" ++ check (runes_of_ascii "packet repeatCount
-// @lengthOf(
-//
-{ repeat	Header, char[
-42
-    ]rootA ``
-    ,@lengthOf(
-    stringy )repeat int16 leftPad
-,repeat // `tick` ""quote"" 'q'
-crc
-    {
-//x
-// " ++ [128512]%N ++ runes_of_ascii " emoji
-zchar[00  ]body
-    @lengthOf( Foo) , repeat Logon { MetaDataX
-    @lengthOf(trueish ) , uint8	asx@calculatedFrom( ""\" ++ [233]%N ++ runes_of_ascii """) , metadata {
-uint8x @lengthOf( stringy ) ,
-    repeat  BodyLength
-metadata `say ""hi""` ,}
-//x
-//
-, repeat char[] u, // trailing space 
-}
-, int16 matchKey ``
-, char[]// trailing space 
-u8x
-@lengthOf(string_ )
-    ,	} , // @lengthOf(
-match Logon
-as	zchar { [""x y"" , 65535// c
-,  10 ] : chars [
-    ""{,}""
-    ,
-""a\""b""]
-:leftPad ,
-    //	t
-    65535 : metadata//
-,[
-    10 , 7 // a // b
-, ""// no comment""
-    ,// `tick` ""quote"" 'q'
-0
-    , 65535 , // `tick` ""quote"" 'q'
-""abc""
-, 7 // " ++ [27880; 37322]%N ++ runes_of_ascii "
-,42
-    ]  :MetaDataX
-},
-    repeat int8	packetx `// not a comment` ,// a // b
-} packet
-    x // a // b
-{ u16 roots
-,
-} options{ int  =  4294967296 u8x = false ; }")).
-Eval vm_compute in ("<<<M891>>>" ++ check (runes_of_ascii "  
-")).
-Eval vm_compute in ("<<<M923>>>" ++ check (runes_of_ascii "MetaData
-trueish { o charz `tab	here`	,}  MetaData int {zchar[	4294967296  ] a1 `say ""hi""` ,
-}	options { charz
-    //	t
-    =	'0'  tag	=""abc""}")).
-Eval vm_compute in ("<<<T923>>>" ++ terms [mkTok 37 "MetaData" 1 0 false; mkTok 42 "trueish" 2 0 false; mkTok 2 "{" 2 8 false; mkTok 42 "o" 2 10 false; mkTok 42 "charz" 2 12 false; mkTok 43 (string_of_bytes [96; 116; 97; 98; 9; 104; 101; 114; 101; 96]%N) 2 18 false; mkTok 40 "," 2 29 false; mkTok 3 "}" 2 30 false; mkTok 37 "MetaData" 2 33 false; mkTok 42 "int" 2 42 false; mkTok 2 "{" 2 46 false; mkTok 14 "zchar[" 2 47 false; mkTok 30 "4294967296" 2 54 false; mkTok 13 "]" 2 66 false; mkTok 42 "a1" 2 68 false; mkTok 43 "`say ""hi""`" 2 71 false; mkTok 40 "," 2 82 false; mkTok 3 "}" 3 0 false; mkTok 1 "options" 3 2 false; mkTok 2 "{" 3 10 false; mkTok 42 "charz" 3 12 false; mkTok 44 (string_of_bytes [47; 47; 9; 116]%N) 4 4 true; mkTok 4 "=" 5 4 false; mkTok 33 "'0'" 5 6 false; mkTok 42 "tag" 5 11 false; mkTok 4 "=" 5 15 false; mkTok 31 """abc""" 5 16 false; mkTok 3 "}" 5 21 false; mkTok 0 "<EOF>" 5 22 false] (mkPacket (mkPtok 37 "MetaData" 1 0 0) (Some (mkPtok 3 "}" 5 21 27)) [(DMeta (mkMetaDef (mkSpan (mkPtok 37 "MetaData" 1 0 0) (mkPtok 3 "}" 2 30 7)) (mkPtok 37 "MetaData" 1 0 0) (mkPtok 42 "trueish" 2 0 1) (mkPtok 2 "{" 2 8 2) [(MIRef (mkRefMetaDecl (mkSpan (mkPtok 42 "o" 2 10 3) (mkPtok 40 "," 2 29 6)) (mkPtok 42 "o" 2 10 3) (mkPtok 42 "charz" 2 12 4) (Some (mkPtok 43 (string_of_bytes [96; 116; 97; 98; 9; 104; 101; 114; 101; 96]%N) 2 18 5)) (mkPtok 40 "," 2 29 6)))] (mkPtok 3 "}" 2 30 7))); (DMeta (mkMetaDef (mkSpan (mkPtok 37 "MetaData" 2 33 8) (mkPtok 3 "}" 3 0 17)) (mkPtok 37 "MetaData" 2 33 8) (mkPtok 42 "int" 2 42 9) (mkPtok 2 "{" 2 46 10) [(MIDecl (mkMetaDecl (mkSpan (mkPtok 14 "zchar[" 2 47 11) (mkPtok 40 "," 2 82 16)) (TyFixed (mkSpan (mkPtok 14 "zchar[" 2 47 11) (mkPtok 13 "]" 2 66 13)) (mkFixedString (mkSpan (mkPtok 14 "zchar[" 2 47 11) (mkPtok 13 "]" 2 66 13)) (mkPtok 14 "zchar[" 2 47 11) (mkPtok 30 "4294967296" 2 54 12) (mkPtok 13 "]" 2 66 13))) (mkPtok 42 "a1" 2 68 14) (Some (mkPtok 43 "`say ""hi""`" 2 71 15)) (mkPtok 40 "," 2 82 16)))] (mkPtok 3 "}" 3 0 17))); (DOption (mkOptionDef (mkSpan (mkPtok 1 "options" 3 2 18) (mkPtok 3 "}" 5 21 27)) (mkPtok 1 "options" 3 2 18) (mkPtok 2 "{" 3 10 19) [(mkOptionDecl (mkSpan (mkPtok 42 "charz" 3 12 20) (mkPtok 33 "'0'" 5 6 23)) (mkPtok 42 "charz" 3 12 20) (mkPtok 4 "=" 5 4 22) (VPaddingChar (mkSpan (mkPtok 33 "'0'" 5 6 23) (mkPtok 33 "'0'" 5 6 23)) (mkPtok 33 "'0'" 5 6 23)) None); (mkOptionDecl (mkSpan (mkPtok 42 "tag" 5 11 24) (mkPtok 31 """abc""" 5 16 26)) (mkPtok 42 "tag" 5 11 24) (mkPtok 4 "=" 5 15 25) (VString (mkSpan (mkPtok 31 """abc""" 5 16 26) (mkPtok 31 """abc""" 5 16 26)) (mkPtok 31 """abc""" 5 16 26)) None)] (mkPtok 3 "}" 5 21 27)))])).
-Eval vm_compute in ("<<<M955>>>" ++ check (runes_of_ascii "
-MetaData // " ++ [128512]%N ++ runes_of_ascii " emoji
-tag {
-char[] float,
-lengthOf
-    string_
-,
-    i32
-// c
-// a // b
-Foo , i64
-Logon
-    `// not a comment` , char[
-7]
-i8i8
-,
-// `tick` ""quote"" 'q'
-// c
-u16 pack, } options
-{ Packet=""x y"" u128
-    =
-7 u= u32 ; } // " ++ [128512]%N ++ runes_of_ascii " emoji
-packet
-    chars {
-    @tag( 0123456789) @calculatedFrom( ""x y"" )
-@rightPad (
-'0' ) f32 Pad @lengthOf( crc
+) , match // a // b
+a1 as
+calculatedFrom { [ 1 // 50% %s
+, 4294967296 ,
+""""
+    , 7 ] : matchKey[ """" , ""`tick`"" ]: x ,
     // c
-    ) ,@tag( // trailing space 
-7
-) i8
-    o @calculatedFrom(
-""1""
-)
-,
-    @rightPad ( ' ' ) calculatedFrom {
-stringy float, // c
-repeat Packet roots
-`doc` ,repeat matchKey asx , repeat rootA roots  , } ,
-    @tag( 42 )@leftPad
-( '\x00' ) /// triple
-@calculatedFrom(""a	b"" )
-string
-    o @lengthOf( roots )	, // " ++ [128512]%N ++ runes_of_ascii " emoji
-}
-")).
-Eval vm_compute in ("<<<M987>>>" ++ check (runes_of_ascii "packet
-/// triple
-/// triple
-As
-{ }
-MetaData charz{
-i64 falsey ,A msg_type, char[ 3 ]
-trueish `say ""hi""` ,float32 calculatedFrom
-    ,
-string i8i8, }
-")).
-Eval vm_compute in ("<<<M1019>>>" ++ check (runes_of_ascii "options { o // c
-= ""it's""; }
-/// triple
-/// triple
-packet calculatedFrom { int32 Header @calculatedFrom( ""x y""
-)
-    `" ++ [28040; 24687; 31867; 22411]%N ++ runes_of_ascii "`	,
-    @tag( // a // b
-0 ) @lengthOf( f32a // " ++ [128512]%N ++ runes_of_ascii " emoji
-)match i64_ as T
-    // " ++ [27880; 37322]%N ++ runes_of_ascii "
-    { 255
-    :
-Foo 1
-: T
-,
-    ""a	b"":  Header , 1 : x, } , } root packet options1 {
-@leftPad ( // a // b
-' ' )
-    match
-uint8x as lengthOf  { ""`tick`""
-    // c
-    :
-x_y_z ,
-} , @calculatedFrom( ""a\""b""
-)repeat
-// trailing space 
-// " ++ [27880; 37322]%N ++ runes_of_ascii "
-body`
-`  ,
-char[ 10 ] float
-    // c
-    ,match
-stringy as repeatCount {[
-42
-// c
-/// triple
-, ""`tick`""
-    ]:
-    float , //	t
-""abc"": matchKey
-, // a // b
-7
-    :	As
-    255
-: pack
-,
-""{,}"" : len
-,
-3
-:	metadata	, } ,char[3 ] trueish @calculatedFrom(
-""CRC32""
-    )
-,
-    repeat charz { match Pad	as Z9_ { ""packet"" : f32a , ""{,}""
-: f32a 7 : _x ,  00 :repeatCount , 4294967296 : asx , ""CRC32""
-    : u128//x
-} ,
-    char[ 42 ] //	t
-crc `two words` ,
-// @lengthOf(
-//	t
-repeat Foo // @lengthOf(
-`doc` // a // b
-,} , } options // `tick` ""quote"" 'q'
-{ falsey =
-    false ;// trailing space 
-Header
-=true ; // `tick` ""quote"" 'q'
-packetx = u64
-    ; calculatedFrom
-//
-// a // b
-= ""\n"";
-    } packet
-    body {@tag( 42  ) repeat
-i16
-    u128`// not a comment`
-    ,@tag( 0 )@tag(  0123456789 ) @calculatedFrom( ""\n""	)
-zchar[ 255 ] x_y_z @lengthOf( stringy	) ,
-f32a @lengthOf(
-Logon
-    )
-,  repeat zchar[ 10] _x , float64 charz
-`` ,
-Pad
-@lengthOf(
-    u ) , body ``, }
-")).
-Eval vm_compute in ("<<<M1051>>>" ++ check (runes_of_ascii "// trailing space 
-packet/// triple
-Foo
-{ zchar[ 255 ]body	,
-}
-")).
-Eval vm_compute in ("<<<M1083>>>" ++ check (runes_of_ascii "root
-packet calculatedFrom { repeat string charz,@calculatedFrom( """ ++ [233]%N ++ runes_of_ascii "t" ++ [233]%N ++ runes_of_ascii """
-)
-Foo @lengthOf(
-    tag ) `a\`,match
-_x  as
-    As // c
-{""{,}"" :f32a,	} ,}
-    MetaData body { leftPad asx , u Pad //x
-`
-` , zchar[3]
-leftPad ,
-metadata chars ,	}
-")).
-Eval vm_compute in ("<<<M1115>>>" ++ check (runes_of_ascii "MetaData  lengthOf
-{
-}	root packet //x
-falsey
-// " ++ [128512]%N ++ runes_of_ascii " emoji
-//x
-{ Pad // a // b
-{
-zchar[ 1
-] Z9_ , msg_type
-    x_y_z , match u8x as trueish {
-    """ ++ [28040; 24687]%N ++ runes_of_ascii """
-:	asx,} , }	, // `tick` ""quote"" 'q'
-@lengthOf( rootA ) match zchar as int{
-""`tick`"" :
-    len , ""{,}"" : MetaDataX ,}	,
-i64 rootA
+    ""abc""
     //x
-    `" ++ [28040; 24687; 31867; 22411]%N ++ runes_of_ascii "` ,
-@calculatedFrom( ""it's"" )repeat
-    /// triple
-    metadata
+    :_x } // packet A { u8 x, }
+, }
+    ,match stringy // trailing space 
+as repeatCount //
+{
+255 : falsey , ""it's""  :roots,[ """ ++ [128512]%N ++ runes_of_ascii """, 3 ,""// no comment""  ] :o [ 0123456789 ] :
+    //	t
+    uint8x
     ,
-    T @lengthOf( u128 ) , uint64 Pad , // " ++ [27880; 37322]%N ++ runes_of_ascii "
-falsey x ,	int16	leftPad
-    , //	t
-falsey  @lengthOf( matchKey), zchar[ 255 ] u128`u8 x,` ,
-}")).
-Eval vm_compute in ("<<<M1147>>>" ++ check (runes_of_ascii "MetaData
-f32a {	A x , }")).
-Eval vm_compute in ("<<<T1147>>>" ++ terms [mkTok 37 "MetaData" 1 0 false; mkTok 42 "f32a" 2 0 false; mkTok 2 "{" 2 5 false; mkTok 42 "A" 2 7 false; mkTok 42 "x" 2 9 false; mkTok 40 "," 2 11 false; mkTok 3 "}" 2 13 false; mkTok 0 "<EOF>" 2 14 false] (mkPacket (mkPtok 37 "MetaData" 1 0 0) (Some (mkPtok 3 "}" 2 13 6)) [(DMeta (mkMetaDef (mkSpan (mkPtok 37 "MetaData" 1 0 0) (mkPtok 3 "}" 2 13 6)) (mkPtok 37 "MetaData" 1 0 0) (mkPtok 42 "f32a" 2 0 1) (mkPtok 2 "{" 2 5 2) [(MIRef (mkRefMetaDecl (mkSpan (mkPtok 42 "A" 2 7 3) (mkPtok 40 "," 2 11 5)) (mkPtok 42 "A" 2 7 3) (mkPtok 42 "x" 2 9 4) None (mkPtok 40 "," 2 11 5)))] (mkPtok 3 "}" 2 13 6)))])).
-Eval vm_compute in ("<<<M1179>>>" ++ check (runes_of_ascii "options { }
-options { }
-")).
-Eval vm_compute in ("<<<M1211>>>" ++ check (runes_of_ascii "root packet a1 {u8x{ char[ // trailing space 
-10] tag
-`` , } // " ++ [128512]%N ++ runes_of_ascii " emoji
-, } packet packetx { string crc	@calculatedFrom(""abc""	), @lengthOf( Packet ) repeat u32
-rootA , // @lengthOf(
+10 : int
+,
+0123456789 :	Header
+    // `tick` ""quote"" 'q'
+    ,
+    }
+, repeat
+    //x
+    MetaDataX , } MetaData tag
+{u64 u ,// " ++ [128512]%N ++ runes_of_ascii " emoji
 }
+root packet
+string_ { char[// packet A { u8 x, }
+65535]// a // b
+asx  @calculatedFrom(  ""{,}"")// c
+,uint8x @calculatedFrom( // `tick` ""quote"" 'q'
+""" ++ [233]%N ++ runes_of_ascii "t" ++ [233]%N ++ runes_of_ascii """ ) , string
+repeatCount @calculatedFrom(	""abc""
+) `crlf
+line`,  @calculatedFrom(
+    // @lengthOf(
+    ""a\\"")	repeat // " ++ [27880; 37322]%N ++ runes_of_ascii "
+char[ 1] matchKey //	t
+`two words`,	} packet Z9_
+{
+// @lengthOf(
+// c
+@tag( 42 )
+    //
+    @calculatedFrom(
+""1"" ) match u8x
+as chars {[ ""CRC32"" ]
+: packetx,""" ++ [233]%N ++ runes_of_ascii "t" ++ [233]%N ++ runes_of_ascii """
+:tag
+, 0123456789: calculatedFrom// a // b
+, 7 : lengthOf , [ ""a	b"" , 65535 , 3	,
+""`tick`""
+    /// triple
+    ,  255 //x
+] :
+    u8x , 4294967296
+    :
+    Header , } , @lengthOf(
+// " ++ [27880; 37322]%N ++ runes_of_ascii "
+// @lengthOf(
+i64_ )	a1 `a\` , //x
+f32a
+    MetaDataX // " ++ [27880; 37322]%N ++ runes_of_ascii "
+, @lengthOf(
+    options1 )
+Pad @lengthOf( Pad ) // " ++ [128512]%N ++ runes_of_ascii " emoji
+`100% of %d` //	t
+, // 50% %s
+f32a
+    `{ , }`
+    ,
+    match MetaDataX//
+as asx  {""\" ++ [233]%N ++ runes_of_ascii """ : metadata
+    ,} , @tag(
+    255
+)
+char
+calculatedFrom
+    `crlf
+line`, @lengthOf( leftPad )
+repeatCount @lengthOf( int)
+,}
+packet
+T
+{ }
+")).
+Eval vm_compute in ("<<<M123>>>" ++ check (runes_of_ascii "packet stringy { @lengthOf(
+chars) char calculatedFrom
+,
+repeat u8x
+    calculatedFrom`two words` ,	@leftPad ( '\x00') repeat Packet
+    {match Packet as	rootA
+{
+42 : repeatCount
+, // " ++ [128512]%N ++ runes_of_ascii " emoji
+""CRC32"" // packet A { u8 x, }
+: Pad 65535: // trailing space 
+Header, [ // `tick` ""quote"" 'q'
+""// no comment"" ,	007  ]// packet A { u8 x, }
+: Z9_, 00	:body
+    // " ++ [128512]%N ++ runes_of_ascii " emoji
+    , [ ""// no comment"" ,
+    //
+    """ ++ [28040; 24687]%N ++ runes_of_ascii """
+    , 1
+    , // a // b
+42 ,""it's""] :	metadata, }
+    ,zchar[
+    1
+    ] asx@calculatedFrom( ""// no comment"" ) , zchar[ 10 ] u8x
+,
+}, repeat char[ // " ++ [27880; 37322]%N ++ runes_of_ascii "
+0 ] // `tick` ""quote"" 'q'
+falsey,} 	 ")).
+Eval vm_compute in ("<<<M155>>>" ++ check (runes_of_ascii "MetaData float{
+// `tick` ""quote"" 'q'
+// 50% %s
+i64
+    stringy,	} packet metadata
+{ @calculatedFrom( ""a	b"" ) @rightPad
+    ( )
+char[]
+    // 50% %s
+    As , i64 asx ,@calculatedFrom(
+""// no comment"" ) x { repeat
+MetaDataX {
+BodyLength ``, }
+    , i32 u128, _x // 50% %s
+u128, }
+// 50% %s
+// packet A { u8 x, }
+, match u as o
+{ 7 : As ""x y""
+:
+f32a ,
+    } ,
+    lengthOf@lengthOf( i8i8 )  , @lengthOf(//x
+roots )
+@calculatedFrom("""" )
+@rightPad( '0' )repeat char[
+7 ] falsey,@leftPad
+( )
+i32 _x `" ++ [28040; 24687; 31867; 22411]%N ++ runes_of_ascii "` , } root packet tag { @tag( 42  )
+    repeat
+zchar[ 007 ] f32a
+    ,
+@rightPad // `tick` ""quote"" 'q'
+(
+    ) zchar[ 65535
+] Pad ,int64 body , leftPad
+`it's` ,string lengthOf , i32 packetx // a // b
+@lengthOf( asx )`two words` ,
+    @leftPad ( '0'
+)	repeat	msg_type
+    rootA,
+options1 u8x // a // b
+,  @tag(
+    //x
+    42) zchar[ 65535
+// c
+//x
+] As
+@lengthOf( // packet A { u8 x, }
+a1
+    ) ``
+,	} root packet charz{ @tag( 4294967296 )
+    string
+options1`100% of %d`,} packet Header{}
+")).
+Eval vm_compute in ("<<<M187>>>" ++ check (runes_of_ascii "MetaData int{ }packet T
+    {char[ 65535 ]	options1
+, @calculatedFrom(
+    ""// no comment"" ) // " ++ [128512]%N ++ runes_of_ascii " emoji
+leftPad { match
+zchar as	charz  { [
+    7 ,
+0123456789 ,
+    //
+    007,
+    3 ,0123456789] // " ++ [128512]%N ++ runes_of_ascii " emoji
+: pack ,
+}
+    , } , @tag( 255 ) uint64 string_	@lengthOf( matchKey ) `{ , }` , @lengthOf( Pad
+    /// triple
+    ) repeat matchKey x_y_z , match body as f32a { """ ++ [28040; 24687]%N ++ runes_of_ascii """ : u} ,uint16 As @calculatedFrom(""CRC32"" ) , zchar {//	t
+u8 lengthOf ,} ,
+    }
+packet
+    BodyLength { matchKey { repeat string falsey,
+    // " ++ [27880; 37322]%N ++ runes_of_ascii "
+    } , packetx  @calculatedFrom(""// no comment"" )
+    ,falsey
+// packet A { u8 x, }
+// packet A { u8 x, }
+{ Packet
+A , uint16
+    u@calculatedFrom(""a\""b""
+)
+,//x
+f32 charz @lengthOf( u ) `u8 x,`  ,// @lengthOf(
+},
+@leftPad// " ++ [27880; 37322]%N ++ runes_of_ascii "
+( '\x00' )
+    options1
+    ,
+@rightPad (
+    '0'
+    ) repeatCount{  repeat u8
+body ,
+    }// " ++ [128512]%N ++ runes_of_ascii " emoji
+,
+metadata @lengthOf(	chars
+)
+`a\`
+, @rightPad ( )@lengthOf( Pad )
+    @calculatedFrom( ""abc"") float ,  @calculatedFrom(
+""" ++ [128512]%N ++ runes_of_ascii """) zchar[
+007]
+A ,
+// 50% %s
+// 50% %s
+string Pad// @lengthOf(
+`line1
+line2` ,
+} packet
+MetaDataX{
+    //
+    repeat string As`a\` , } packet// a // b
+As { string repeatCount @lengthOf(
+    Header
+)
+    ,repeat stringy
+    `tab	here`
+// 50% %s
+// @lengthOf(
+,}
+")).
+Eval vm_compute in ("<<<M219>>>" ++ check (runes_of_ascii "  packet  matchKey {@lengthOf( Pad ) repeat int16  trueish `two words` , }")).
+Eval vm_compute in ("<<<M251>>>" ++ check (runes_of_ascii "packet	a1 {}")).
+Eval vm_compute in ("<<<T251>>>" ++ terms [mkTok 35 "packet" 1 0 false; mkTok 42 "a1" 1 7 false; mkTok 2 "{" 1 10 false; mkTok 3 "}" 1 11 false; mkTok 0 "<EOF>" 1 12 false] (mkPacket (mkPtok 35 "packet" 1 0 0) (Some (mkPtok 3 "}" 1 11 3)) [(DPacket (mkPacketDef (mkSpan (mkPtok 35 "packet" 1 0 0) (mkPtok 3 "}" 1 11 3)) None (mkPtok 35 "packet" 1 0 0) (mkPtok 42 "a1" 1 7 1) (mkPtok 2 "{" 1 10 2) [] (mkPtok 3 "}" 1 11 3)))])).
+Eval vm_compute in ("<<<M283>>>" ++ check (runes_of_ascii "  packet	i64_ {
+_x
+i64_ `// not a comment` , @rightPad	(
+)
+@calculatedFrom( ""`tick`"" // packet A { u8 x, }
+)match _x as  Logon { [ ""a	b"" ]	: metadata , 1 :
+o 00 :float	,},	@tag( 1
+    ) @lengthOf(matchKey ) zchar[ 255 ]	options1`tab	here` , } // @lengthOf(")).
+Eval vm_compute in ("<<<M315>>>" ++ check (runes_of_ascii "options { } MetaData chars
+{
+zchar[ 0123456789 ]	BodyLength `{ , }`
+, f64 body,char[
+    // a // b
+    4294967296 ] Packet , u8x charz , }
+")).
+Eval vm_compute in ("<<<M347>>>" ++ check (runes_of_ascii "options
+    { float/// triple
+=char[ 3 ]	metadata	= /// triple
+char[ 42 ]; string_=""a\\"" }
+/// triple
+")).
+Eval vm_compute in ("<<<M379>>>" ++ check (runes_of_ascii "root packet Z9_{string_ { repeat
+float { repeat // c
+int8// a // b
+u8x `// not a comment` ,	char[]options1@lengthOf( x_y_z )`two words` ,repeat char[ 3 ] i8i8
+`" ++ [233]%N ++ runes_of_ascii "`
+,match
+repeatCount
+as	body
+    {  ""x y"":
+    asx ,	}
+    ,}, }, } // @lengthOf(")).
+Eval vm_compute in ("<<<M411>>>" ++ check (runes_of_ascii "options  {
+// a // b
+// trailing space 
+calculatedFrom
+    = string }
+
+")).
+Eval vm_compute in ("<<<M443>>>" ++ check (runes_of_ascii "
+packet	falsey{ char Logon @calculatedFrom( """ ++ [128512]%N ++ runes_of_ascii """
+) ,
+repeat leftPad Header
+    , } packet
+Header{
+char[ 3 ]// " ++ [128512]%N ++ runes_of_ascii " emoji
+tag
+@lengthOf( trueish) `two words` , match
+packetx as options1 { 7 :
+    i64_ // c
+""{,}"" :	x ,[""" ++ [28040; 24687]%N ++ runes_of_ascii """,
+    0
+    , ""packet"" ] :_x[ 7 ,00
+]
+:
+    i64_ // trailing space 
+""a\""b"" :
+As , } , }
+")).
+Eval vm_compute in ("<<<M475>>>" ++ check (runes_of_ascii "MetaData asx{// " ++ [27880; 37322]%N ++ runes_of_ascii "
+charz _x ,int8 x_y_z `two words`, i32
+charz ,repeatCount i64_
+    ,
+u8x calculatedFrom , i8
+// `tick` ""quote"" 'q'
+// c
+roots , }MetaData x
+{ }
+    MetaData
+len
+    { matchKey
+packetx , uint8 uint8x,
+} root
+packet
+body {	u128 @calculatedFrom( """" /// triple
+)
+    ,
+    repeat
+    trueish { char[]// " ++ [128512]%N ++ runes_of_ascii " emoji
+asx @lengthOf(
+    body	)	`u8 x,` , match
+    // packet A { u8 x, }
+    body
+// @lengthOf(
+// 50% %s
+as//
+i8i8 { ""a\""b"": packetx
+    , ""a	b"":
+i64_ , [ """" ,
+42 ]: MetaDataX,[ """ ++ [28040; 24687]%N ++ runes_of_ascii """ ] : pack
+3 : x
+[ 0
+    , 007 ] :	Z9_ , } , char[ 10 ]// `tick` ""quote"" 'q'
+int
+    `// not a comment`, u repeatCount `{ , }` , }
+, @lengthOf( trueish
+    ) char asx `doc` // @lengthOf(
+,
+@tag( 0 )
+i64_ ,} MetaData lengthOf { char[]float `crlf
+line`,// " ++ [128512]%N ++ runes_of_ascii " emoji
+}
+")).
+Eval vm_compute in ("<<<T475>>>" ++ terms [mkTok 37 "MetaData" 1 0 false; mkTok 42 "asx" 1 9 false; mkTok 2 "{" 1 12 false; mkTok 44 (string_of_bytes [47; 47; 32; 230; 179; 168; 233; 135; 138]%N) 1 13 true; mkTok 42 "charz" 2 0 false; mkTok 42 "_x" 2 6 false; mkTok 40 "," 2 9 false; mkTok 24 "int8" 2 10 false; mkTok 42 "x_y_z" 2 15 false; mkTok 43 "`two words`" 2 21 false; mkTok 40 "," 2 32 false; mkTok 26 "i32" 2 34 false; mkTok 42 "charz" 3 0 false; mkTok 40 "," 3 6 false; mkTok 42 "repeatCount" 3 7 false; mkTok 42 "i64_" 3 19 false; mkTok 40 "," 4 4 false; mkTok 42 "u8x" 5 0 false; mkTok 42 "calculatedFrom" 5 4 false; mkTok 40 "," 5 19 false; mkTok 24 "i8" 5 21 false; mkTok 44 "// `tick` ""quote"" 'q'" 6 0 true; mkTok 44 "// c" 7 0 true; mkTok 42 "roots" 8 0 false; mkTok 40 "," 8 6 false; mkTok 3 "}" 8 8 false; mkTok 37 "MetaData" 8 9 false; mkTok 42 "x" 8 18 false; mkTok 2 "{" 9 0 false; mkTok 3 "}" 9 2 false; mkTok 37 "MetaData" 10 4 false; mkTok 42 "len" 11 0 false; mkTok 2 "{" 12 4 false; mkTok 42 "matchKey" 12 6 false; mkTok 42 "packetx" 13 0 false; mkTok 40 "," 13 8 false; mkTok 20 "uint8" 13 10 false; mkTok 42 "uint8x" 13 16 false; mkTok 40 "," 13 22 false; mkTok 3 "}" 14 0 false; mkTok 34 "root" 14 2 false; mkTok 35 "packet" 15 0 false; mkTok 42 "body" 16 0 false; mkTok 2 "{" 16 5 false; mkTok 42 "u128" 16 7 false; mkTok 5 "@calculatedFrom(" 16 12 false; mkTok 31 """""" 16 29 false; mkTok 44 "/// triple" 16 32 true; mkTok 6 ")" 17 0 false; mkTok 40 "," 18 4 false; mkTok 36 "repeat" 19 4 false; mkTok 42 "trueish" 20 4 false; mkTok 2 "{" 20 12 false; mkTok 16 "char[]" 20 14 false; mkTok 44 (string_of_bytes [47; 47; 32; 240; 159; 152; 128; 32; 101; 109; 111; 106; 105]%N) 20 20 true; mkTok 42 "asx" 21 0 false; mkTok 7 "@lengthOf(" 21 4 false; mkTok 42 "body" 22 4 false; mkTok 6 ")" 22 9 false; mkTok 43 "`u8 x,`" 22 11 false; mkTok 40 "," 22 19 false; mkTok 38 "match" 22 21 false; mkTok 44 "// packet A { u8 x, }" 23 4 true; mkTok 42 "body" 24 4 false; mkTok 44 "// @lengthOf(" 25 0 true; mkTok 44 "// 50% %s" 26 0 true; mkTok 17 "as" 27 0 false; mkTok 44 "//" 27 2 true; mkTok 42 "i8i8" 28 0 false; mkTok 2 "{" 28 5 false; mkTok 31 """a\""b""" 28 7 false; mkTok 39 ":" 28 13 false; mkTok 42 "packetx" 28 15 false; mkTok 40 "," 29 4 false; mkTok 31 (string_of_bytes [34; 97; 9; 98; 34]%N) 29 6 false; mkTok 39 ":" 29 11 false; mkTok 42 "i64_" 30 0 false; mkTok 40 "," 30 5 false; mkTok 18 "[" 30 7 false; mkTok 31 """""" 30 9 false; mkTok 40 "," 30 12 false; mkTok 30 "42" 31 0 false; mkTok 13 "]" 31 3 false; mkTok 39 ":" 31 4 false; mkTok 42 "MetaDataX" 31 6 false; mkTok 40 "," 31 15 false; mkTok 18 "[" 31 16 false; mkTok 31 (string_of_bytes [34; 230; 182; 136; 230; 129; 175; 34]%N) 31 18 false; mkTok 13 "]" 31 23 false; mkTok 39 ":" 31 25 false; mkTok 42 "pack" 31 27 false; mkTok 30 "3" 32 0 false; mkTok 39 ":" 32 2 false; mkTok 42 "x" 32 4 false; mkTok 18 "[" 33 0 false; mkTok 30 "0" 33 2 false; mkTok 40 "," 34 4 false; mkTok 30 "007" 34 6 false; mkTok 13 "]" 34 10 false; mkTok 39 ":" 34 12 false; mkTok 42 "Z9_" 34 14 false; mkTok 40 "," 34 18 false; mkTok 3 "}" 34 20 false; mkTok 40 "," 34 22 false; mkTok 12 "char[" 34 24 false; mkTok 30 "10" 34 30 false; mkTok 13 "]" 34 33 false; mkTok 44 "// `tick` ""quote"" 'q'" 34 34 true; mkTok 42 "int" 35 0 false; mkTok 43 "`// not a comment`" 36 4 false; mkTok 40 "," 36 22 false; mkTok 42 "u" 36 24 false; mkTok 42 "repeatCount" 36 26 false; mkTok 43 "`{ , }`" 36 38 false; mkTok 40 "," 36 46 false; mkTok 3 "}" 36 48 false; mkTok 40 "," 37 0 false; mkTok 7 "@lengthOf(" 37 2 false; mkTok 42 "trueish" 37 13 false; mkTok 6 ")" 38 4 false; mkTok 19 "char" 38 6 false; mkTok 42 "asx" 38 11 false; mkTok 43 "`doc`" 38 15 false; mkTok 44 "// @lengthOf(" 38 21 true; mkTok 40 "," 39 0 false; mkTok 9 "@tag(" 40 0 false; mkTok 30 "0" 40 6 false; mkTok 6 ")" 40 8 false; mkTok 42 "i64_" 41 0 false; mkTok 40 "," 41 5 false; mkTok 3 "}" 41 6 false; mkTok 37 "MetaData" 41 8 false; mkTok 42 "lengthOf" 41 17 false; mkTok 2 "{" 41 26 false; mkTok 16 "char[]" 41 28 false; mkTok 42 "float" 41 34 false; mkTok 43 (string_of_bytes [96; 99; 114; 108; 102; 13; 10; 108; 105; 110; 101; 96]%N) 41 40 false; mkTok 40 "," 42 5 false; mkTok 44 (string_of_bytes [47; 47; 32; 240; 159; 152; 128; 32; 101; 109; 111; 106; 105]%N) 42 6 true; mkTok 3 "}" 43 0 false; mkTok 0 "<EOF>" 44 0 false] (mkPacket (mkPtok 37 "MetaData" 1 0 0) (Some (mkPtok 3 "}" 43 0 139)) [(DMeta (mkMetaDef (mkSpan (mkPtok 37 "MetaData" 1 0 0) (mkPtok 3 "}" 8 8 25)) (mkPtok 37 "MetaData" 1 0 0) (mkPtok 42 "asx" 1 9 1) (mkPtok 2 "{" 1 12 2) [(MIRef (mkRefMetaDecl (mkSpan (mkPtok 42 "charz" 2 0 4) (mkPtok 40 "," 2 9 6)) (mkPtok 42 "charz" 2 0 4) (mkPtok 42 "_x" 2 6 5) None (mkPtok 40 "," 2 9 6))); (MIDecl (mkMetaDecl (mkSpan (mkPtok 24 "int8" 2 10 7) (mkPtok 40 "," 2 32 10)) (TyBasic (mkSpan (mkPtok 24 "int8" 2 10 7) (mkPtok 24 "int8" 2 10 7)) (mkBasicType (mkSpan (mkPtok 24 "int8" 2 10 7) (mkPtok 24 "int8" 2 10 7)) (mkPtok 24 "int8" 2 10 7))) (mkPtok 42 "x_y_z" 2 15 8) (Some (mkPtok 43 "`two words`" 2 21 9)) (mkPtok 40 "," 2 32 10))); (MIDecl (mkMetaDecl (mkSpan (mkPtok 26 "i32" 2 34 11) (mkPtok 40 "," 3 6 13)) (TyBasic (mkSpan (mkPtok 26 "i32" 2 34 11) (mkPtok 26 "i32" 2 34 11)) (mkBasicType (mkSpan (mkPtok 26 "i32" 2 34 11) (mkPtok 26 "i32" 2 34 11)) (mkPtok 26 "i32" 2 34 11))) (mkPtok 42 "charz" 3 0 12) None (mkPtok 40 "," 3 6 13))); (MIRef (mkRefMetaDecl (mkSpan (mkPtok 42 "repeatCount" 3 7 14) (mkPtok 40 "," 4 4 16)) (mkPtok 42 "repeatCount" 3 7 14) (mkPtok 42 "i64_" 3 19 15) None (mkPtok 40 "," 4 4 16))); (MIRef (mkRefMetaDecl (mkSpan (mkPtok 42 "u8x" 5 0 17) (mkPtok 40 "," 5 19 19)) (mkPtok 42 "u8x" 5 0 17) (mkPtok 42 "calculatedFrom" 5 4 18) None (mkPtok 40 "," 5 19 19))); (MIDecl (mkMetaDecl (mkSpan (mkPtok 24 "i8" 5 21 20) (mkPtok 40 "," 8 6 24)) (TyBasic (mkSpan (mkPtok 24 "i8" 5 21 20) (mkPtok 24 "i8" 5 21 20)) (mkBasicType (mkSpan (mkPtok 24 "i8" 5 21 20) (mkPtok 24 "i8" 5 21 20)) (mkPtok 24 "i8" 5 21 20))) (mkPtok 42 "roots" 8 0 23) None (mkPtok 40 "," 8 6 24)))] (mkPtok 3 "}" 8 8 25))); (DMeta (mkMetaDef (mkSpan (mkPtok 37 "MetaData" 8 9 26) (mkPtok 3 "}" 9 2 29)) (mkPtok 37 "MetaData" 8 9 26) (mkPtok 42 "x" 8 18 27) (mkPtok 2 "{" 9 0 28) [] (mkPtok 3 "}" 9 2 29))); (DMeta (mkMetaDef (mkSpan (mkPtok 37 "MetaData" 10 4 30) (mkPtok 3 "}" 14 0 39)) (mkPtok 37 "MetaData" 10 4 30) (mkPtok 42 "len" 11 0 31) (mkPtok 2 "{" 12 4 32) [(MIRef (mkRefMetaDecl (mkSpan (mkPtok 42 "matchKey" 12 6 33) (mkPtok 40 "," 13 8 35)) (mkPtok 42 "matchKey" 12 6 33) (mkPtok 42 "packetx" 13 0 34) None (mkPtok 40 "," 13 8 35))); (MIDecl (mkMetaDecl (mkSpan (mkPtok 20 "uint8" 13 10 36) (mkPtok 40 "," 13 22 38)) (TyBasic (mkSpan (mkPtok 20 "uint8" 13 10 36) (mkPtok 20 "uint8" 13 10 36)) (mkBasicType (mkSpan (mkPtok 20 "uint8" 13 10 36) (mkPtok 20 "uint8" 13 10 36)) (mkPtok 20 "uint8" 13 10 36))) (mkPtok 42 "uint8x" 13 16 37) None (mkPtok 40 "," 13 22 38)))] (mkPtok 3 "}" 14 0 39))); (DPacket (mkPacketDef (mkSpan (mkPtok 34 "root" 14 2 40) (mkPtok 3 "}" 41 6 130)) (Some (mkPtok 34 "root" 14 2 40)) (mkPtok 35 "packet" 15 0 41) (mkPtok 42 "body" 16 0 42) (mkPtok 2 "{" 16 5 43) [(mkFieldWithAttr (mkSpan (mkPtok 42 "u128" 16 7 44) (mkPtok 40 "," 18 4 49)) [] (CheckSumField (mkSpan (mkPtok 42 "u128" 16 7 44) (mkPtok 40 "," 18 4 49)) (mkChecksumFieldDecl (mkSpan (mkPtok 42 "u128" 16 7 44) (mkPtok 40 "," 18 4 49)) None (mkPtok 42 "u128" 16 7 44) (mkCalculatedFrom (mkSpan (mkPtok 5 "@calculatedFrom(" 16 12 45) (mkPtok 6 ")" 17 0 48)) (mkPtok 5 "@calculatedFrom(" 16 12 45) (mkPtok 31 """""" 16 29 46) (mkPtok 6 ")" 17 0 48)) None (mkPtok 40 "," 18 4 49)))); (mkFieldWithAttr (mkSpan (mkPtok 36 "repeat" 19 4 50) (mkPtok 40 "," 37 0 116)) [] (InerObjectField (mkSpan (mkPtok 36 "repeat" 19 4 50) (mkPtok 40 "," 37 0 116)) (Some (mkPtok 36 "repeat" 19 4 50)) (InerObjectDecl (mkSpan (mkPtok 42 "trueish" 20 4 51) (mkPtok 3 "}" 36 48 115)) (mkPtok 42 "trueish" 20 4 51) (mkPtok 2 "{" 20 12 52) [(LengthField (mkSpan (mkPtok 16 "char[]" 20 14 53) (mkPtok 40 "," 22 19 60)) (mkLengthFieldDecl (mkSpan (mkPtok 16 "char[]" 20 14 53) (mkPtok 40 "," 22 19 60)) (Some (TyDynamic (mkSpan (mkPtok 16 "char[]" 20 14 53) (mkPtok 16 "char[]" 20 14 53)) (mkDynamicString (mkSpan (mkPtok 16 "char[]" 20 14 53) (mkPtok 16 "char[]" 20 14 53)) (mkPtok 16 "char[]" 20 14 53)))) (mkPtok 42 "asx" 21 0 55) (mkLengthOf (mkSpan (mkPtok 7 "@lengthOf(" 21 4 56) (mkPtok 6 ")" 22 9 58)) (mkPtok 7 "@lengthOf(" 21 4 56) (mkPtok 42 "body" 22 4 57) (mkPtok 6 ")" 22 9 58)) (Some (mkPtok 43 "`u8 x,`" 22 11 59)) (mkPtok 40 "," 22 19 60))); (MatchField (mkSpan (mkPtok 38 "match" 22 21 61) (mkPtok 40 "," 34 22 103)) (mkMatchFieldDecl (mkSpan (mkPtok 38 "match" 22 21 61) (mkPtok 3 "}" 34 20 102)) (mkPtok 38 "match" 22 21 61) (mkPtok 42 "body" 24 4 63) (mkPtok 17 "as" 27 0 66) (mkPtok 42 "i8i8" 28 0 68) (mkPtok 2 "{" 28 5 69) [(mkMatchPair (mkSpan (mkPtok 31 """a\""b""" 28 7 70) (mkPtok 40 "," 29 4 73)) (MKString (mkPtok 31 """a\""b""" 28 7 70)) (mkPtok 39 ":" 28 13 71) (mkPtok 42 "packetx" 28 15 72) (Some (mkPtok 40 "," 29 4 73))); (mkMatchPair (mkSpan (mkPtok 31 (string_of_bytes [34; 97; 9; 98; 34]%N) 29 6 74) (mkPtok 40 "," 30 5 77)) (MKString (mkPtok 31 (string_of_bytes [34; 97; 9; 98; 34]%N) 29 6 74)) (mkPtok 39 ":" 29 11 75) (mkPtok 42 "i64_" 30 0 76) (Some (mkPtok 40 "," 30 5 77))); (mkMatchPair (mkSpan (mkPtok 18 "[" 30 7 78) (mkPtok 40 "," 31 15 85)) (MKList (mkKeyList (mkSpan (mkPtok 18 "[" 30 7 78) (mkPtok 13 "]" 31 3 82)) (mkPtok 18 "[" 30 7 78) (mkPtok 31 """""" 30 9 79) [((mkPtok 40 "," 30 12 80), (mkPtok 30 "42" 31 0 81))] (mkPtok 13 "]" 31 3 82))) (mkPtok 39 ":" 31 4 83) (mkPtok 42 "MetaDataX" 31 6 84) (Some (mkPtok 40 "," 31 15 85))); (mkMatchPair (mkSpan (mkPtok 18 "[" 31 16 86) (mkPtok 42 "pack" 31 27 90)) (MKList (mkKeyList (mkSpan (mkPtok 18 "[" 31 16 86) (mkPtok 13 "]" 31 23 88)) (mkPtok 18 "[" 31 16 86) (mkPtok 31 (string_of_bytes [34; 230; 182; 136; 230; 129; 175; 34]%N) 31 18 87) [] (mkPtok 13 "]" 31 23 88))) (mkPtok 39 ":" 31 25 89) (mkPtok 42 "pack" 31 27 90) None); (mkMatchPair (mkSpan (mkPtok 30 "3" 32 0 91) (mkPtok 42 "x" 32 4 93)) (MKDigits (mkPtok 30 "3" 32 0 91)) (mkPtok 39 ":" 32 2 92) (mkPtok 42 "x" 32 4 93) None); (mkMatchPair (mkSpan (mkPtok 18 "[" 33 0 94) (mkPtok 40 "," 34 18 101)) (MKList (mkKeyList (mkSpan (mkPtok 18 "[" 33 0 94) (mkPtok 13 "]" 34 10 98)) (mkPtok 18 "[" 33 0 94) (mkPtok 30 "0" 33 2 95) [((mkPtok 40 "," 34 4 96), (mkPtok 30 "007" 34 6 97))] (mkPtok 13 "]" 34 10 98))) (mkPtok 39 ":" 34 12 99) (mkPtok 42 "Z9_" 34 14 100) (Some (mkPtok 40 "," 34 18 101)))] (mkPtok 3 "}" 34 20 102)) (mkPtok 40 "," 34 22 103)); (MetaField (mkSpan (mkPtok 12 "char[" 34 24 104) (mkPtok 40 "," 36 22 110)) None (mkMetaDecl (mkSpan (mkPtok 12 "char[" 34 24 104) (mkPtok 40 "," 36 22 110)) (TyFixed (mkSpan (mkPtok 12 "char[" 34 24 104) (mkPtok 13 "]" 34 33 106)) (mkFixedString (mkSpan (mkPtok 12 "char[" 34 24 104) (mkPtok 13 "]" 34 33 106)) (mkPtok 12 "char[" 34 24 104) (mkPtok 30 "10" 34 30 105) (mkPtok 13 "]" 34 33 106))) (mkPtok 42 "int" 35 0 108) (Some (mkPtok 43 "`// not a comment`" 36 4 109)) (mkPtok 40 "," 36 22 110))); (ObjectField (mkSpan (mkPtok 42 "u" 36 24 111) (mkPtok 40 "," 36 46 114)) None (mkPtok 42 "u" 36 24 111) (Some (mkPtok 42 "repeatCount" 36 26 112)) (Some (mkPtok 43 "`{ , }`" 36 38 113)) (mkPtok 40 "," 36 46 114))] (mkPtok 3 "}" 36 48 115)) (mkPtok 40 "," 37 0 116))); (mkFieldWithAttr (mkSpan (mkPtok 7 "@lengthOf(" 37 2 117) (mkPtok 40 "," 39 0 124)) [(FALengthOf (mkSpan (mkPtok 7 "@lengthOf(" 37 2 117) (mkPtok 6 ")" 38 4 119)) (mkLengthOf (mkSpan (mkPtok 7 "@lengthOf(" 37 2 117) (mkPtok 6 ")" 38 4 119)) (mkPtok 7 "@lengthOf(" 37 2 117) (mkPtok 42 "trueish" 37 13 118) (mkPtok 6 ")" 38 4 119)))] (MetaField (mkSpan (mkPtok 19 "char" 38 6 120) (mkPtok 40 "," 39 0 124)) None (mkMetaDecl (mkSpan (mkPtok 19 "char" 38 6 120) (mkPtok 40 "," 39 0 124)) (TyBasic (mkSpan (mkPtok 19 "char" 38 6 120) (mkPtok 19 "char" 38 6 120)) (mkBasicType (mkSpan (mkPtok 19 "char" 38 6 120) (mkPtok 19 "char" 38 6 120)) (mkPtok 19 "char" 38 6 120))) (mkPtok 42 "asx" 38 11 121) (Some (mkPtok 43 "`doc`" 38 15 122)) (mkPtok 40 "," 39 0 124)))); (mkFieldWithAttr (mkSpan (mkPtok 9 "@tag(" 40 0 125) (mkPtok 40 "," 41 5 129)) [(FATag (mkSpan (mkPtok 9 "@tag(" 40 0 125) (mkPtok 6 ")" 40 8 127)) (mkTagAttr (mkSpan (mkPtok 9 "@tag(" 40 0 125) (mkPtok 6 ")" 40 8 127)) (mkPtok 9 "@tag(" 40 0 125) (mkPtok 30 "0" 40 6 126) (mkPtok 6 ")" 40 8 127)))] (ObjectField (mkSpan (mkPtok 42 "i64_" 41 0 128) (mkPtok 40 "," 41 5 129)) None (mkPtok 42 "i64_" 41 0 128) None None (mkPtok 40 "," 41 5 129)))] (mkPtok 3 "}" 41 6 130))); (DMeta (mkMetaDef (mkSpan (mkPtok 37 "MetaData" 41 8 131) (mkPtok 3 "}" 43 0 139)) (mkPtok 37 "MetaData" 41 8 131) (mkPtok 42 "lengthOf" 41 17 132) (mkPtok 2 "{" 41 26 133) [(MIDecl (mkMetaDecl (mkSpan (mkPtok 16 "char[]" 41 28 134) (mkPtok 40 "," 42 5 137)) (TyDynamic (mkSpan (mkPtok 16 "char[]" 41 28 134) (mkPtok 16 "char[]" 41 28 134)) (mkDynamicString (mkSpan (mkPtok 16 "char[]" 41 28 134) (mkPtok 16 "char[]" 41 28 134)) (mkPtok 16 "char[]" 41 28 134))) (mkPtok 42 "float" 41 34 135) (Some (mkPtok 43 (string_of_bytes [96; 99; 114; 108; 102; 13; 10; 108; 105; 110; 101; 96]%N) 41 40 136)) (mkPtok 40 "," 42 5 137)))] (mkPtok 3 "}" 43 0 139)))])).
+Eval vm_compute in ("<<<M507>>>" ++ check (runes_of_ascii "
+MetaData string_
+{ x charz `say ""hi""` , options1 options1 `line1
+line2` , } packet tag { @lengthOf( zchar
+) calculatedFrom zchar , @calculatedFrom(	""`tick`""
+)
+Foo
+/// triple
+//
+`tab	here` // trailing space 
+, match packetx /// triple
+as Pad {[
+// `tick` ""quote"" 'q'
+// trailing space 
+""packet"", ""a	b"" , """ ++ [233]%N ++ runes_of_ascii "t" ++ [233]%N ++ runes_of_ascii """ , ""abc"",255
+]: falsey} , }
+")).
+Eval vm_compute in ("<<<M539>>>" ++ check (runes_of_ascii "packet // @lengthOf(
+packetx { @calculatedFrom(	""`tick`"" ) // @lengthOf(
+uint8x@calculatedFrom( ""{,}"" )
+/// triple
+// 50% %s
+`it's` ,
+    }
+options{msg_type=
+    //
+    char[ 10 ] BodyLength = char[ 255 ] Z9_
+= ""a	b"" } options // c
+{ x_y_z
+=	' ' ;}
+packet u { char[] BodyLength  , uint32 Header@lengthOf( packetx )
+    , As Header , @calculatedFrom(
+""// no comment""
+) @lengthOf( uint8x )
+    match // " ++ [128512]%N ++ runes_of_ascii " emoji
+u128 as matchKey
+{ [ 3
+// trailing space 
+//
+,	""\" ++ [233]%N ++ runes_of_ascii """ , ""\" ++ [233]%N ++ runes_of_ascii """ // packet A { u8 x, }
+] : calculatedFrom
+    ,0123456789
+    :o 10
+    : rootA ,	} , //
+zchar[0123456789 ]  BodyLength @lengthOf(
+    repeatCount)
+    , }packet
+leftPad
+    { @tag(007 //	t
+) repeat string packetx  , }")).
+Eval vm_compute in ("<<<M571>>>" ++ check (runes_of_ascii "packet leftPad { }
+options
+    { u8x =
+    false ; A=	42 ; rootA = ""1"" ; }
+root packet
+crc { @leftPad ( '\x00' ) @calculatedFrom( ""`tick`""	)@calculatedFrom(
+""a	b"") len{repeat Foo{ Foo  { char[ 255]  string_@calculatedFrom(  ""CRC32""  ) // a // b
+`crlf
+line` ,
+    char[] chars  @lengthOf(_x  ) , } ,	repeat asx `
+` ,},char[]trueish
+@lengthOf(
+i8i8
+    ) ,repeat // @lengthOf(
+msg_type`line1
+line2` // `tick` ""quote"" 'q'
+, zchar[ 10	]  asx ,
+    }
+, }
+packet body
+{ } packet
+    Packet// " ++ [128512]%N ++ runes_of_ascii " emoji
+{
+    @lengthOf( zchar )string u8x
+`two words` ,
+    // packet A { u8 x, }
+    } // " ++ [27880; 37322]%N)).
+Eval vm_compute in ("<<<M603>>>" ++ check (runes_of_ascii "MetaData  T { float32 pack `` ,
+i64_ i64_
+    `" ++ [233]%N ++ runes_of_ascii "` , Packet o ,
+//	t
+//
+i64_ Logon , As A , //
+} packet a1
+{@tag(/// triple
+0123456789
+) match lengthOf as As // 50% %s
+{
+    ""a\\"" :
+repeatCount """ ++ [128512]%N ++ runes_of_ascii """
+    :
+x
+[
+65535 , 42
+    ]
+    : roots ,
+[ 10 ,
+0] : lengthOf // trailing space 
+, }
+,} 	 ")).
+Eval vm_compute in ("<<<M635>>>" ++ check (runes_of_ascii "  packet	Header{
+    @tag(
+    0 )	repeat string_ zchar ,
+char
+    Z9_ @lengthOf( charz)
+    ,char[]Packet ,
+    // c
+    @lengthOf( stringy
+)
+    @tag(7  ) @calculatedFrom( ""`tick`""	)float32 string_`" ++ [233]%N ++ runes_of_ascii "`
+, } MetaData charz
+    {
+int32 string_ ,
+    }
+root
+    packet	int
+{ @calculatedFrom(
+    ""a	b""
+) zchar[
+    65535 ] x_y_z `crlf
+line`
+    , @leftPad (
+) o
+    `" ++ [28040; 24687; 31867; 22411]%N ++ runes_of_ascii "` , uint8
+leftPad@calculatedFrom(
+    """ ++ [128512]%N ++ runes_of_ascii """  ), stringy len //x
+`it's` ,
+}
+")).
+Eval vm_compute in ("<<<M667>>>" ++ check (runes_of_ascii "options { // " ++ [128512]%N ++ runes_of_ascii " emoji
+repeatCount = char[
+3 ];u8x =	255 rootA = '0'
+;
+leftPad =
+    // " ++ [27880; 37322]%N ++ runes_of_ascii "
+    7	; } packet T {
+float@lengthOf(  msg_type )`line1
+line2` ,
+    int16 o ,repeat
+zchar[ 00 ] MetaDataX `u8 x,` ,
+    @tag( 00	)
+repeat
+repeatCount	i64_ , falsey { repeat zchar charz`` ,} , f64 Logon
+    @lengthOf(options1
+    ) `// not a comment` ,  repeat f32 metadata
+, roots a1
+    , // " ++ [128512]%N ++ runes_of_ascii " emoji
+}MetaData
+    u8x{
+string Packet /// triple
+,
+}")).
+Eval vm_compute in ("<<<M699>>>" ++ check (runes_of_ascii "packet rootA { @leftPad
+(
+)@calculatedFrom(""" ++ [28040; 24687]%N ++ runes_of_ascii """)
+@lengthOf(T) rootA
+, @tag( 10	)
+// `tick` ""quote"" 'q'
+// packet A { u8 x, }
+f64 i64_
+@lengthOf( uint8x// packet A { u8 x, }
+) , } packet
+chars { repeat int16
+MetaDataX , @rightPad ( //
+' '
+    ) int16// a // b
+crc @lengthOf( leftPad
+    ) , } 	 ")).
+Eval vm_compute in ("<<<T699>>>" ++ terms [mkTok 35 "packet" 1 0 false; mkTok 42 "rootA" 1 7 false; mkTok 2 "{" 1 13 false; mkTok 32 "@leftPad" 1 15 false; mkTok 8 "(" 2 0 false; mkTok 6 ")" 3 0 false; mkTok 5 "@calculatedFrom(" 3 1 false; mkTok 31 (string_of_bytes [34; 230; 182; 136; 230; 129; 175; 34]%N) 3 17 false; mkTok 6 ")" 3 21 false; mkTok 7 "@lengthOf(" 4 0 false; mkTok 42 "T" 4 10 false; mkTok 6 ")" 4 11 false; mkTok 42 "rootA" 4 13 false; mkTok 40 "," 5 0 false; mkTok 9 "@tag(" 5 2 false; mkTok 30 "10" 5 8 false; mkTok 6 ")" 5 11 false; mkTok 44 "// `tick` ""quote"" 'q'" 6 0 true; mkTok 44 "// packet A { u8 x, }" 7 0 true; mkTok 29 "f64" 8 0 false; mkTok 42 "i64_" 8 4 false; mkTok 7 "@lengthOf(" 9 0 false; mkTok 42 "uint8x" 9 11 false; mkTok 44 "// packet A { u8 x, }" 9 17 true; mkTok 6 ")" 10 0 false; mkTok 40 "," 10 2 false; mkTok 3 "}" 10 4 false; mkTok 35 "packet" 10 6 false; mkTok 42 "chars" 11 0 false; mkTok 2 "{" 11 6 false; mkTok 36 "repeat" 11 8 false; mkTok 25 "int16" 11 15 false; mkTok 42 "MetaDataX" 12 0 false; mkTok 40 "," 12 10 false; mkTok 32 "@rightPad" 12 12 false; mkTok 8 "(" 12 22 false; mkTok 44 "//" 12 24 true; mkTok 33 "' '" 13 0 false; mkTok 6 ")" 14 4 false; mkTok 25 "int16" 14 6 false; mkTok 44 "// a // b" 14 11 true; mkTok 42 "crc" 15 0 false; mkTok 7 "@lengthOf(" 15 4 false; mkTok 42 "leftPad" 15 15 false; mkTok 6 ")" 16 4 false; mkTok 40 "," 16 6 false; mkTok 3 "}" 16 8 false; mkTok 0 "<EOF>" 16 12 false] (mkPacket (mkPtok 35 "packet" 1 0 0) (Some (mkPtok 3 "}" 16 8 46)) [(DPacket (mkPacketDef (mkSpan (mkPtok 35 "packet" 1 0 0) (mkPtok 3 "}" 10 4 26)) None (mkPtok 35 "packet" 1 0 0) (mkPtok 42 "rootA" 1 7 1) (mkPtok 2 "{" 1 13 2) [(mkFieldWithAttr (mkSpan (mkPtok 32 "@leftPad" 1 15 3) (mkPtok 40 "," 5 0 13)) [(FAPadding (mkSpan (mkPtok 32 "@leftPad" 1 15 3) (mkPtok 6 ")" 3 0 5)) (mkPaddingAttr (mkSpan (mkPtok 32 "@leftPad" 1 15 3) (mkPtok 6 ")" 3 0 5)) (mkPtok 32 "@leftPad" 1 15 3) (mkPtok 8 "(" 2 0 4) None (mkPtok 6 ")" 3 0 5))); (FACalculatedFrom (mkSpan (mkPtok 5 "@calculatedFrom(" 3 1 6) (mkPtok 6 ")" 3 21 8)) (mkCalculatedFrom (mkSpan (mkPtok 5 "@calculatedFrom(" 3 1 6) (mkPtok 6 ")" 3 21 8)) (mkPtok 5 "@calculatedFrom(" 3 1 6) (mkPtok 31 (string_of_bytes [34; 230; 182; 136; 230; 129; 175; 34]%N) 3 17 7) (mkPtok 6 ")" 3 21 8))); (FALengthOf (mkSpan (mkPtok 7 "@lengthOf(" 4 0 9) (mkPtok 6 ")" 4 11 11)) (mkLengthOf (mkSpan (mkPtok 7 "@lengthOf(" 4 0 9) (mkPtok 6 ")" 4 11 11)) (mkPtok 7 "@lengthOf(" 4 0 9) (mkPtok 42 "T" 4 10 10) (mkPtok 6 ")" 4 11 11)))] (ObjectField (mkSpan (mkPtok 42 "rootA" 4 13 12) (mkPtok 40 "," 5 0 13)) None (mkPtok 42 "rootA" 4 13 12) None None (mkPtok 40 "," 5 0 13))); (mkFieldWithAttr (mkSpan (mkPtok 9 "@tag(" 5 2 14) (mkPtok 40 "," 10 2 25)) [(FATag (mkSpan (mkPtok 9 "@tag(" 5 2 14) (mkPtok 6 ")" 5 11 16)) (mkTagAttr (mkSpan (mkPtok 9 "@tag(" 5 2 14) (mkPtok 6 ")" 5 11 16)) (mkPtok 9 "@tag(" 5 2 14) (mkPtok 30 "10" 5 8 15) (mkPtok 6 ")" 5 11 16)))] (LengthField (mkSpan (mkPtok 29 "f64" 8 0 19) (mkPtok 40 "," 10 2 25)) (mkLengthFieldDecl (mkSpan (mkPtok 29 "f64" 8 0 19) (mkPtok 40 "," 10 2 25)) (Some (TyBasic (mkSpan (mkPtok 29 "f64" 8 0 19) (mkPtok 29 "f64" 8 0 19)) (mkBasicType (mkSpan (mkPtok 29 "f64" 8 0 19) (mkPtok 29 "f64" 8 0 19)) (mkPtok 29 "f64" 8 0 19)))) (mkPtok 42 "i64_" 8 4 20) (mkLengthOf (mkSpan (mkPtok 7 "@lengthOf(" 9 0 21) (mkPtok 6 ")" 10 0 24)) (mkPtok 7 "@lengthOf(" 9 0 21) (mkPtok 42 "uint8x" 9 11 22) (mkPtok 6 ")" 10 0 24)) None (mkPtok 40 "," 10 2 25))))] (mkPtok 3 "}" 10 4 26))); (DPacket (mkPacketDef (mkSpan (mkPtok 35 "packet" 10 6 27) (mkPtok 3 "}" 16 8 46)) None (mkPtok 35 "packet" 10 6 27) (mkPtok 42 "chars" 11 0 28) (mkPtok 2 "{" 11 6 29) [(mkFieldWithAttr (mkSpan (mkPtok 36 "repeat" 11 8 30) (mkPtok 40 "," 12 10 33)) [] (MetaField (mkSpan (mkPtok 36 "repeat" 11 8 30) (mkPtok 40 "," 12 10 33)) (Some (mkPtok 36 "repeat" 11 8 30)) (mkMetaDecl (mkSpan (mkPtok 25 "int16" 11 15 31) (mkPtok 40 "," 12 10 33)) (TyBasic (mkSpan (mkPtok 25 "int16" 11 15 31) (mkPtok 25 "int16" 11 15 31)) (mkBasicType (mkSpan (mkPtok 25 "int16" 11 15 31) (mkPtok 25 "int16" 11 15 31)) (mkPtok 25 "int16" 11 15 31))) (mkPtok 42 "MetaDataX" 12 0 32) None (mkPtok 40 "," 12 10 33)))); (mkFieldWithAttr (mkSpan (mkPtok 32 "@rightPad" 12 12 34) (mkPtok 40 "," 16 6 45)) [(FAPadding (mkSpan (mkPtok 32 "@rightPad" 12 12 34) (mkPtok 6 ")" 14 4 38)) (mkPaddingAttr (mkSpan (mkPtok 32 "@rightPad" 12 12 34) (mkPtok 6 ")" 14 4 38)) (mkPtok 32 "@rightPad" 12 12 34) (mkPtok 8 "(" 12 22 35) (Some (mkPtok 33 "' '" 13 0 37)) (mkPtok 6 ")" 14 4 38)))] (LengthField (mkSpan (mkPtok 25 "int16" 14 6 39) (mkPtok 40 "," 16 6 45)) (mkLengthFieldDecl (mkSpan (mkPtok 25 "int16" 14 6 39) (mkPtok 40 "," 16 6 45)) (Some (TyBasic (mkSpan (mkPtok 25 "int16" 14 6 39) (mkPtok 25 "int16" 14 6 39)) (mkBasicType (mkSpan (mkPtok 25 "int16" 14 6 39) (mkPtok 25 "int16" 14 6 39)) (mkPtok 25 "int16" 14 6 39)))) (mkPtok 42 "crc" 15 0 41) (mkLengthOf (mkSpan (mkPtok 7 "@lengthOf(" 15 4 42) (mkPtok 6 ")" 16 4 44)) (mkPtok 7 "@lengthOf(" 15 4 42) (mkPtok 42 "leftPad" 15 15 43) (mkPtok 6 ")" 16 4 44)) None (mkPtok 40 "," 16 6 45))))] (mkPtok 3 "}" 16 8 46)))])).
+Eval vm_compute in ("<<<M731>>>" ++ check (runes_of_ascii "packet u8x {repeat MetaDataX repeatCount
+// `tick` ""quote"" 'q'
+//
+, }MetaData
+u128 { // a // b
+uint8
+    charz `u8 x,`// " ++ [128512]%N ++ runes_of_ascii " emoji
+,a1 charz
+, f32 Foo , falsey packetx, }")).
+Eval vm_compute in ("<<<M763>>>" ++ check (runes_of_ascii "// `tick` ""quote"" 'q'
+root packet Z9_{ char[ 1 ] x_y_z
+    @lengthOf( body) , i32 o
+, repeat
+    falsey u128 `it's`
+, // `tick` ""quote"" 'q'
+uint32  As  `` , repeat i8	i64_`100% of %d`, @calculatedFrom(
+""a\""b""
+)repeat float
+    ,@rightPad ( // `tick` ""quote"" 'q'
+'0'
+)char[]u
+`it's` ,
+//
+//x
+u8x@calculatedFrom( ""x y"" ) `doc` // c
+, //	t
+int8
+    stringy	`tab	here` , } packet calculatedFrom {
+    f64  u128 @lengthOf(
+    len ) ,
+    } packet As  { float64 calculatedFrom `two words`
+    ,  match repeatCount // packet A { u8 x, }
+as // @lengthOf(
+chars { """" :
+charz	, } ,	repeat // 50% %s
+trueish
+{ u8 Z9_ ,
+repeat
+body,},
+int float ,@leftPad (
+)tag {	u16 string_
+@calculatedFrom( ""`tick`"")`
+` ,
+zchar[007 ] x @calculatedFrom(""1""
+//
+// " ++ [128512]%N ++ runes_of_ascii " emoji
+)`// not a comment`,
+    }
+    ,
+A roots ,@tag(
+4294967296 ) match msg_type	as  A{ 007
+: msg_type  , /// triple
+[
+42
+    // a // b
+    , ""{,}""]  : x_y_z, 255
+    //	t
+    :  f32a // `tick` ""quote"" 'q'
+,
+[0123456789 ,	""1"" ] :
+    T
+,
+} , @tag(0 ) o packetx
+`" ++ [28040; 24687; 31867; 22411]%N ++ runes_of_ascii "`,
+pack  int
+    `two words`
+    //	t
+    ,// trailing space 
+@rightPad ( ' '
+) i64_  @lengthOf( Foo ), }")).
+Eval vm_compute in ("<<<M795>>>" ++ check (runes_of_ascii "options { msg_type
+=""a\\"" ;zchar = i64; }options
+{matchKey // a // b
+= ""a\\"" ;
+options1=0123456789 len = 3 ; i64_
+    = '\x00'; } packet Packet {
+    char[
+    // packet A { u8 x, }
+    4294967296
+] roots, }
+// `tick` ""quote"" 'q'
+")).
+Eval vm_compute in ("<<<M827>>>" ++ check (runes_of_ascii "packet  BodyLength{ Pad	{Foo i64_ `say ""hi""`
+, Header {// a // b
+zchar[
+10
+    ] o ,} ,
+repeat zchar[ 007 ]crc // trailing space 
+, u16 i64_ //x
+@calculatedFrom( ""1"" )/// triple
+`a\` ,
+} , } packet	uint8x{
+@calculatedFrom( // packet A { u8 x, }
+""a	b"") char[0123456789] x, i16
+    repeatCount @calculatedFrom( // " ++ [27880; 37322]%N ++ runes_of_ascii "
+""x y""
+    ), repeat u32 roots	,@lengthOf( string_ )
+    @lengthOf(	len
+) @rightPad ( '\x00'
+    ) repeat x_y_z{ repeat BodyLength , repeatCount
+@lengthOf(
+    charz // @lengthOf(
+) `line1
+line2`
+,} ,
+string u128 @calculatedFrom(
+""// no comment"" ) `doc`
+, char[]rootA `// not a comment` ,  }	packet T
+{rootA
+@lengthOf( tag ) `{ , }`, repeatCount x_y_z
+`it's` ,
+@tag(10 ) o options1,// " ++ [27880; 37322]%N ++ runes_of_ascii "
+match zchar as Pad
+{ """ ++ [233]%N ++ runes_of_ascii "t" ++ [233]%N ++ runes_of_ascii """ : trueish , 1 :	x_y_z ""packet"" : float 255 //x
+:
+    tag }
+,}")).
+Eval vm_compute in ("<<<M859>>>" ++ check (runes_of_ascii "//	t
+packet charz // " ++ [128512]%N ++ runes_of_ascii " emoji
+{ @leftPad ( ' '
+    )repeat	As `line1
+line2` , match tag
+// packet A { u8 x, }
+// " ++ [27880; 37322]%N ++ runes_of_ascii "
+as
+Logon { 007: roots ,
+""" ++ [128512]%N ++ runes_of_ascii """
+    // trailing space 
+    :
+    calculatedFrom
+[65535
+    , ""x y"",0 ,
+"""" , """" ]: body // c
+, ""\n"":	BodyLength, }
+    , @leftPad
+( '\x00' ) char[ 255
+]
+    msg_type
+@lengthOf( matchKey ) `line1
+line2` , u16 options1 @calculatedFrom(""{,}"" ) `two words` ,
+Foo {repeat rootA , crc f32a `crlf
+line` ,},@lengthOf( packetx	) repeat char[ 4294967296
+]
+i64_	,  @rightPad ( '0'
+) roots stringy
+    ,string a1	, @rightPad ( '\x00')
+@rightPad ( // " ++ [27880; 37322]%N ++ runes_of_ascii "
+'0' ) match
+    Header as charz{ 3 :
+repeatCount ""{,}"" :	len ,
+    } ,@tag( 4294967296 )repeat
+i8i8
+//
+// `tick` ""quote"" 'q'
+matchKey `it's`
+    ,
+}  packet // " ++ [27880; 37322]%N ++ runes_of_ascii "
+metadata {
+    o { char[] Pad ,
+    // `tick` ""quote"" 'q'
+    match	repeatCount// @lengthOf(
+as Z9_ {	0123456789 //
+:  msg_type 4294967296:trueish
+,  [""packet"",
+""x y"" ]
+    :falsey}  , repeat int string_ , // `tick` ""quote"" 'q'
+}, @tag(
+// a // b
+// 50% %s
+007
+// trailing space 
+// packet A { u8 x, }
+)
+    match Pad
+    as
+leftPad { [
+    ""a\""b"", ""it's"",	""x y"" ,	""it's""  , 007 ,
+""`tick`"" , 65535
+] :
+Header
+[
+42] : charz ,
+007 : rootA , },
+zchar[ 0123456789
+]
+falsey @lengthOf( metadata
+    //	t
+    ) , A {
+    match x as /// triple
+f32a {	0123456789 : repeatCount , [ """ ++ [28040; 24687]%N ++ runes_of_ascii """
+    ]: tag
+, 00 : i64_
+},match lengthOf as	Packet {  65535 : string_
+, // 50% %s
+""a\""b""
+    // c
+    : roots,
+4294967296	:
+chars // @lengthOf(
+,
+    //x
+    } ,
+    char[
+0
+    ] x `" ++ [28040; 24687; 31867; 22411]%N ++ runes_of_ascii "` ,
+    }
+    , match msg_type as
+Logon {
+65535 : Pad ,}// " ++ [128512]%N ++ runes_of_ascii " emoji
+,  @leftPad
+( '0' ) repeat
+metadata {repeat u32
+    // a // b
+    Foo`// not a comment`
+,match _x // trailing space 
+as Foo { // 50% %s
+[ ""`tick`""] :
+    Foo,
+65535: repeatCount  , """ ++ [28040; 24687]%N ++ runes_of_ascii """	:crc""CRC32"" :
+calculatedFrom , ""// no comment""
+// a // b
+// a // b
+: lengthOf , }  , repeat int64 repeatCount
+    ,
+} ,
+match Pad// c
+as Packet {
+""abc""  :
+packetx , """" :rootA
+    ,""a\""b"" :
+    packetx ""\" ++ [233]%N ++ runes_of_ascii """ :f32a
+    10	:
+x_y_z , },
+    u128 `// not a comment` ,@lengthOf( calculatedFrom
+// " ++ [27880; 37322]%N ++ runes_of_ascii "
+// " ++ [27880; 37322]%N ++ runes_of_ascii "
+)match
+string_
+    // packet A { u8 x, }
+    as  u {""" ++ [28040; 24687]%N ++ runes_of_ascii """
+:x_y_z
+    //
+    255 :As	, 007 // " ++ [128512]%N ++ runes_of_ascii " emoji
+:
+// a // b
+// packet A { u8 x, }
+len """ ++ [233]%N ++ runes_of_ascii "t" ++ [233]%N ++ runes_of_ascii """ :
+/// triple
+// trailing space 
+a1 0
+// " ++ [27880; 37322]%N ++ runes_of_ascii "
+//
+:
+Pad ,
+    } ,}
+")).
+Eval vm_compute in ("<<<M891>>>" ++ check (runes_of_ascii "
+
+")).
+Eval vm_compute in ("<<<M923>>>" ++ check (runes_of_ascii "
+")).
+Eval vm_compute in ("<<<T923>>>" ++ terms [mkTok 0 "<EOF>" 2 0 false] (mkPacket (mkPtok 0 "<EOF>" 2 0 0) None [])).
+Eval vm_compute in ("<<<M955>>>" ++ check (runes_of_ascii "packet // packet A { u8 x, }
+zchar { }
+options {
+//x
+// a // b
+pack = """ ++ [128512]%N ++ runes_of_ascii """
+} MetaData float {int16
+Pad
+    //
+    ,asx u , char[]
+// 50% %s
+// " ++ [27880; 37322]%N ++ runes_of_ascii "
+uint8x
+    ,
+} packet
+    uint8x {  @lengthOf( Pad  ) /// triple
+Logon stringy,
+    @lengthOf(float	) zchar[
+    00]
+    float ,
+@leftPad( '\x00'
+)char[ 0 ]  zchar@lengthOf(Header ) `say ""hi""`
+    ,
+    zchar[
+007
+    ] Packet  `u8 x,`, repeat
+    float32 BodyLength,	char[]stringy@calculatedFrom(
+""// no comment""  ) , char[00 // a // b
+]charz , @calculatedFrom(	""\" ++ [233]%N ++ runes_of_ascii """ )i32 i64_ @calculatedFrom(
+""it's"" ), }
+")).
+Eval vm_compute in ("<<<M987>>>" ++ check (runes_of_ascii "packet uint8x{ @tag(7 ) @lengthOf( asx
+)
+    @tag( 0) zchar[ 65535
+    // trailing space 
+    ]
+    // trailing space 
+    f32a `line1
+line2`
+, string_
+    , @tag( 0
+) @calculatedFrom( ""a	b""
+    /// triple
+    ) @tag( 007 )
+match
+crc as // @lengthOf(
+stringy
+    {""`tick`"" :
+As ""CRC32"":	metadata ,[// `tick` ""quote"" 'q'
+""`tick`""]
+:	stringy,
+[ ""\" ++ [233]%N ++ runes_of_ascii """ ] : x""" ++ [233]%N ++ runes_of_ascii "t" ++ [233]%N ++ runes_of_ascii """ :roots ,
+},
+char[] trueish@lengthOf(Header ) ``	,
+}
+
+")).
+Eval vm_compute in ("<<<M1019>>>" ++ check (runes_of_ascii "packet tag
+{@tag( 10  ) // " ++ [27880; 37322]%N ++ runes_of_ascii "
+match
+float
+as
+    // trailing space 
+    int  { ""a\""b"" : //x
+msg_type
+// `tick` ""quote"" 'q'
+// packet A { u8 x, }
+,
+""a\""b"" : body, [ ""a\""b""
+    ,
+65535 , ""a	b"" ] :  Foo // c
+, 255:// `tick` ""quote"" 'q'
+trueish , [
+    0123456789, // a // b
+0123456789
+] :
+leftPad, [ ""abc"", 7
+    ,0123456789 ,
+    ""a\\"" ,""a\\"" , ""1"" , ""packet""	, // 50% %s
+""{,}""]  : repeatCount , }
+,
+repeat u8x { float32 len@lengthOf( options1
+) `line1
+line2` , },@tag( //x
+007 ) @leftPad ('\x00'
+)	char[00
+]As// " ++ [27880; 37322]%N ++ runes_of_ascii "
+,@calculatedFrom( ""\" ++ [233]%N ++ runes_of_ascii """	) // a // b
+string i64_ ,	char[]f32a, }
+")).
+Eval vm_compute in ("<<<M1051>>>" ++ check (runes_of_ascii "packet options1
+    { Z9_ `
+`
+    // " ++ [27880; 37322]%N ++ runes_of_ascii "
+    , @calculatedFrom( """" )float64 // a // b
+_x,string len @calculatedFrom(
+    // trailing space 
+    ""`tick`""
+)
+    `// not a comment` ,
+    match body as
+charz
+{
+    ""a\""b"" :	f32a
+    , [  ""\n""] : roots , 3 :
+u128,
+[	4294967296]
+: i8i8 }
+    ,
+@lengthOf( chars
+    ) char[
+65535] len@calculatedFrom(
+""// no comment""	) ,} options {
+trueish = true
+; Packet= 4294967296 o= char[] }
+MetaData
+metadata { trueish float
+`a\` , tag float	, // packet A { u8 x, }
+} root packet _x	{zchar[ 0123456789 ]
+// `tick` ""quote"" 'q'
+// " ++ [128512]%N ++ runes_of_ascii " emoji
+BodyLength @calculatedFrom(
+""a\""b"" )
+, }options {
+matchKey = // c
+' '	} // 50% %s")).
+Eval vm_compute in ("<<<M1083>>>" ++ check (runes_of_ascii "//x
+packet Z9_ {
+@lengthOf(
+rootA)@calculatedFrom(// trailing space 
+""\n""
+) int8 Logon`` ,zchar[42  ]
+T
+    // `tick` ""quote"" 'q'
+    @lengthOf( Foo
+    // `tick` ""quote"" 'q'
+    ) //
+,
+}  options {//
+x_y_z =	""`tick`""
+    ;rootA
+=
+""it's"" ; packetx = 1 ;BodyLength// packet A { u8 x, }
+=  255 ; roots
+= ""a\\"" //
+}
+
+")).
+Eval vm_compute in ("<<<M1115>>>" ++ check (runes_of_ascii "packet crc{ repeat
+zchar[
+    7] Foo , repeat // c
+u64
+    pack
+`u8 x,`	, u8x
+{ char[]charz @lengthOf(
+i8i8
+    ) ,repeat crc , metadata { charz
+, options1 string_
+    // `tick` ""quote"" 'q'
+    `crlf
+line`
+, } , char[
+255] trueish , },
+@lengthOf( As )@tag( 65535 )
+u64 i64_ `it's` , len// @lengthOf(
+{
+    metadata
+    {  zchar[ 00
+    ]
+trueish ,// c
+}
+, zchar[
+65535 ]chars ,
+match
+    string_
+as int
+// 50% %s
+// packet A { u8 x, }
+{
+65535 :  metadata	, """ ++ [128512]%N ++ runes_of_ascii """: u
+,	[
+    3// " ++ [27880; 37322]%N ++ runes_of_ascii "
+, 3]
+:
+    As ,  42
+    :int
+, 1 : o , }
+,
+// " ++ [128512]%N ++ runes_of_ascii " emoji
+// @lengthOf(
+}
+    ,	@calculatedFrom(
+""a\""b""
+) char[
+65535 ] _x`
+`	,  @calculatedFrom( ""1""  ) u128 rootA, // packet A { u8 x, }
+int64
+    i64_@lengthOf(charz )
+    `crlf
+line`, repeat roots,
+@lengthOf(
+    _x
+    )
+float
+    @calculatedFrom(""x y"" ) `doc`,}root
+packet  packetx{@rightPad ( )
+    repeat u64 uint8x // @lengthOf(
+,
+@calculatedFrom(  """" )
+@calculatedFrom(
+""" ++ [233]%N ++ runes_of_ascii "t" ++ [233]%N ++ runes_of_ascii """ ) i32 pack// trailing space 
+,
+repeat /// triple
+f64 T
+    `say ""hi""`	, }MetaData	Logon
+{ u8x
+// " ++ [27880; 37322]%N ++ runes_of_ascii "
+// " ++ [128512]%N ++ runes_of_ascii " emoji
+Foo ,
+char[ // `tick` ""quote"" 'q'
+65535]// " ++ [27880; 37322]%N ++ runes_of_ascii "
+int // " ++ [27880; 37322]%N ++ runes_of_ascii "
+, }")).
+Eval vm_compute in ("<<<M1147>>>" ++ check (runes_of_ascii "options	{ }
+/// triple
+//	t
+MetaData string_
+    // `tick` ""quote"" 'q'
+    {	i64_ a1 ,u128
+    x , A
+    T `
+`
+    // packet A { u8 x, }
+    ,options1 calculatedFrom//	t
+`" ++ [28040; 24687; 31867; 22411]%N ++ runes_of_ascii "` ,
+int8 roots `a\` , zchar[ 7 ]
+MetaDataX
+,
+}")).
+Eval vm_compute in ("<<<T1147>>>" ++ terms [mkTok 1 "options" 1 0 false; mkTok 2 "{" 1 8 false; mkTok 3 "}" 1 10 false; mkTok 44 "/// triple" 2 0 true; mkTok 44 (string_of_bytes [47; 47; 9; 116]%N) 3 0 true; mkTok 37 "MetaData" 4 0 false; mkTok 42 "string_" 4 9 false; mkTok 44 "// `tick` ""quote"" 'q'" 5 4 true; mkTok 2 "{" 6 4 false; mkTok 42 "i64_" 6 6 false; mkTok 42 "a1" 6 11 false; mkTok 40 "," 6 14 false; mkTok 42 "u128" 6 15 false; mkTok 42 "x" 7 4 false; mkTok 40 "," 7 6 false; mkTok 42 "A" 7 8 false; mkTok 42 "T" 8 4 false; mkTok 43 (string_of_bytes [96; 10; 96]%N) 8 6 false; mkTok 44 "// packet A { u8 x, }" 10 4 true; mkTok 40 "," 11 4 false; mkTok 42 "options1" 11 5 false; mkTok 42 "calculatedFrom" 11 14 false; mkTok 44 (string_of_bytes [47; 47; 9; 116]%N) 11 28 true; mkTok 43 (string_of_bytes [96; 230; 182; 136; 230; 129; 175; 231; 177; 187; 229; 158; 139; 96]%N) 12 0 false; mkTok 40 "," 12 7 false; mkTok 24 "int8" 13 0 false; mkTok 42 "roots" 13 5 false; mkTok 43 "`a\`" 13 11 false; mkTok 40 "," 13 16 false; mkTok 14 "zchar[" 13 18 false; mkTok 30 "7" 13 25 false; mkTok 13 "]" 13 27 false; mkTok 42 "MetaDataX" 14 0 false; mkTok 40 "," 15 0 false; mkTok 3 "}" 16 0 false; mkTok 0 "<EOF>" 16 1 false] (mkPacket (mkPtok 1 "options" 1 0 0) (Some (mkPtok 3 "}" 16 0 34)) [(DOption (mkOptionDef (mkSpan (mkPtok 1 "options" 1 0 0) (mkPtok 3 "}" 1 10 2)) (mkPtok 1 "options" 1 0 0) (mkPtok 2 "{" 1 8 1) [] (mkPtok 3 "}" 1 10 2))); (DMeta (mkMetaDef (mkSpan (mkPtok 37 "MetaData" 4 0 5) (mkPtok 3 "}" 16 0 34)) (mkPtok 37 "MetaData" 4 0 5) (mkPtok 42 "string_" 4 9 6) (mkPtok 2 "{" 6 4 8) [(MIRef (mkRefMetaDecl (mkSpan (mkPtok 42 "i64_" 6 6 9) (mkPtok 40 "," 6 14 11)) (mkPtok 42 "i64_" 6 6 9) (mkPtok 42 "a1" 6 11 10) None (mkPtok 40 "," 6 14 11))); (MIRef (mkRefMetaDecl (mkSpan (mkPtok 42 "u128" 6 15 12) (mkPtok 40 "," 7 6 14)) (mkPtok 42 "u128" 6 15 12) (mkPtok 42 "x" 7 4 13) None (mkPtok 40 "," 7 6 14))); (MIRef (mkRefMetaDecl (mkSpan (mkPtok 42 "A" 7 8 15) (mkPtok 40 "," 11 4 19)) (mkPtok 42 "A" 7 8 15) (mkPtok 42 "T" 8 4 16) (Some (mkPtok 43 (string_of_bytes [96; 10; 96]%N) 8 6 17)) (mkPtok 40 "," 11 4 19))); (MIRef (mkRefMetaDecl (mkSpan (mkPtok 42 "options1" 11 5 20) (mkPtok 40 "," 12 7 24)) (mkPtok 42 "options1" 11 5 20) (mkPtok 42 "calculatedFrom" 11 14 21) (Some (mkPtok 43 (string_of_bytes [96; 230; 182; 136; 230; 129; 175; 231; 177; 187; 229; 158; 139; 96]%N) 12 0 23)) (mkPtok 40 "," 12 7 24))); (MIDecl (mkMetaDecl (mkSpan (mkPtok 24 "int8" 13 0 25) (mkPtok 40 "," 13 16 28)) (TyBasic (mkSpan (mkPtok 24 "int8" 13 0 25) (mkPtok 24 "int8" 13 0 25)) (mkBasicType (mkSpan (mkPtok 24 "int8" 13 0 25) (mkPtok 24 "int8" 13 0 25)) (mkPtok 24 "int8" 13 0 25))) (mkPtok 42 "roots" 13 5 26) (Some (mkPtok 43 "`a\`" 13 11 27)) (mkPtok 40 "," 13 16 28))); (MIDecl (mkMetaDecl (mkSpan (mkPtok 14 "zchar[" 13 18 29) (mkPtok 40 "," 15 0 33)) (TyFixed (mkSpan (mkPtok 14 "zchar[" 13 18 29) (mkPtok 13 "]" 13 27 31)) (mkFixedString (mkSpan (mkPtok 14 "zchar[" 13 18 29) (mkPtok 13 "]" 13 27 31)) (mkPtok 14 "zchar[" 13 18 29) (mkPtok 30 "7" 13 25 30) (mkPtok 13 "]" 13 27 31))) (mkPtok 42 "MetaDataX" 14 0 32) None (mkPtok 40 "," 15 0 33)))] (mkPtok 3 "}" 16 0 34)))])).
+Eval vm_compute in ("<<<M1179>>>" ++ check (runes_of_ascii "packet x_y_z {
+float64	leftPad
+    @lengthOf( repeatCount
+) ,
+    match msg_type
+    //x
+    as x {
+    65535  :
+// `tick` ""quote"" 'q'
+// packet A { u8 x, }
+roots ,  4294967296 : metadata
+, } ,
+} packet float{
+u64 x_y_z // packet A { u8 x, }
+`` , char[7 ]
+    A	@lengthOf(Packet
+    // 50% %s
+    )`" ++ [233]%N ++ runes_of_ascii "` , repeat o { string MetaDataX
+`{ , }` , } ,
+@lengthOf( uint8x
+)
+    string int `it's`
+    //
+    ,  }")).
+Eval vm_compute in ("<<<M1211>>>" ++ check (runes_of_ascii "options
+{ calculatedFrom= ""\n"" ; } root packet lengthOf { /// triple
+@calculatedFrom( ""\" ++ [233]%N ++ runes_of_ascii """ ) repeatCount
+@calculatedFrom(
+""\" ++ [233]%N ++ runes_of_ascii """ ) `
+` , Logon, u@calculatedFrom( ""it's""  ),
+    metadata rootA //	t
+, char[ // 50% %s
+42] u@calculatedFrom( ""a	b"")  , }
+packet
+Header{
+    }
+
 ")).
 Eval vm_compute in ("<<<M1243>>>" ++ check (runes_of_ascii "
 packet
-    int{ repeat  o
-    `say ""hi""` ,
-    // " ++ [128512]%N ++ runes_of_ascii " emoji
-    @leftPad ( '\x00' )T
-    `// not a comment`,
-@tag(
-    007 // trailing space 
-) repeat uint8x { zchar[	7 ] a1 ,char[] msg_type @lengthOf( calculatedFrom
+i8i8
+{ // 50% %s
+@rightPad
+( ' ' )
+@lengthOf( i64_ )@calculatedFrom(
+""abc""
 )
-`two words`
+string crc	@calculatedFrom( """ ++ [128512]%N ++ runes_of_ascii """
+) ,	char[
+7 ] float  @calculatedFrom( ""{,}""
+    )
+    ,@rightPad( '\x00')match _x
+as As	{
+// " ++ [27880; 37322]%N ++ runes_of_ascii "
+// `tick` ""quote"" 'q'
+""\n""
+:	asx[ 7 , """ ++ [28040; 24687]%N ++ runes_of_ascii """
+    , ""\n""	, 0
+    , 1 ] : leftPad,	0123456789	: len """ ++ [128512]%N ++ runes_of_ascii """ : Header
 ,
-string_	A // packet A { u8 x, }
+""a\\""
+: // " ++ [27880; 37322]%N ++ runes_of_ascii "
+u
+, 4294967296 /// triple
+:
+    a1 } , @calculatedFrom(""\n"" ) float32 Header``
+,// " ++ [128512]%N ++ runes_of_ascii " emoji
+}
+")).
+Eval vm_compute in ("<<<M1275>>>" ++ check (runes_of_ascii "packet Logon
+    {repeat zchar[ 007] zchar//
 ,
+}")).
+Eval vm_compute in ("<<<M1307>>>" ++ check (runes_of_ascii "options { options1
+= // " ++ [27880; 37322]%N ++ runes_of_ascii "
+true // @lengthOf(
+}
+// 50% %s
+// c
+packet Header{
+    // c
+    @calculatedFrom(
+// packet A { u8 x, }
+//
+""" ++ [233]%N ++ runes_of_ascii "t" ++ [233]%N ++ runes_of_ascii """ ) u16
+Foo ,}
+    root packet pack {@tag( 255
+) a1 { // packet A { u8 x, }
+char[] x_y_z, } ,
+@lengthOf( falsey) uint64 tag , char[]
+    // `tick` ""quote"" 'q'
+    Header@calculatedFrom(""// no comment""	) ,
+@leftPad ( '0'  ) @rightPad ('\x00' ) tag @calculatedFrom(
 // " ++ [128512]%N ++ runes_of_ascii " emoji
 // " ++ [27880; 37322]%N ++ runes_of_ascii "
-} , repeat// " ++ [27880; 37322]%N ++ runes_of_ascii "
-char falsey
-, repeat /// triple
-zchar[
-    0123456789 ] repeatCount ,match trueish as As{
-[// " ++ [128512]%N ++ runes_of_ascii " emoji
-""a\\"", """ ++ [233]%N ++ runes_of_ascii "t" ++ [233]%N ++ runes_of_ascii """
-    ,  """ ++ [28040; 24687]%N ++ runes_of_ascii """ ,
-    // trailing space 
-    7 , """ ++ [233]%N ++ runes_of_ascii "t" ++ [233]%N ++ runes_of_ascii """, """ ++ [28040; 24687]%N ++ runes_of_ascii """ ] :
-    int ,0123456789 :
-A ,
-[00 , """ ++ [128512]%N ++ runes_of_ascii """
-    ] :  Header
-, // packet A { u8 x, }
-""a\\"" : u, } , } packet
-// c
+""" ++ [28040; 24687]%N ++ runes_of_ascii """
 // @lengthOf(
-body
-    {
-    float32 Header `doc` ,roots // `tick` ""quote"" 'q'
-@calculatedFrom( """" )
-,
-int32 metadata ,// `tick` ""quote"" 'q'
-}
-options
-    { repeatCount =
-    ""abc"" ; } 	 ")).
-Eval vm_compute in ("<<<M1275>>>" ++ check (runes_of_ascii " //	t")).
-Eval vm_compute in ("<<<M1307>>>" ++ check (runes_of_ascii "options { rootA = false ; }MetaData /// triple
-float { u16 falsey ``
-,  char[ 1 ]
-options1 , uint32 stringy `` , f32
-leftPad  `it's`	,
-    /// triple
-    x repeatCount ,asx
-    repeatCount
-`{ , }` ,
-    }  packet
-    rootA { @tag(
-    7 ) len string_ , } packet As
-{@leftPad ( ' '
-    // " ++ [128512]%N ++ runes_of_ascii " emoji
-    ) repeat chars { f32 leftPad @lengthOf( Packet ) `a\` ,
-    int32
-    //x
-    T `tab	here`	, match string_ as len { 65535
-: rootA ,} , A { falsey @calculatedFrom(
-    ""CRC32"" ) ,
-    uint8x
-,
-zchar ,} , } , }
-")).
-Eval vm_compute in ("<<<M1339>>>" ++ check (runes_of_ascii "packet Header{ @rightPad
-    (
-    '0' )
-char[] x_y_z, Header {	repeat zchar[ 00 ] leftPad ,
-    repeat
-f64 // a // b
-float `a\`  , match o	as pack{ ""1"":
-    asx ,65535
-: x// `tick` ""quote"" 'q'
-, 65535// @lengthOf(
-: i8i8
-, [//
-""" ++ [28040; 24687]%N ++ runes_of_ascii """]: matchKey } ,
-    repeat A , } ,
-    char[ 3]trueish, @calculatedFrom( """ ++ [128512]%N ++ runes_of_ascii """  )
-    f32a , } packet uint8x
-{
-//
-//x
-chars@lengthOf(  Logon
-) , @leftPad
-    (' ' )repeat zchar[
-1 ]	_x `// not a comment` ,	char[]
-body``
-,uint32 leftPad `line1
-line2`,
-repeat x_y_z { u8x msg_type // `tick` ""quote"" 'q'
-,
-} , @tag( 0 ) int16 i8i8 `tab	here`
-, repeat Pad `doc` ,
-repeat
-// packet A { u8 x, }
-//
-u ,
-    u8x
-@calculatedFrom(  ""x y"" )
-`two words` , }
-")).
-Eval vm_compute in ("<<<M1371>>>" ++ check (runes_of_ascii "
-")).
-Eval vm_compute in ("<<<T1371>>>" ++ terms [mkTok 0 "<EOF>" 2 0 false] (mkPacket (mkPtok 0 "<EOF>" 2 0 0) None [])).
-Eval vm_compute in ("<<<M1403>>>" ++ check (runes_of_ascii "
-/// triple
-")).
-Eval vm_compute in ("<<<M1435>>>" ++ check (runes_of_ascii "options { matchKey	='\x00';	}")).
-Eval vm_compute in ("<<<M1467>>>" ++ check (runes_of_ascii "packet
-trueish	{ uint16 chars , }
-")).
-Eval vm_compute in ("<<<M1499>>>" ++ check (runes_of_ascii "// trailing space 
-MetaData body { int32
-    MetaDataX
-, As x ,}")).
-Eval vm_compute in ("<<<M1531>>>" ++ check (runes_of_ascii "options { Header  = //x
-""it's""	;As
-=true
-; asx=i64
-;	}packet o { @tag( 00  ) char[] leftPad `it's` ,	char[ 3 ] T ,
-    } root  packet leftPad{repeat
-zchar[ 0
-    ]trueish
-    , f64 x_y_z
-    /// triple
-    @lengthOf(x ) , @lengthOf(  msg_type )rootA @calculatedFrom( ""a\\""
-) , @lengthOf( leftPad) zchar[
-    7
-    //x
-    ]  crc @lengthOf( //	t
-u ) `doc`,
-}
-")).
-Eval vm_compute in ("<<<M1563>>>" ++ check (runes_of_ascii "options{ BodyLength
-= """ ++ [128512]%N ++ runes_of_ascii """ ; /// triple
-} // " ++ [128512]%N ++ runes_of_ascii " emoji")).
-Eval vm_compute in ("<<<M1595>>>" ++ check (runes_of_ascii "packet body// `tick` ""quote"" 'q'
-{ @lengthOf(
-rootA ) repeat calculatedFrom u// a // b
-, int8 // trailing space 
-T	,
-string Foo
+// c
+) , uint16 x @calculatedFrom( ""`tick`"" ) `tab	here`
     ,
-    zchar[
-    00] msg_type
-`// not a comment`
-    // c
-    , @lengthOf( tag ) @rightPad
-() @tag( 0 )  char[] stringy @lengthOf(
-Z9_) `say ""hi""`	, metadata
-    // " ++ [128512]%N ++ runes_of_ascii " emoji
-    `{ , }`, }
-")).
-Eval vm_compute in ("<<<T1595>>>" ++ terms [mkTok 35 "packet" 1 0 false; mkTok 42 "body" 1 7 false; mkTok 44 "// `tick` ""quote"" 'q'" 1 11 true; mkTok 2 "{" 2 0 false; mkTok 7 "@lengthOf(" 2 2 false; mkTok 42 "rootA" 3 0 false; mkTok 6 ")" 3 6 false; mkTok 36 "repeat" 3 8 false; mkTok 42 "calculatedFrom" 3 15 false; mkTok 42 "u" 3 30 false; mkTok 44 "// a // b" 3 31 true; mkTok 40 "," 4 0 false; mkTok 24 "int8" 4 2 false; mkTok 44 "// trailing space " 4 7 true; mkTok 42 "T" 5 0 false; mkTok 40 "," 5 2 false; mkTok 15 "string" 6 0 false; mkTok 42 "Foo" 6 7 false; mkTok 40 "," 7 4 false; mkTok 14 "zchar[" 8 4 false; mkTok 30 "00" 9 4 false; mkTok 13 "]" 9 6 false; mkTok 42 "msg_type" 9 8 false; mkTok 43 "`// not a comment`" 10 0 false; mkTok 44 "// c" 11 4 true; mkTok 40 "," 12 4 false; mkTok 7 "@lengthOf(" 12 6 false; mkTok 42 "tag" 12 17 false; mkTok 6 ")" 12 21 false; mkTok 32 "@rightPad" 12 23 false; mkTok 8 "(" 13 0 false; mkTok 6 ")" 13 1 false; mkTok 9 "@tag(" 13 3 false; mkTok 30 "0" 13 9 false; mkTok 6 ")" 13 11 false; mkTok 16 "char[]" 13 14 false; mkTok 42 "stringy" 13 21 false; mkTok 7 "@lengthOf(" 13 29 false; mkTok 42 "Z9_" 14 0 false; mkTok 6 ")" 14 3 false; mkTok 43 "`say ""hi""`" 14 5 false; mkTok 40 "," 14 16 false; mkTok 42 "metadata" 14 18 false; mkTok 44 (string_of_bytes [47; 47; 32; 240; 159; 152; 128; 32; 101; 109; 111; 106; 105]%N) 15 4 true; mkTok 43 "`{ , }`" 16 4 false; mkTok 40 "," 16 11 false; mkTok 3 "}" 16 13 false; mkTok 0 "<EOF>" 17 0 false] (mkPacket (mkPtok 35 "packet" 1 0 0) (Some (mkPtok 3 "}" 16 13 46)) [(DPacket (mkPacketDef (mkSpan (mkPtok 35 "packet" 1 0 0) (mkPtok 3 "}" 16 13 46)) None (mkPtok 35 "packet" 1 0 0) (mkPtok 42 "body" 1 7 1) (mkPtok 2 "{" 2 0 3) [(mkFieldWithAttr (mkSpan (mkPtok 7 "@lengthOf(" 2 2 4) (mkPtok 40 "," 4 0 11)) [(FALengthOf (mkSpan (mkPtok 7 "@lengthOf(" 2 2 4) (mkPtok 6 ")" 3 6 6)) (mkLengthOf (mkSpan (mkPtok 7 "@lengthOf(" 2 2 4) (mkPtok 6 ")" 3 6 6)) (mkPtok 7 "@lengthOf(" 2 2 4) (mkPtok 42 "rootA" 3 0 5) (mkPtok 6 ")" 3 6 6)))] (ObjectField (mkSpan (mkPtok 36 "repeat" 3 8 7) (mkPtok 40 "," 4 0 11)) (Some (mkPtok 36 "repeat" 3 8 7)) (mkPtok 42 "calculatedFrom" 3 15 8) (Some (mkPtok 42 "u" 3 30 9)) None (mkPtok 40 "," 4 0 11))); (mkFieldWithAttr (mkSpan (mkPtok 24 "int8" 4 2 12) (mkPtok 40 "," 5 2 15)) [] (MetaField (mkSpan (mkPtok 24 "int8" 4 2 12) (mkPtok 40 "," 5 2 15)) None (mkMetaDecl (mkSpan (mkPtok 24 "int8" 4 2 12) (mkPtok 40 "," 5 2 15)) (TyBasic (mkSpan (mkPtok 24 "int8" 4 2 12) (mkPtok 24 "int8" 4 2 12)) (mkBasicType (mkSpan (mkPtok 24 "int8" 4 2 12) (mkPtok 24 "int8" 4 2 12)) (mkPtok 24 "int8" 4 2 12))) (mkPtok 42 "T" 5 0 14) None (mkPtok 40 "," 5 2 15)))); (mkFieldWithAttr (mkSpan (mkPtok 15 "string" 6 0 16) (mkPtok 40 "," 7 4 18)) [] (MetaField (mkSpan (mkPtok 15 "string" 6 0 16) (mkPtok 40 "," 7 4 18)) None (mkMetaDecl (mkSpan (mkPtok 15 "string" 6 0 16) (mkPtok 40 "," 7 4 18)) (TyDynamic (mkSpan (mkPtok 15 "string" 6 0 16) (mkPtok 15 "string" 6 0 16)) (mkDynamicString (mkSpan (mkPtok 15 "string" 6 0 16) (mkPtok 15 "string" 6 0 16)) (mkPtok 15 "string" 6 0 16))) (mkPtok 42 "Foo" 6 7 17) None (mkPtok 40 "," 7 4 18)))); (mkFieldWithAttr (mkSpan (mkPtok 14 "zchar[" 8 4 19) (mkPtok 40 "," 12 4 25)) [] (MetaField (mkSpan (mkPtok 14 "zchar[" 8 4 19) (mkPtok 40 "," 12 4 25)) None (mkMetaDecl (mkSpan (mkPtok 14 "zchar[" 8 4 19) (mkPtok 40 "," 12 4 25)) (TyFixed (mkSpan (mkPtok 14 "zchar[" 8 4 19) (mkPtok 13 "]" 9 6 21)) (mkFixedString (mkSpan (mkPtok 14 "zchar[" 8 4 19) (mkPtok 13 "]" 9 6 21)) (mkPtok 14 "zchar[" 8 4 19) (mkPtok 30 "00" 9 4 20) (mkPtok 13 "]" 9 6 21))) (mkPtok 42 "msg_type" 9 8 22) (Some (mkPtok 43 "`// not a comment`" 10 0 23)) (mkPtok 40 "," 12 4 25)))); (mkFieldWithAttr (mkSpan (mkPtok 7 "@lengthOf(" 12 6 26) (mkPtok 40 "," 14 16 41)) [(FALengthOf (mkSpan (mkPtok 7 "@lengthOf(" 12 6 26) (mkPtok 6 ")" 12 21 28)) (mkLengthOf (mkSpan (mkPtok 7 "@lengthOf(" 12 6 26) (mkPtok 6 ")" 12 21 28)) (mkPtok 7 "@lengthOf(" 12 6 26) (mkPtok 42 "tag" 12 17 27) (mkPtok 6 ")" 12 21 28))); (FAPadding (mkSpan (mkPtok 32 "@rightPad" 12 23 29) (mkPtok 6 ")" 13 1 31)) (mkPaddingAttr (mkSpan (mkPtok 32 "@rightPad" 12 23 29) (mkPtok 6 ")" 13 1 31)) (mkPtok 32 "@rightPad" 12 23 29) (mkPtok 8 "(" 13 0 30) None (mkPtok 6 ")" 13 1 31))); (FATag (mkSpan (mkPtok 9 "@tag(" 13 3 32) (mkPtok 6 ")" 13 11 34)) (mkTagAttr (mkSpan (mkPtok 9 "@tag(" 13 3 32) (mkPtok 6 ")" 13 11 34)) (mkPtok 9 "@tag(" 13 3 32) (mkPtok 30 "0" 13 9 33) (mkPtok 6 ")" 13 11 34)))] (LengthField (mkSpan (mkPtok 16 "char[]" 13 14 35) (mkPtok 40 "," 14 16 41)) (mkLengthFieldDecl (mkSpan (mkPtok 16 "char[]" 13 14 35) (mkPtok 40 "," 14 16 41)) (Some (TyDynamic (mkSpan (mkPtok 16 "char[]" 13 14 35) (mkPtok 16 "char[]" 13 14 35)) (mkDynamicString (mkSpan (mkPtok 16 "char[]" 13 14 35) (mkPtok 16 "char[]" 13 14 35)) (mkPtok 16 "char[]" 13 14 35)))) (mkPtok 42 "stringy" 13 21 36) (mkLengthOf (mkSpan (mkPtok 7 "@lengthOf(" 13 29 37) (mkPtok 6 ")" 14 3 39)) (mkPtok 7 "@lengthOf(" 13 29 37) (mkPtok 42 "Z9_" 14 0 38) (mkPtok 6 ")" 14 3 39)) (Some (mkPtok 43 "`say ""hi""`" 14 5 40)) (mkPtok 40 "," 14 16 41)))); (mkFieldWithAttr (mkSpan (mkPtok 42 "metadata" 14 18 42) (mkPtok 40 "," 16 11 45)) [] (ObjectField (mkSpan (mkPtok 42 "metadata" 14 18 42) (mkPtok 40 "," 16 11 45)) None (mkPtok 42 "metadata" 14 18 42) None (Some (mkPtok 43 "`{ , }`" 16 4 44)) (mkPtok 40 "," 16 11 45)))] (mkPtok 3 "}" 16 13 46)))])).
-Eval vm_compute in ("<<<M1627>>>" ++ check (runes_of_ascii "MetaData
-Pad { float32	lengthOf
-    , i8 int,}
-")).
-Eval vm_compute in ("<<<M1659>>>" ++ check (runes_of_ascii "options {
-} root packet Header /// triple
-{ match pack
-    as BodyLength {65535: matchKey , }
+    repeat  i64 string_ `u8 x,`
+, _x @calculatedFrom( ""packet"" ) `// not a comment` , repeat // @lengthOf(
+x {// `tick` ""quote"" 'q'
+i32 o `
+`
+    // " ++ [27880; 37322]%N ++ runes_of_ascii "
+    ,}
     ,
-    matchKey`" ++ [233]%N ++ runes_of_ascii "` // " ++ [128512]%N ++ runes_of_ascii " emoji
-,
+    match uint8x// `tick` ""quote"" 'q'
+as falsey {""\" ++ [233]%N ++ runes_of_ascii """ :
+falsey , 4294967296 : roots """ ++ [28040; 24687]%N ++ runes_of_ascii """ :
+float
+,// " ++ [27880; 37322]%N ++ runes_of_ascii "
+[  1 , /// triple
+1 , """" ,
+// trailing space 
+// @lengthOf(
+""CRC32""
+    ,00 , ""a	b"" ,""a	b"" ] :calculatedFrom
     }
-
+, @calculatedFrom(""{,}"") //x
+zchar[ 00
+    ] Pad , } packet
+    /// triple
+    calculatedFrom { }
 ")).
-Eval vm_compute in ("<<<M1691>>>" ++ check (runes_of_ascii "root packet
-x_y_z { @calculatedFrom( """ ++ [28040; 24687]%N ++ runes_of_ascii """ ) x_y_z
-, }
+Eval vm_compute in ("<<<M1339>>>" ++ check (runes_of_ascii "root packet
+metadata {
+}// " ++ [128512]%N ++ runes_of_ascii " emoji
+packet tag { @leftPad
+    ('0'
+)	@lengthOf(	asx//
+) @rightPad ( // " ++ [128512]%N ++ runes_of_ascii " emoji
+'\x00') repeat u16 stringy`
+`
+    , } options{ Foo =
+    ""// no comment""leftPad
+= false
+; }
+    packet
+chars{ string
+uint8x @lengthOf(float
+) , }
+")).
+Eval vm_compute in ("<<<M1371>>>" ++ check (runes_of_ascii "options // 50% %s
+{u128 // @lengthOf(
+= // packet A { u8 x, }
+zchar[3 ] ; body=
+""a\""b""
+    //x
+    ;  options1 =false ;	}
+")).
+Eval vm_compute in ("<<<T1371>>>" ++ terms [mkTok 1 "options" 1 0 false; mkTok 44 "// 50% %s" 1 8 true; mkTok 2 "{" 2 0 false; mkTok 42 "u128" 2 1 false; mkTok 44 "// @lengthOf(" 2 6 true; mkTok 4 "=" 3 0 false; mkTok 44 "// packet A { u8 x, }" 3 2 true; mkTok 14 "zchar[" 4 0 false; mkTok 30 "3" 4 6 false; mkTok 13 "]" 4 8 false; mkTok 41 ";" 4 10 false; mkTok 42 "body" 4 12 false; mkTok 4 "=" 4 16 false; mkTok 31 """a\""b""" 5 0 false; mkTok 44 "//x" 6 4 true; mkTok 41 ";" 7 4 false; mkTok 42 "options1" 7 7 false; mkTok 4 "=" 7 16 false; mkTok 11 "false" 7 17 false; mkTok 41 ";" 7 23 false; mkTok 3 "}" 7 25 false; mkTok 0 "<EOF>" 8 0 false] (mkPacket (mkPtok 1 "options" 1 0 0) (Some (mkPtok 3 "}" 7 25 20)) [(DOption (mkOptionDef (mkSpan (mkPtok 1 "options" 1 0 0) (mkPtok 3 "}" 7 25 20)) (mkPtok 1 "options" 1 0 0) (mkPtok 2 "{" 2 0 2) [(mkOptionDecl (mkSpan (mkPtok 42 "u128" 2 1 3) (mkPtok 41 ";" 4 10 10)) (mkPtok 42 "u128" 2 1 3) (mkPtok 4 "=" 3 0 5) (VType (mkSpan (mkPtok 14 "zchar[" 4 0 7) (mkPtok 13 "]" 4 8 9)) (TyFixed (mkSpan (mkPtok 14 "zchar[" 4 0 7) (mkPtok 13 "]" 4 8 9)) (mkFixedString (mkSpan (mkPtok 14 "zchar[" 4 0 7) (mkPtok 13 "]" 4 8 9)) (mkPtok 14 "zchar[" 4 0 7) (mkPtok 30 "3" 4 6 8) (mkPtok 13 "]" 4 8 9)))) (Some (mkPtok 41 ";" 4 10 10))); (mkOptionDecl (mkSpan (mkPtok 42 "body" 4 12 11) (mkPtok 41 ";" 7 4 15)) (mkPtok 42 "body" 4 12 11) (mkPtok 4 "=" 4 16 12) (VString (mkSpan (mkPtok 31 """a\""b""" 5 0 13) (mkPtok 31 """a\""b""" 5 0 13)) (mkPtok 31 """a\""b""" 5 0 13)) (Some (mkPtok 41 ";" 7 4 15))); (mkOptionDecl (mkSpan (mkPtok 42 "options1" 7 7 16) (mkPtok 41 ";" 7 23 19)) (mkPtok 42 "options1" 7 7 16) (mkPtok 4 "=" 7 16 17) (VFalse (mkSpan (mkPtok 11 "false" 7 17 18) (mkPtok 11 "false" 7 17 18)) (mkPtok 11 "false" 7 17 18)) (Some (mkPtok 41 ";" 7 23 19)))] (mkPtok 3 "}" 7 25 20)))])).
+Eval vm_compute in ("<<<M1403>>>" ++ check (runes_of_ascii "packet
+    Packet {  @lengthOf(
+    crc
+    ) // 50% %s
+repeat zchar[ 0123456789 ] charz, @lengthOf(
+len )
+    leftPad	x_y_z  , x{
+    string a1
+@lengthOf( Logon
+) ,
+}
+,@tag( 0
+    //
+    ) @lengthOf(u8x )@calculatedFrom( ""it's""	) string
+zchar
+`` ,
+}
+MetaData repeatCount
+    { } packet trueish { u64 o// " ++ [27880; 37322]%N ++ runes_of_ascii "
+@lengthOf(
+T )
+    ,
+repeat f64
+    BodyLength , int32	x @calculatedFrom(
+    ""1""
+    ),
+    @tag( 10) Z9_ `{ , }`
+    , f32a // trailing space 
+{
+    //x
+    repeat zchar[ 0123456789
+    ] A , repeat// trailing space 
+i64
+stringy
+    ,//
+leftPad
+    //x
+    `tab	here`,
+} ,	}//
+packet
+u128
+{ match _x
+as // " ++ [128512]%N ++ runes_of_ascii " emoji
+MetaDataX {	[""x y"", 42	]
+: A
+    , } , // " ++ [128512]%N ++ runes_of_ascii " emoji
+@lengthOf( charz) charz
+    { match x_y_z
+as f32a { [007,// trailing space 
+10
+// @lengthOf(
+// `tick` ""quote"" 'q'
+, 42 , """ ++ [233]%N ++ runes_of_ascii "t" ++ [233]%N ++ runes_of_ascii """
+,
+0123456789/// triple
+]:x_y_z, 7: u128 ,""// no comment"" : repeatCount, // " ++ [128512]%N ++ runes_of_ascii " emoji
+""a\\"" :	int
+,""x y"":
+u128 } , } , i16
+chars @lengthOf(
+zchar
+)
+`it's` ,
+}	packet asx {}")).
+Eval vm_compute in ("<<<M1435>>>" ++ check (runes_of_ascii "MetaData	options1	{	}
+")).
+Eval vm_compute in ("<<<M1467>>>" ++ check (runes_of_ascii "MetaData // " ++ [128512]%N ++ runes_of_ascii " emoji
+o { }
+    packet string_ {
+@lengthOf(
+f32a ) @lengthOf( zchar )tag
+{T roots `" ++ [28040; 24687; 31867; 22411]%N ++ runes_of_ascii "`
+    // " ++ [128512]%N ++ runes_of_ascii " emoji
+    ,
+tag
+    packetx  `{ , }` ,
+    } , repeat string int ,@calculatedFrom( ""a\""b"" ) @leftPad(
+    '0'
+    )	u64 string_ `a\` , } packet  charz
+    {
+    uint32	options1
+`100% of %d` , }
+")).
+Eval vm_compute in ("<<<M1499>>>" ++ check (runes_of_ascii "root packet
+Foo { metadata Foo ,
+// " ++ [128512]%N ++ runes_of_ascii " emoji
+// " ++ [27880; 37322]%N ++ runes_of_ascii "
+zchar[// @lengthOf(
+255 ] asx@calculatedFrom( ""\" ++ [233]%N ++ runes_of_ascii """
+) ,repeat i64 i64_ `line1
+line2` , } options { msg_type
+= 65535	chars
+    = '0' ; } root
+    packet// @lengthOf(
+roots
+{ string
+msg_type
+`say ""hi""`
+    ,// " ++ [27880; 37322]%N ++ runes_of_ascii "
+repeat
+// 50% %s
+// 50% %s
+repeatCount
+x_y_z , f64 uint8x // trailing space 
+, @lengthOf(
+lengthOf ) roots @calculatedFrom( """ ++ [128512]%N ++ runes_of_ascii """)
+`// not a comment`//	t
+, repeatCount uint8x
+, repeat int64
+    metadata `it's` , @rightPad ('\x00'
+) @lengthOf(charz ) // 50% %s
+int8 /// triple
+BodyLength ,
+@leftPad  ( '0' ) As
+{rootA { int64 matchKey, } ,
+    repeat zchar[
+    1/// triple
+]
+body `u8 x,`
+, f32
+Z9_`a\`,roots , }, match stringy
+    as zchar  {
+7 :
+uint8x	[ ""// no comment"" ,
+    /// triple
+    """",""`tick`"" ,
+0123456789] : body ,// `tick` ""quote"" 'q'
+""packet"": i8i8 , [ ""abc"" ,0
+    ,""CRC32"" ] :
+repeatCount
+    ,
+    3 //	t
+:falsey ,
+[ /// triple
+255 //x
+, ""\" ++ [233]%N ++ runes_of_ascii """ ]  : i64_ }, }
+")).
+Eval vm_compute in ("<<<M1531>>>" ++ check (runes_of_ascii "packet
+    trueish { }
+")).
+Eval vm_compute in ("<<<M1563>>>" ++ check (runes_of_ascii "packet asx {	repeat
+chars
+BodyLength
+    // c
+    , char[  1
+    ]
+float
+,
+}")).
+Eval vm_compute in ("<<<M1595>>>" ++ check (runes_of_ascii "packet Logon{
+Z9_/// triple
+`line1
+line2` ,  @lengthOf(roots)// trailing space 
+Packet @calculatedFrom( ""`tick`""	) `line1
+line2`  , @tag( 255 )	@tag( 65535
+)// c
+@leftPad
+//x
+//	t
+( '\x00' ) char Pad @lengthOf( packetx
+) , } 	 ")).
+Eval vm_compute in ("<<<T1595>>>" ++ terms [mkTok 35 "packet" 1 0 false; mkTok 42 "Logon" 1 7 false; mkTok 2 "{" 1 12 false; mkTok 42 "Z9_" 2 0 false; mkTok 44 "/// triple" 2 3 true; mkTok 43 (string_of_bytes [96; 108; 105; 110; 101; 49; 10; 108; 105; 110; 101; 50; 96]%N) 3 0 false; mkTok 40 "," 4 7 false; mkTok 7 "@lengthOf(" 4 10 false; mkTok 42 "roots" 4 20 false; mkTok 6 ")" 4 25 false; mkTok 44 "// trailing space " 4 26 true; mkTok 42 "Packet" 5 0 false; mkTok 5 "@calculatedFrom(" 5 7 false; mkTok 31 """`tick`""" 5 24 false; mkTok 6 ")" 5 33 false; mkTok 43 (string_of_bytes [96; 108; 105; 110; 101; 49; 10; 108; 105; 110; 101; 50; 96]%N) 5 35 false; mkTok 40 "," 6 8 false; mkTok 9 "@tag(" 6 10 false; mkTok 30 "255" 6 16 false; mkTok 6 ")" 6 20 false; mkTok 9 "@tag(" 6 22 false; mkTok 30 "65535" 6 28 false; mkTok 6 ")" 7 0 false; mkTok 44 "// c" 7 1 true; mkTok 32 "@leftPad" 8 0 false; mkTok 44 "//x" 9 0 true; mkTok 44 (string_of_bytes [47; 47; 9; 116]%N) 10 0 true; mkTok 8 "(" 11 0 false; mkTok 33 "'\x00'" 11 2 false; mkTok 6 ")" 11 9 false; mkTok 19 "char" 11 11 false; mkTok 42 "Pad" 11 16 false; mkTok 7 "@lengthOf(" 11 20 false; mkTok 42 "packetx" 11 31 false; mkTok 6 ")" 12 0 false; mkTok 40 "," 12 2 false; mkTok 3 "}" 12 4 false; mkTok 0 "<EOF>" 12 8 false] (mkPacket (mkPtok 35 "packet" 1 0 0) (Some (mkPtok 3 "}" 12 4 36)) [(DPacket (mkPacketDef (mkSpan (mkPtok 35 "packet" 1 0 0) (mkPtok 3 "}" 12 4 36)) None (mkPtok 35 "packet" 1 0 0) (mkPtok 42 "Logon" 1 7 1) (mkPtok 2 "{" 1 12 2) [(mkFieldWithAttr (mkSpan (mkPtok 42 "Z9_" 2 0 3) (mkPtok 40 "," 4 7 6)) [] (ObjectField (mkSpan (mkPtok 42 "Z9_" 2 0 3) (mkPtok 40 "," 4 7 6)) None (mkPtok 42 "Z9_" 2 0 3) None (Some (mkPtok 43 (string_of_bytes [96; 108; 105; 110; 101; 49; 10; 108; 105; 110; 101; 50; 96]%N) 3 0 5)) (mkPtok 40 "," 4 7 6))); (mkFieldWithAttr (mkSpan (mkPtok 7 "@lengthOf(" 4 10 7) (mkPtok 40 "," 6 8 16)) [(FALengthOf (mkSpan (mkPtok 7 "@lengthOf(" 4 10 7) (mkPtok 6 ")" 4 25 9)) (mkLengthOf (mkSpan (mkPtok 7 "@lengthOf(" 4 10 7) (mkPtok 6 ")" 4 25 9)) (mkPtok 7 "@lengthOf(" 4 10 7) (mkPtok 42 "roots" 4 20 8) (mkPtok 6 ")" 4 25 9)))] (CheckSumField (mkSpan (mkPtok 42 "Packet" 5 0 11) (mkPtok 40 "," 6 8 16)) (mkChecksumFieldDecl (mkSpan (mkPtok 42 "Packet" 5 0 11) (mkPtok 40 "," 6 8 16)) None (mkPtok 42 "Packet" 5 0 11) (mkCalculatedFrom (mkSpan (mkPtok 5 "@calculatedFrom(" 5 7 12) (mkPtok 6 ")" 5 33 14)) (mkPtok 5 "@calculatedFrom(" 5 7 12) (mkPtok 31 """`tick`""" 5 24 13) (mkPtok 6 ")" 5 33 14)) (Some (mkPtok 43 (string_of_bytes [96; 108; 105; 110; 101; 49; 10; 108; 105; 110; 101; 50; 96]%N) 5 35 15)) (mkPtok 40 "," 6 8 16)))); (mkFieldWithAttr (mkSpan (mkPtok 9 "@tag(" 6 10 17) (mkPtok 40 "," 12 2 35)) [(FATag (mkSpan (mkPtok 9 "@tag(" 6 10 17) (mkPtok 6 ")" 6 20 19)) (mkTagAttr (mkSpan (mkPtok 9 "@tag(" 6 10 17) (mkPtok 6 ")" 6 20 19)) (mkPtok 9 "@tag(" 6 10 17) (mkPtok 30 "255" 6 16 18) (mkPtok 6 ")" 6 20 19))); (FATag (mkSpan (mkPtok 9 "@tag(" 6 22 20) (mkPtok 6 ")" 7 0 22)) (mkTagAttr (mkSpan (mkPtok 9 "@tag(" 6 22 20) (mkPtok 6 ")" 7 0 22)) (mkPtok 9 "@tag(" 6 22 20) (mkPtok 30 "65535" 6 28 21) (mkPtok 6 ")" 7 0 22))); (FAPadding (mkSpan (mkPtok 32 "@leftPad" 8 0 24) (mkPtok 6 ")" 11 9 29)) (mkPaddingAttr (mkSpan (mkPtok 32 "@leftPad" 8 0 24) (mkPtok 6 ")" 11 9 29)) (mkPtok 32 "@leftPad" 8 0 24) (mkPtok 8 "(" 11 0 27) (Some (mkPtok 33 "'\x00'" 11 2 28)) (mkPtok 6 ")" 11 9 29)))] (LengthField (mkSpan (mkPtok 19 "char" 11 11 30) (mkPtok 40 "," 12 2 35)) (mkLengthFieldDecl (mkSpan (mkPtok 19 "char" 11 11 30) (mkPtok 40 "," 12 2 35)) (Some (TyBasic (mkSpan (mkPtok 19 "char" 11 11 30) (mkPtok 19 "char" 11 11 30)) (mkBasicType (mkSpan (mkPtok 19 "char" 11 11 30) (mkPtok 19 "char" 11 11 30)) (mkPtok 19 "char" 11 11 30)))) (mkPtok 42 "Pad" 11 16 31) (mkLengthOf (mkSpan (mkPtok 7 "@lengthOf(" 11 20 32) (mkPtok 6 ")" 12 0 34)) (mkPtok 7 "@lengthOf(" 11 20 32) (mkPtok 42 "packetx" 11 31 33) (mkPtok 6 ")" 12 0 34)) None (mkPtok 40 "," 12 2 35))))] (mkPtok 3 "}" 12 4 36)))])).
+Eval vm_compute in ("<<<M1627>>>" ++ check (runes_of_ascii "// " ++ [27880; 37322]%N ++ runes_of_ascii "
+packet Logon { @leftPad
+    (  ) zchar[7 ]metadata @lengthOf( msg_type
+    ) ,}
+")).
+Eval vm_compute in ("<<<M1659>>>" ++ check (runes_of_ascii "packet u128
+// trailing space 
+//
+{match Packet as
+    i8i8 {  ""CRC32"" :
+metadata ,
+// " ++ [27880; 37322]%N ++ runes_of_ascii "
+// c
+}, repeat	pack
+{i8i8 @lengthOf( i64_ )
+, }, // a // b
+string falsey	@calculatedFrom( ""1"" )
+/// triple
+// " ++ [128512]%N ++ runes_of_ascii " emoji
+,@tag(42 ) //
+o @lengthOf( // `tick` ""quote"" 'q'
+matchKey)
+,}packet float { As
+u
+,  char[ 3
+// 50% %s
+// @lengthOf(
+]charz ,
+/// triple
+// c
+}
+    packet crc
 // packet A { u8 x, }
+// packet A { u8 x, }
+{ @lengthOf(A )	repeat
+    stringy { uint16 chars `" ++ [28040; 24687; 31867; 22411]%N ++ runes_of_ascii "`, x {i16 metadata  @calculatedFrom( ""it's""
+) `tab	here` ,
+    }
+    ,// c
+packetx	@lengthOf(
+    float )`` ,match int as asx { [
+    3 , 3 ] :
+    x_y_z
+    , 65535 : u8x
+,
+// `tick` ""quote"" 'q'
+// a // b
+0123456789: f32a
+    , [ 10
+    // packet A { u8 x, }
+    , 4294967296 , 007
+, 7 , ""1"" ]:
+crc
+, 0 : // trailing space 
+tag 42: falsey , } , }
+,}
+")).
+Eval vm_compute in ("<<<M1691>>>" ++ check (runes_of_ascii "packet chars
+{ @tag( 007 ) zchar[
+    0123456789 ]zchar
+    @lengthOf(rootA	)
+,
+repeat char[ 3 ] i8i8,
+    u8 //x
+T
+    // a // b
+    ,
+@calculatedFrom(	""packet""	) trueish { zchar[ 007
+] tag , zchar[
+4294967296
+]
+    tag, string  charz `{ , }` ,zchar[  1
+    ] // @lengthOf(
+u128, }	,MetaDataX @calculatedFrom( ""{,}""	) `crlf
+line`,
+}
+MetaData x {char[] A `u8 x,` , }root// c
+packet Z9_{@calculatedFrom(""" ++ [28040; 24687]%N ++ runes_of_ascii """
+)  @tag(42 )
+match charz	as u128
+{
+    [ ""it's""]// 50% %s
+:	leftPad
+// 50% %s
+//x
+,	1
+: packetx [
+    ""abc""] : lengthOf // @lengthOf(
+, 65535 : leftPad
+, 0123456789 : MetaDataX
+,  },  }
+packet u128
+    { }
 ")).
 Eval vm_compute in ("<<<M1723>>>" ++ check (runes_of_ascii "
-MetaData
-float {uint32  i64_ , x _x , string packetx ,
-    char[ 65535 ] // " ++ [128512]%N ++ runes_of_ascii " emoji
-Packet `" ++ [233]%N ++ runes_of_ascii "` , asx x , char[ 255 ] u128
-,
-    }
-")).
-Eval vm_compute in ("<<<M1755>>>" ++ check (runes_of_ascii "MetaData matchKey // trailing space 
-{ u128 asx , } MetaData chars {}
-")).
-Eval vm_compute in ("<<<M1787>>>" ++ check (runes_of_ascii "packet As {//x
-i8i8 @calculatedFrom(
-    """ ++ [128512]%N ++ runes_of_ascii """ )//x
-, repeat stringy { repeat u64 options1, zchar[
-255 ]
-    msg_type
+packet metadata  {
+match
+    asx as
+    options1{
+""it's"" :
     // `tick` ""quote"" 'q'
-    `// not a comment`
-    , MetaDataX zchar`" ++ [28040; 24687; 31867; 22411]%N ++ runes_of_ascii "`
-, i64_ @calculatedFrom( ""// no comment""
-)`doc` ,
-    }, @tag(10 )charz @lengthOf(leftPad ) , zchar[10] Header @lengthOf(x ) ,
-    body { i64 a1
-    ,rootA
-As ,repeat zchar[
-10 ] string_ ``,
-} ,
-    @lengthOf(
-Header ) i64_
-,  u8 repeatCount@lengthOf(Packet)
-    `doc`
-    ,repeat uint32
-msg_type ,
-repeat
-    int16
-MetaDataX	, repeat Z9_ {
-chars @lengthOf(	body  ) ,  i32 // " ++ [27880; 37322]%N ++ runes_of_ascii "
-msg_type ,
-u8x falsey
-, tag
-@calculatedFrom( ""it's"" )
-,
-} , } options {	i64_
-    =
-""a\""b""; _x= uint8 // `tick` ""quote"" 'q'
-;matchKey = 10 ;
-    // " ++ [128512]%N ++ runes_of_ascii " emoji
-    }")).
-Eval vm_compute in ("<<<M1819>>>" ++ check (runes_of_ascii "root	packet asx
-{ char[]
-// " ++ [128512]%N ++ runes_of_ascii " emoji
-// " ++ [128512]%N ++ runes_of_ascii " emoji
-_x	, }")).
-Eval vm_compute in ("<<<T1819>>>" ++ terms [mkTok 34 "root" 1 0 false; mkTok 35 "packet" 1 5 false; mkTok 42 "asx" 1 12 false; mkTok 2 "{" 2 0 false; mkTok 16 "char[]" 2 2 false; mkTok 44 (string_of_bytes [47; 47; 32; 240; 159; 152; 128; 32; 101; 109; 111; 106; 105]%N) 3 0 true; mkTok 44 (string_of_bytes [47; 47; 32; 240; 159; 152; 128; 32; 101; 109; 111; 106; 105]%N) 4 0 true; mkTok 42 "_x" 5 0 false; mkTok 40 "," 5 3 false; mkTok 3 "}" 5 5 false; mkTok 0 "<EOF>" 5 6 false] (mkPacket (mkPtok 34 "root" 1 0 0) (Some (mkPtok 3 "}" 5 5 9)) [(DPacket (mkPacketDef (mkSpan (mkPtok 34 "root" 1 0 0) (mkPtok 3 "}" 5 5 9)) (Some (mkPtok 34 "root" 1 0 0)) (mkPtok 35 "packet" 1 5 1) (mkPtok 42 "asx" 1 12 2) (mkPtok 2 "{" 2 0 3) [(mkFieldWithAttr (mkSpan (mkPtok 16 "char[]" 2 2 4) (mkPtok 40 "," 5 3 8)) [] (MetaField (mkSpan (mkPtok 16 "char[]" 2 2 4) (mkPtok 40 "," 5 3 8)) None (mkMetaDecl (mkSpan (mkPtok 16 "char[]" 2 2 4) (mkPtok 40 "," 5 3 8)) (TyDynamic (mkSpan (mkPtok 16 "char[]" 2 2 4) (mkPtok 16 "char[]" 2 2 4)) (mkDynamicString (mkSpan (mkPtok 16 "char[]" 2 2 4) (mkPtok 16 "char[]" 2 2 4)) (mkPtok 16 "char[]" 2 2 4))) (mkPtok 42 "_x" 5 0 7) None (mkPtok 40 "," 5 3 8))))] (mkPtok 3 "}" 5 5 9)))])).
-Eval vm_compute in ("<<<M1851>>>" ++ check (runes_of_ascii "packet tag
-    { @tag( 007 )
-    repeat //	t
-float64 calculatedFrom`u8 x,`,@leftPad ('0' ) repeat char[]
-    //
-    T
-`two words`
+    string_ } ,
+// a // b
+// a // b
+@tag(
+10
+)	@rightPad(
+    )	@rightPad(
+) zchar[ 0 ]
+    x ,
+uint8
+charz @calculatedFrom(""" ++ [233]%N ++ runes_of_ascii "t" ++ [233]%N ++ runes_of_ascii """ ) , u16 //	t
+matchKey , @calculatedFrom( ""`tick`"" ) repeat
+    // " ++ [27880; 37322]%N ++ runes_of_ascii "
+    char[]	uint8x `
+`
+    ,
+char[00 ]tag@calculatedFrom(
+    ""\n"") , asx, @rightPad
+(
+) repeat	zchar[ 0 ]
+u `u8 x,`
+    ,
+repeat u16 lengthOf,MetaDataX
+    // trailing space 
+    `100% of %d` , }packet u
+{repeat float32 MetaDataX `a\` , @tag(//x
+42  ) f32a @calculatedFrom( ""{,}"" ) ,}
+")).
+Eval vm_compute in ("<<<M1755>>>" ++ check (runes_of_ascii "options	{ } root packet Pad {
+@lengthOf(rootA ) char[ 7  ] As
+    , zchar[ // trailing space 
+10 ] A,
+repeat u32 T `100% of %d` ,
+@rightPad ( // 50% %s
+)
+uint16 len, }")).
+Eval vm_compute in ("<<<M1787>>>" ++ check (runes_of_ascii "packet	rootA
+    // `tick` ""quote"" 'q'
+    { @lengthOf( f32a // @lengthOf(
+)@rightPad ( '\x00' )@tag( 65535 )
+    i8
+    //x
+    As ,  } options { pack
+=
+    /// triple
+    10} root packet
+a1{ } 	 ")).
+Eval vm_compute in ("<<<M1819>>>" ++ check (runes_of_ascii "
+packet // `tick` ""quote"" 'q'
+A{	@calculatedFrom( ""abc"" ) repeat BodyLength	, // packet A { u8 x, }
+}
+packet stringy { }
+    //	t
+    options
+    // trailing space 
+    { falsey ='\x00'}
+")).
+Eval vm_compute in ("<<<T1819>>>" ++ terms [mkTok 35 "packet" 2 0 false; mkTok 44 "// `tick` ""quote"" 'q'" 2 7 true; mkTok 42 "A" 3 0 false; mkTok 2 "{" 3 1 false; mkTok 5 "@calculatedFrom(" 3 3 false; mkTok 31 """abc""" 3 20 false; mkTok 6 ")" 3 26 false; mkTok 36 "repeat" 3 28 false; mkTok 42 "BodyLength" 3 35 false; mkTok 40 "," 3 46 false; mkTok 44 "// packet A { u8 x, }" 3 48 true; mkTok 3 "}" 4 0 false; mkTok 35 "packet" 5 0 false; mkTok 42 "stringy" 5 7 false; mkTok 2 "{" 5 15 false; mkTok 3 "}" 5 17 false; mkTok 44 (string_of_bytes [47; 47; 9; 116]%N) 6 4 true; mkTok 1 "options" 7 4 false; mkTok 44 "// trailing space " 8 4 true; mkTok 2 "{" 9 4 false; mkTok 42 "falsey" 9 6 false; mkTok 4 "=" 9 13 false; mkTok 33 "'\x00'" 9 14 false; mkTok 3 "}" 9 20 false; mkTok 0 "<EOF>" 10 0 false] (mkPacket (mkPtok 35 "packet" 2 0 0) (Some (mkPtok 3 "}" 9 20 23)) [(DPacket (mkPacketDef (mkSpan (mkPtok 35 "packet" 2 0 0) (mkPtok 3 "}" 4 0 11)) None (mkPtok 35 "packet" 2 0 0) (mkPtok 42 "A" 3 0 2) (mkPtok 2 "{" 3 1 3) [(mkFieldWithAttr (mkSpan (mkPtok 5 "@calculatedFrom(" 3 3 4) (mkPtok 40 "," 3 46 9)) [(FACalculatedFrom (mkSpan (mkPtok 5 "@calculatedFrom(" 3 3 4) (mkPtok 6 ")" 3 26 6)) (mkCalculatedFrom (mkSpan (mkPtok 5 "@calculatedFrom(" 3 3 4) (mkPtok 6 ")" 3 26 6)) (mkPtok 5 "@calculatedFrom(" 3 3 4) (mkPtok 31 """abc""" 3 20 5) (mkPtok 6 ")" 3 26 6)))] (ObjectField (mkSpan (mkPtok 36 "repeat" 3 28 7) (mkPtok 40 "," 3 46 9)) (Some (mkPtok 36 "repeat" 3 28 7)) (mkPtok 42 "BodyLength" 3 35 8) None None (mkPtok 40 "," 3 46 9)))] (mkPtok 3 "}" 4 0 11))); (DPacket (mkPacketDef (mkSpan (mkPtok 35 "packet" 5 0 12) (mkPtok 3 "}" 5 17 15)) None (mkPtok 35 "packet" 5 0 12) (mkPtok 42 "stringy" 5 7 13) (mkPtok 2 "{" 5 15 14) [] (mkPtok 3 "}" 5 17 15))); (DOption (mkOptionDef (mkSpan (mkPtok 1 "options" 7 4 17) (mkPtok 3 "}" 9 20 23)) (mkPtok 1 "options" 7 4 17) (mkPtok 2 "{" 9 4 19) [(mkOptionDecl (mkSpan (mkPtok 42 "falsey" 9 6 20) (mkPtok 33 "'\x00'" 9 14 22)) (mkPtok 42 "falsey" 9 6 20) (mkPtok 4 "=" 9 13 21) (VPaddingChar (mkSpan (mkPtok 33 "'\x00'" 9 14 22) (mkPtok 33 "'\x00'" 9 14 22)) (mkPtok 33 "'\x00'" 9 14 22)) None)] (mkPtok 3 "}" 9 20 23)))])).
+Eval vm_compute in ("<<<M1851>>>" ++ check (runes_of_ascii "packet crc{
+    } // a // b
+options
+    {
+// a // b
+// a // b
+charz = // 50% %s
+'\x00'float=
+f32 ; _x =00 //
+;
+i64_ = """"leftPad =255}")).
+Eval vm_compute in ("<<<M1883>>>" ++ check (runes_of_ascii "root packet u128{ } packet	x_y_z{ zchar[ 7 ] len`two words` ,@lengthOf( // trailing space 
+u128
+    ) match o
+as Packet {[ 007 ] : pack, [ 0123456789 , ""CRC32"" ,// packet A { u8 x, }
+""" ++ [28040; 24687]%N ++ runes_of_ascii """ , 0 ,
+""CRC32""
+, 3 , 1 , 4294967296 ]  :
+    msg_type""{,}"" :
+    // @lengthOf(
+    roots ,
+}, @leftPad (
+    '0'  ) // packet A { u8 x, }
+u16
+Z9_ `line1
+line2`, }
+")).
+Eval vm_compute in ("<<<M1915>>>" ++ check (runes_of_ascii "options
+{// `tick` ""quote"" 'q'
+Header = true	; stringy =
+    uint8} packet
+    calculatedFrom{@calculatedFrom(""a	b"" ) @rightPad ( '\x00'	)
+    @lengthOf( Foo )i64 a1
     , }
 ")).
-Eval vm_compute in ("<<<M1883>>>" ++ check (runes_of_ascii "
-packet packetx{}")).
-Eval vm_compute in ("<<<M1915>>>" ++ check (runes_of_ascii "/// triple
-packet
-calculatedFrom {
-u32 falsey , stringy@calculatedFrom(
-    """ ++ [28040; 24687]%N ++ runes_of_ascii """ ) `doc` // packet A { u8 x, }
-,
-    calculatedFrom crc`line1
-line2` , leftPad , zchar[ 10
-] A@calculatedFrom( ""CRC32"" ) `" ++ [28040; 24687; 31867; 22411]%N ++ runes_of_ascii "`
-,
-    }")).
-Eval vm_compute in ("<<<M1947>>>" ++ check (runes_of_ascii "MetaData
-Foo {
-    charz  charz `say ""hi""`
-    ,zchar[ 3 ]  falsey,As Logon
-    ,}MetaData
-// " ++ [128512]%N ++ runes_of_ascii " emoji
-// " ++ [128512]%N ++ runes_of_ascii " emoji
-Z9_ //	t
-{ }
+Eval vm_compute in ("<<<M1947>>>" ++ check (@nil rune)).
+Eval vm_compute in ("<<<M1979>>>" ++ check (runes_of_ascii "packet crc // " ++ [128512]%N ++ runes_of_ascii " emoji
+{ }")).
+Eval vm_compute in ("<<<M2011>>>" ++ check (runes_of_ascii "repeatCount MetaData { float64 packetx,
+} root packet  metadata {
+char _x @lengthOf( trueish ), @leftPad
+( ' '// " ++ [27880; 37322]%N ++ runes_of_ascii "
+)/// triple
+char[] len`doc` , // packet A { u8 x, }
+repeatCount , }
 ")).
-Eval vm_compute in ("<<<M1979>>>" ++ check (runes_of_ascii "
-options//	t
-{}
-    root packet
-pack  {	uint32
-chars
-    ,@tag( 10 )match leftPad
+Eval vm_compute in ("<<<M2043>>>" ++ check (runes_of_ascii "MetaData repeatCount { float64 packetx,")).
+Eval vm_compute in ("<<<M2075>>>" ++ check (runes_of_ascii "MetaData repeatCount { float64 packetx,
+} root packet  metadata {
+char _x @lengthOf( @lengthOf( trueish ), @leftPad
+( ' '// " ++ [27880; 37322]%N ++ runes_of_ascii "
+)/// triple
+char[] len`doc` , // packet A { u8 x, }
+repeatCount , }
+")).
+Eval vm_compute in ("<<<M2107>>>" ++ check (runes_of_ascii "MetaData repeatCount { float64 packetx,
+} root packet  metadata {
+char _x @lengthOf( trueish ), @leftPad
+( MetaData// " ++ [27880; 37322]%N ++ runes_of_ascii "
+)/// triple
+char[] len`doc` , // packet A { u8 x, }
+repeatCount , }
+")).
+Eval vm_compute in ("<<<M2139>>>" ++ check (runes_of_ascii "MetaData repeatCount { float64 packetx,
+} root packet  metadata {
+char _x @lengthOf( trueish ), @leftPad
+( ' '// " ++ [27880; 37322]%N ++ runes_of_ascii "
+)/// triple
+char[] len`doc` , // packet A { u8 x, }
+repeatCount  }
+")).
+Eval vm_compute in ("<<<M2171>>>" ++ check (runes_of_ascii "options options{
+leftPad
+    =65535
+;
+a1 = true ; packetx=  '\x00' ; packetx
+=  """ ++ [28040; 24687]%N ++ runes_of_ascii """MetaDataX= // " ++ [27880; 37322]%N ++ runes_of_ascii "
+false }root // c
+packet // packet A { u8 x, }
+Pad { repeat
+u8 Header
+// packet A { u8 x, }
+//	t
+`{ , }`
+// a // b
 //x
-//
-as i8i8 {
-[ ""x y"" ] : a1 ,
-// " ++ [128512]%N ++ runes_of_ascii " emoji
-// trailing space 
-[ ""{,}"" ,""\" ++ [233]%N ++ runes_of_ascii """, 0,4294967296,
-    // `tick` ""quote"" 'q'
-    7
-] :float ,
-    ""`tick`""
-: roots , // trailing space 
-007
-:
-len , }
-    , @lengthOf( crc ) repeat
-    uint16 body // c
-,//
-f32a@calculatedFrom( ""1"")`tab	here` ,char[00]
-crc
-, match
-Header as As {
-0123456789
-    : x,
-    }, @lengthOf( falsey // trailing space 
-)
-@lengthOf(matchKey ) repeat u8
-    As, }
-
+, }
 ")).
-Eval vm_compute in ("<<<M2011>>>" ++ check (runes_of_ascii "{options i64_ = string ; trueish =
-    '\x00'
-    leftPad = ""a\\"" /// triple
-; crc
-    = 255; uint8x
-=
-""abc""
-    ;}")).
-Eval vm_compute in ("<<<M2043>>>" ++ check (runes_of_ascii "options{ i64_ = string ;")).
-Eval vm_compute in ("<<<M2075>>>" ++ check (runes_of_ascii "options{ i64_ = string ; trueish =
-    '\x00'
-    leftPad = ""a\\"" /// triple
-; crc crc
-    = 255; uint8x
-=
-""abc""
-    ;}")).
-Eval vm_compute in ("<<<M2107>>>" ++ check (runes_of_ascii "options{ i64_ = string ; trueish =
-    '\x00'
-    leftPad = ""a\\"" /// triple
-; crc
-    = 255; uint8x
-=
-int32
-    ;}")).
-Eval vm_compute in ("<<<M2139>>>" ++ check (runes_of_ascii "options{ i64_ = string ; x" ++ [178]%N ++ runes_of_ascii " =
-    '\x00'
-    leftPad = ""a\\"" /// triple
-; crc
-    = 255; uint8x
-=
-""abc""
-    ;}")).
-Eval vm_compute in ("<<<M2171>>>" ++ check (runes_of_ascii "  packet
-asx
-{
-/// triple
-// @lengthOf(
-u32 stringy
-`" ++ [28040; 24687; 31867; 22411]%N ++ runes_of_ascii "` , ,} MetaData
-    A {string  _x, zchar Header `a\`
-// @lengthOf(
+Eval vm_compute in ("<<<M2203>>>" ++ check (runes_of_ascii "options{
+leftPad
+    =65535
+;
+MetaData = true ; packetx=  '\x00' ; packetx
+=  """ ++ [28040; 24687]%N ++ runes_of_ascii """MetaDataX= // " ++ [27880; 37322]%N ++ runes_of_ascii "
+false }root // c
+packet // packet A { u8 x, }
+Pad { repeat
+u8 Header
 // packet A { u8 x, }
-, char[] MetaDataX
-,zchar[ 1 ]
-    matchKey
-    , char[] //
-u,	char[0123456789 ]
-    matchKey
-    `{ , }`, }
+//	t
+`{ , }`
+// a // b
+//x
+, }
 ")).
-Eval vm_compute in ("<<<M2203>>>" ++ check (runes_of_ascii "  packet
-asx
-{
-/// triple
-// @lengthOf(
-u32 stringy
-`" ++ [28040; 24687; 31867; 22411]%N ++ runes_of_ascii "` ,} MetaData
-    A {string  float64, zchar Header `a\`
-// @lengthOf(
+Eval vm_compute in ("<<<M2235>>>" ++ check (runes_of_ascii "options{
+leftPad
+    =65535
+;
+a1 = true ; packetx=  '\x00'  packetx
+=  """ ++ [28040; 24687]%N ++ runes_of_ascii """MetaDataX= // " ++ [27880; 37322]%N ++ runes_of_ascii "
+false }root // c
+packet // packet A { u8 x, }
+Pad { repeat
+u8 Header
 // packet A { u8 x, }
-, char[] MetaDataX
-,zchar[ 1 ]
-    matchKey
-    , char[] //
-u,	char[0123456789 ]
-    matchKey
-    `{ , }`, }
+//	t
+`{ , }`
+// a // b
+//x
+, }
 ")).
-Eval vm_compute in ("<<<M2235>>>" ++ check (runes_of_ascii "  packet
-asx
-{
-/// triple
-// @lengthOf(
-u32 stringy
-`" ++ [28040; 24687; 31867; 22411]%N ++ runes_of_ascii "` ,} MetaData
-    A {string  _x, zchar Header `a\`
-// @lengthOf(
+Eval vm_compute in ("<<<T2235>>>" ++ terms [mkTok 1 "options" 1 0 false; mkTok 2 "{" 1 7 false; mkTok 42 "leftPad" 2 0 false; mkTok 4 "=" 3 4 false; mkTok 30 "65535" 3 5 false; mkTok 41 ";" 4 0 false; mkTok 42 "a1" 5 0 false; mkTok 4 "=" 5 3 false; mkTok 10 "true" 5 5 false; mkTok 41 ";" 5 10 false; mkTok 42 "packetx" 5 12 false; mkTok 4 "=" 5 19 false; mkTok 33 "'\x00'" 5 22 false; mkTok 42 "packetx" 5 30 false; mkTok 4 "=" 6 0 false; mkTok 31 (string_of_bytes [34; 230; 182; 136; 230; 129; 175; 34]%N) 6 3 false; mkTok 42 "MetaDataX" 6 7 false; mkTok 4 "=" 6 16 false; mkTok 44 (string_of_bytes [47; 47; 32; 230; 179; 168; 233; 135; 138]%N) 6 18 true; mkTok 11 "false" 7 0 false; mkTok 3 "}" 7 6 false; mkTok 34 "root" 7 7 false; mkTok 44 "// c" 7 12 true; mkTok 35 "packet" 8 0 false; mkTok 44 "// packet A { u8 x, }" 8 7 true; mkTok 42 "Pad" 9 0 false; mkTok 2 "{" 9 4 false; mkTok 36 "repeat" 9 6 false; mkTok 20 "u8" 10 0 false; mkTok 42 "Header" 10 3 false; mkTok 44 "// packet A { u8 x, }" 11 0 true; mkTok 44 (string_of_bytes [47; 47; 9; 116]%N) 12 0 true; mkTok 43 "`{ , }`" 13 0 false; mkTok 44 "// a // b" 14 0 true; mkTok 44 "//x" 15 0 true; mkTok 40 "," 16 0 false; mkTok 3 "}" 16 2 false; mkTok 0 "<EOF>" 17 0 false] (mkPacket (mkPtok 1 "options" 1 0 0) (Some (mkPtok 3 "}" 16 2 36)) [(DOption (mkOptionDef (mkSpan (mkPtok 1 "options" 1 0 0) (mkPtok 3 "}" 7 6 20)) (mkPtok 1 "options" 1 0 0) (mkPtok 2 "{" 1 7 1) [(mkOptionDecl (mkSpan (mkPtok 42 "leftPad" 2 0 2) (mkPtok 41 ";" 4 0 5)) (mkPtok 42 "leftPad" 2 0 2) (mkPtok 4 "=" 3 4 3) (VDigits (mkSpan (mkPtok 30 "65535" 3 5 4) (mkPtok 30 "65535" 3 5 4)) (mkPtok 30 "65535" 3 5 4)) (Some (mkPtok 41 ";" 4 0 5))); (mkOptionDecl (mkSpan (mkPtok 42 "a1" 5 0 6) (mkPtok 41 ";" 5 10 9)) (mkPtok 42 "a1" 5 0 6) (mkPtok 4 "=" 5 3 7) (VTrue (mkSpan (mkPtok 10 "true" 5 5 8) (mkPtok 10 "true" 5 5 8)) (mkPtok 10 "true" 5 5 8)) (Some (mkPtok 41 ";" 5 10 9))); (mkOptionDecl (mkSpan (mkPtok 42 "packetx" 5 12 10) (mkPtok 33 "'\x00'" 5 22 12)) (mkPtok 42 "packetx" 5 12 10) (mkPtok 4 "=" 5 19 11) (VPaddingChar (mkSpan (mkPtok 33 "'\x00'" 5 22 12) (mkPtok 33 "'\x00'" 5 22 12)) (mkPtok 33 "'\x00'" 5 22 12)) None); (mkOptionDecl (mkSpan (mkPtok 42 "packetx" 5 30 13) (mkPtok 31 (string_of_bytes [34; 230; 182; 136; 230; 129; 175; 34]%N) 6 3 15)) (mkPtok 42 "packetx" 5 30 13) (mkPtok 4 "=" 6 0 14) (VString (mkSpan (mkPtok 31 (string_of_bytes [34; 230; 182; 136; 230; 129; 175; 34]%N) 6 3 15) (mkPtok 31 (string_of_bytes [34; 230; 182; 136; 230; 129; 175; 34]%N) 6 3 15)) (mkPtok 31 (string_of_bytes [34; 230; 182; 136; 230; 129; 175; 34]%N) 6 3 15)) None); (mkOptionDecl (mkSpan (mkPtok 42 "MetaDataX" 6 7 16) (mkPtok 11 "false" 7 0 19)) (mkPtok 42 "MetaDataX" 6 7 16) (mkPtok 4 "=" 6 16 17) (VFalse (mkSpan (mkPtok 11 "false" 7 0 19) (mkPtok 11 "false" 7 0 19)) (mkPtok 11 "false" 7 0 19)) None)] (mkPtok 3 "}" 7 6 20))); (DPacket (mkPacketDef (mkSpan (mkPtok 34 "root" 7 7 21) (mkPtok 3 "}" 16 2 36)) (Some (mkPtok 34 "root" 7 7 21)) (mkPtok 35 "packet" 8 0 23) (mkPtok 42 "Pad" 9 0 25) (mkPtok 2 "{" 9 4 26) [(mkFieldWithAttr (mkSpan (mkPtok 36 "repeat" 9 6 27) (mkPtok 40 "," 16 0 35)) [] (MetaField (mkSpan (mkPtok 36 "repeat" 9 6 27) (mkPtok 40 "," 16 0 35)) (Some (mkPtok 36 "repeat" 9 6 27)) (mkMetaDecl (mkSpan (mkPtok 20 "u8" 10 0 28) (mkPtok 40 "," 16 0 35)) (TyBasic (mkSpan (mkPtok 20 "u8" 10 0 28) (mkPtok 20 "u8" 10 0 28)) (mkBasicType (mkSpan (mkPtok 20 "u8" 10 0 28) (mkPtok 20 "u8" 10 0 28)) (mkPtok 20 "u8" 10 0 28))) (mkPtok 42 "Header" 10 3 29) (Some (mkPtok 43 "`{ , }`" 13 0 32)) (mkPtok 40 "," 16 0 35))))] (mkPtok 3 "}" 16 2 36)))])).
+Eval vm_compute in ("<<<M2267>>>" ++ check (runes_of_ascii "options{
+leftPad
+    =65535
+;
+a1 = true ; packetx=  '\x00' ; packetx
+=  """ ++ [28040; 24687]%N ++ runes_of_ascii """MetaDataX= // " ++ [27880; 37322]%N ++ runes_of_ascii "
+} false root // c
+packet // packet A { u8 x, }
+Pad { repeat
+u8 Header
 // packet A { u8 x, }
-, char[] 
-,zchar[ 1 ]
-    matchKey
-    , char[] //
-u,	char[0123456789 ]
-    matchKey
-    `{ , }`, }
+//	t
+`{ , }`
+// a // b
+//x
+, }
 ")).
-Eval vm_compute in ("<<<M2267>>>" ++ check (runes_of_ascii "  packet
-asx
-{
-/// triple
-// @lengthOf(
-u32 stringy
-`" ++ [28040; 24687; 31867; 22411]%N ++ runes_of_ascii "` ,} MetaData
-    A {string  _x, zchar Header `a\`
-// @lengthOf(
+Eval vm_compute in ("<<<M2299>>>" ++ check (runes_of_ascii "options{
+leftPad
+    =65535
+;
+a1 = true ; packetx=  '\x00' ; packetx
+=  """ ++ [28040; 24687]%N ++ runes_of_ascii """MetaDataX= // " ++ [27880; 37322]%N ++ runes_of_ascii "
+false }root // c
+packet // packet A { u8 x, }
+Pad {")).
+Eval vm_compute in ("<<<M2331>>>" ++ check (runes_of_ascii "options{
+leftPad
+    =65535
+;
+a1 = @ true ; packetx=  '\x00' ; packetx
+=  """ ++ [28040; 24687]%N ++ runes_of_ascii """MetaDataX= // " ++ [27880; 37322]%N ++ runes_of_ascii "
+false }root // c
+packet // packet A { u8 x, }
+Pad { repeat
+u8 Header
 // packet A { u8 x, }
-, char[] MetaDataX
-,zchar[ 1 ]
-    matchKey
-    char[] , //
-u,	char[0123456789 ]
-    matchKey
-    `{ , }`, }
+//	t
+`{ , }`
+// a // b
+//x
+, }
 ")).
-Eval vm_compute in ("<<<M2299>>>" ++ check (runes_of_ascii "  packet
-asx
-{
-/// triple
-// @lengthOf(
-u32 stringy
-`" ++ [28040; 24687; 31867; 22411]%N ++ runes_of_ascii "` ,} MetaData
-    A {string  _x, zchar Header `a\`
-// @lengthOf(
-// packet A { u8 x, }
-, char[] MetaDataX
-,zchar[ 1 ]
-    matchKey
-    , char[] //
-u,	char[0123456789")).
-Eval vm_compute in ("<<<M2331>>>" ++ check (runes_of_ascii "  packet
-asx
-{
-/// triple
-// @le'1'ngthOf(
-u32 stringy
-`" ++ [28040; 24687; 31867; 22411]%N ++ runes_of_ascii "` ,} MetaData
-    A {string  _x, zchar Header `a\`
-// @lengthOf(
-// packet A { u8 x, }
-, char[] MetaDataX
-,zchar[ 1 ]
-    matchKey
-    , char[] //
-u,	char[0123456789 ]
-    matchKey
-    `{ , }`, }
-")).
-Eval vm_compute in ("<<<M2363>>>" ++ check (runes_of_ascii "root
-    packet
-Packet
-{ // trailing space 
-`tab	here` matchKey ,}")).
-Eval vm_compute in ("<<<M2395>>>" ++ check (runes_of_ascii "root
-    packet
-Packet
-{ // trailing space 
-" ++ [127]%N ++ runes_of_ascii " matchKey `tab	here` ,}")).
-Eval vm_compute in ("<<<M2427>>>" ++ check (runes_of_ascii "options{ falsey // a // b
-=
-    '0'  options { repeatCount =
-true ; string_// a // b
-=
-// c
-// " ++ [27880; 37322]%N ++ runes_of_ascii "
-int64
-// trailing space 
-/// triple
-; } // @lengthOf(")).
-Eval vm_compute in ("<<<M2459>>>" ++ check (runes_of_ascii "options{ falsey // a // b
-=
-    '0' } options { repeatCount =
-true string_ ;// a // b
-=
-// c
-// " ++ [27880; 37322]%N ++ runes_of_ascii "
-int64
-// trailing space 
-/// triple
-; } // @lengthOf(")).
-Eval vm_compute in ("<<<M2491>>>" ++ check (runes_of_ascii "options{ falsey // a // b
-=
-    '0' } options { repeatCount =
-true ; string_// a // b
-=
-// c
-// " ++ [27880; 37322]%N ++ runes_of_ascii "
-int64
-// trailing space 
-/// triple
-; %} // @lengthOf(")).
-Eval vm_compute in ("<<<M2523>>>" ++ check (runes_of_ascii "options{} packet
-metadata {
-@lengthOf(x ) float32
-body ``, }
-    MetaData
-Z9_
-    {
-    string string_ , Logon x
-,
-uint32
-    // packet A { u8 x, }
-    Z9_,asx
-_x
-    `tab	here` , }
-")).
-Eval vm_compute in ("<<<M2555>>>" ++ check (runes_of_ascii "options{}root packet
-metadata {
-@lengthOf(x float32 )
-body ``, }
-    MetaData
-Z9_
-    {
-    string string_ , Logon x
-,
-uint32
-    // packet A { u8 x, }
-    Z9_,asx
-_x
-    `tab	here` , }
-")).
-Eval vm_compute in ("<<<M2587>>>" ++ check (runes_of_ascii "options{}root packet
-metadata {
-@lengthOf(x ) float32
-body ``, }")).
-Eval vm_compute in ("<<<T2587>>>" ++ terms [mkTok 1 "options" 1 0 false; mkTok 2 "{" 1 7 false; mkTok 3 "}" 1 8 false; mkTok 34 "root" 1 9 false; mkTok 35 "packet" 1 14 false; mkTok 42 "metadata" 2 0 false; mkTok 2 "{" 2 9 false; mkTok 7 "@lengthOf(" 3 0 false; mkTok 42 "x" 3 10 false; mkTok 6 ")" 3 12 false; mkTok 28 "float32" 3 14 false; mkTok 42 "body" 4 0 false; mkTok 43 "``" 4 5 false; mkTok 40 "," 4 7 false; mkTok 3 "}" 4 9 false; mkTok 0 "<EOF>" 4 10 false] (mkPacket (mkPtok 1 "options" 1 0 0) (Some (mkPtok 3 "}" 4 9 14)) [(DOption (mkOptionDef (mkSpan (mkPtok 1 "options" 1 0 0) (mkPtok 3 "}" 1 8 2)) (mkPtok 1 "options" 1 0 0) (mkPtok 2 "{" 1 7 1) [] (mkPtok 3 "}" 1 8 2))); (DPacket (mkPacketDef (mkSpan (mkPtok 34 "root" 1 9 3) (mkPtok 3 "}" 4 9 14)) (Some (mkPtok 34 "root" 1 9 3)) (mkPtok 35 "packet" 1 14 4) (mkPtok 42 "metadata" 2 0 5) (mkPtok 2 "{" 2 9 6) [(mkFieldWithAttr (mkSpan (mkPtok 7 "@lengthOf(" 3 0 7) (mkPtok 40 "," 4 7 13)) [(FALengthOf (mkSpan (mkPtok 7 "@lengthOf(" 3 0 7) (mkPtok 6 ")" 3 12 9)) (mkLengthOf (mkSpan (mkPtok 7 "@lengthOf(" 3 0 7) (mkPtok 6 ")" 3 12 9)) (mkPtok 7 "@lengthOf(" 3 0 7) (mkPtok 42 "x" 3 10 8) (mkPtok 6 ")" 3 12 9)))] (MetaField (mkSpan (mkPtok 28 "float32" 3 14 10) (mkPtok 40 "," 4 7 13)) None (mkMetaDecl (mkSpan (mkPtok 28 "float32" 3 14 10) (mkPtok 40 "," 4 7 13)) (TyBasic (mkSpan (mkPtok 28 "float32" 3 14 10) (mkPtok 28 "float32" 3 14 10)) (mkBasicType (mkSpan (mkPtok 28 "float32" 3 14 10) (mkPtok 28 "float32" 3 14 10)) (mkPtok 28 "float32" 3 14 10))) (mkPtok 42 "body" 4 0 11) (Some (mkPtok 43 "``" 4 5 12)) (mkPtok 40 "," 4 7 13))))] (mkPtok 3 "}" 4 9 14)))])).
-Eval vm_compute in ("<<<M2619>>>" ++ check (runes_of_ascii "options{}root packet
-metadata {
-@lengthOf(x ) float32
-body ``, }
-    MetaData
-Z9_
-    {
-    string string_ , Logon x x
-,
-uint32
-    // packet A { u8 x, }
-    Z9_,asx
-_x
-    `tab	here` , }
-")).
-Eval vm_compute in ("<<<M2651>>>" ++ check (runes_of_ascii "options{}root packet
-metadata {
-@lengthOf(x ) float32
-body ``, }
-    MetaData
-Z9_
-    {
-    string string_ , Logon x
-,
-uint32
-    // packet A { u8 x, }
-    Z9_,asx
-@rightPad
-    `tab	here` , }
-")).
-Eval vm_compute in ("<<<M2683>>>" ++ check (runes_of_ascii "options{}root packet
-metadata {
-@lengthOf(x ) float32
-body ``, }
-    MetaData
-Z9_
-    {
-    string string_ , Logon x
-,
-uint32
-    //@ packet A { u8 x, }
-    Z9_,asx
-_x
-    `tab	here` , }
-")).
-Eval vm_compute in ("<<<M2715>>>" ++ check (runes_of_ascii "options {
-    falsey=
-""a\\"" ; ; }")).
-Eval vm_compute in ("<<<M2747>>>" ++ check (runes_of_ascii "f32a MetaData
-{
-    //	t
-    }root
-    packet tag  {
+Eval vm_compute in ("<<<M2363>>>" ++ check (runes_of_ascii "
+packet float
+{	""" ++ [233]%N ++ runes_of_ascii "t" ++ [233]%N ++ runes_of_ascii """ @calculatedFrom( )
+@rightPad ( '\x00' )
+    @calculatedFrom( ""x y"" ) string chars  ,
+    // a // b
+    char[0 ]
+    u	@lengthOf( i8i8 ) `{ , }` ,repeat char[] o //x
+`// not a comment`, } // c")).
+Eval vm_compute in ("<<<M2395>>>" ++ check (runes_of_ascii "
+packet float
+{	@calculatedFrom( """ ++ [233]%N ++ runes_of_ascii "t" ++ [233]%N ++ runes_of_ascii """ )
+@rightPad ( '\x00'")).
+Eval vm_compute in ("<<<M2427>>>" ++ check (runes_of_ascii "
+packet float
+{	@calculatedFrom( """ ++ [233]%N ++ runes_of_ascii "t" ++ [233]%N ++ runes_of_ascii """ )
+@rightPad ( '\x00' )
+    @calculatedFrom( ""x y"" ) string chars  ,
+    // a // b
+    char[ char[0 ]
+    u	@lengthOf( i8i8 ) `{ , }` ,repeat char[] o //x
+`// not a comment`, } // c")).
+Eval vm_compute in ("<<<M2459>>>" ++ check (runes_of_ascii "
+packet float
+{	@calculatedFrom( """ ++ [233]%N ++ runes_of_ascii "t" ++ [233]%N ++ runes_of_ascii """ )
+@rightPad ( '\x00' )
+    @calculatedFrom( ""x y"" ) string chars  ,
+    // a // b
+    char[0 ]
+    u	@lengthOf( i8i8 i32 `{ , }` ,repeat char[] o //x
+`// not a comment`, } // c")).
+Eval vm_compute in ("<<<M2491>>>" ++ check (runes_of_ascii "
+packet float
+{	@calculatedFrom( """ ++ [233]%N ++ runes_of_ascii "t" ++ [233]%N ++ runes_of_ascii """ )
+@rightPad ( '\x00' )
+    @calculatedFrom( ""x y"" ) string chars  ,
+    // a // b
+    char[0 ]
+    u	@lengthOf( i8i8 ) `{ , }` ,repeat char[] o //x
+`// not a comment` } // c")).
+Eval vm_compute in ("<<<M2523>>>" ++ check (runes_of_ascii "root root packet u128{
+    repeat
+    zchar[ 65535 ] u `" ++ [28040; 24687; 31867; 22411]%N ++ runes_of_ascii "` ,// `tick` ""quote"" 'q'
+} packet i64_ {repeatCount
+    `
+` ,	} // " ++ [128512]%N ++ runes_of_ascii " emoji")).
+Eval vm_compute in ("<<<M2555>>>" ++ check (runes_of_ascii "root packet u128{
+    repeat
+    zchar[ zchar[ ] u `" ++ [28040; 24687; 31867; 22411]%N ++ runes_of_ascii "` ,// `tick` ""quote"" 'q'
+} packet i64_ {repeatCount
+    `
+` ,	} // " ++ [128512]%N ++ runes_of_ascii " emoji")).
+Eval vm_compute in ("<<<M2587>>>" ++ check (runes_of_ascii "root packet u128{
+    repeat
+    zchar[ 65535 ] u `" ++ [28040; 24687; 31867; 22411]%N ++ runes_of_ascii "` ,// `tick` ""quote"" 'q'
+} packet  {repeatCount
+    `
+` ,	} // " ++ [128512]%N ++ runes_of_ascii " emoji")).
+Eval vm_compute in ("<<<M2619>>>" ++ check (runes_of_ascii "roo")).
+Eval vm_compute in ("<<<M2651>>>" ++ check (runes_of_ascii "
+MetaData
+roots i16 int8
+    BodyLength ,//	t
 }
 ")).
-Eval vm_compute in ("<<<M2779>>>" ++ check (runes_of_ascii "MetaData f32a
-{
-    //	t
-    }root
-    packet")).
+Eval vm_compute in ("<<<M2683>>>" ++ check (runes_of_ascii "
+MetaData
+? roots { int8
+    BodyLength ,//	t
+}
+")).
+Eval vm_compute in ("<<<M2715>>>" ++ check (runes_of_ascii "options {Packet = ""CRC32"" ""CRC32""i8i8 = false; leftPad =
+    '\x00'
+    // `tick` ""quote"" 'q'
+    ; o=255  ;
+    // packet A { u8 x, }
+    }")).
+Eval vm_compute in ("<<<M2747>>>" ++ check (runes_of_ascii "options {Packet = ""CRC32""i8i8 = false; leftPad :
+    '\x00'
+    // `tick` ""quote"" 'q'
+    ; o=255  ;
+    // packet A { u8 x, }
+    }")).
+Eval vm_compute in ("<<<M2779>>>" ++ check (runes_of_ascii "options {Packet = ""CRC32""i8i8 = false; leftPad =
+    '\x00'
+    // `tick` ""quote"" 'q'
+    ; o=255  ;
+    // packet A { u8 x, }
+    ")).
 Eval vm_compute in ("<<<M2811>>>" ++ check (runes_of_ascii "
-
-    {msg_type =
-    float32  }root
-packet Z9_{ char /// triple
-crc @lengthOf(
-options1 ) //
-,} MetaData a1{}
-")).
+packet metadata metadata { @rightPad (
+    // packet A { u8 x, }
+    ' ' ) repeat u32	A
+,matchKey ,
+    @lengthOf( string_ ) @lengthOf( body )
+    // a // b
+    @lengthOf(float  )	repeat
+int32 u8x
+    // c
+    `tab	here`
+, } // a // b")).
 Eval vm_compute in ("<<<M2843>>>" ++ check (runes_of_ascii "
-options
-    {msg_type =
-    float32  }packet
-root Z9_{ char /// triple
-crc @lengthOf(
-options1 ) //
-,} MetaData a1{}
-")).
+packet metadata { @rightPad (
+    // packet A { u8 x, }
+    ' ' ) i32 u32	A
+,matchKey ,
+    @lengthOf( string_ ) @lengthOf( body )
+    // a // b
+    @lengthOf(float  )	repeat
+int32 u8x
+    // c
+    `tab	here`
+, } // a // b")).
 Eval vm_compute in ("<<<M2875>>>" ++ check (runes_of_ascii "
-options
-    {msg_type =
-    float32  }root
-packet Z9_{ char /// triple
-crc")).
+packet metadata { @rightPad (
+    // packet A { u8 x, }
+    ' ' ) repeat u32	A
+,matchKey ,
+    @lengthOf(  ) @lengthOf( body )
+    // a // b
+    @lengthOf(float  )	repeat
+int32 u8x
+    // c
+    `tab	here`
+, } // a // b")).
 Eval vm_compute in ("<<<M2907>>>" ++ check (runes_of_ascii "
-options
-    {msg_type =
-    float32  }root
-packet Z9_{ char /// triple
-crc @lengthOf(
-options1 ) //
-,} MetaData a1{ {}
+packet metadata { @rightPad (
+    // packet A { u8 x, }
+    ' ' ) repeat u32	A
+,matchKey ,
+    @lengthOf( string_ ) @lengthOf( body )
+    // a // b
+    @lengthOf()  float	repeat
+int32 u8x
+    // c
+    `tab	here`
+, } // a // b")).
+Eval vm_compute in ("<<<M2939>>>" ++ check (runes_of_ascii "
+packet metadata { @rightPad (
+    // packet A { u8 x, }
+    ' ' ) repeat u32	A
+,matchKey ,
+    @lengthOf( string_ ) @lengthOf( body )
+    // a // b
+    @lengthOf(float  )	repeat
+int32 u8x
+    // c
+    `tab	here`")).
+Eval vm_compute in ("<<<M2971>>>" ++ check (runes_of_ascii "packet {
+string
+zchar , //	t
+}
 ")).
-Eval vm_compute in ("<<<M2939>>>" ++ check (runes_of_ascii "crc packet{ // " ++ [128512]%N ++ runes_of_ascii " emoji
-repeat string i8i8
-`a\`, }
+Eval vm_compute in ("<<<M3003>>>" ++ check (runes_of_ascii "packet x{
 ")).
-Eval vm_compute in ("<<<M2971>>>" ++ check (runes_of_ascii "packet crc{ // " ++ [128512]%N ++ runes_of_ascii " emoji
-repeat string i8i8")).
-Eval vm_compute in ("<<<M3003>>>" ++ check (runes_of_ascii " BodyLength {} MetaData zchar{ zchar[// @lengthOf(
-42 ]
-    pack , string_
-A , char[]crc , _x trueish ,
-// " ++ [27880; 37322]%N ++ runes_of_ascii "
-// " ++ [128512]%N ++ runes_of_ascii " emoji
-zchar[
-    3 ]	T // trailing space 
-, } packet body
+Eval vm_compute in ("<<<M3035>>>" ++ check (runes_of_ascii "
+MetaData Logon
+@rightPad // c
+}root packet
+    Pad {
+    } options
 {
-    }
-")).
-Eval vm_compute in ("<<<M3035>>>" ++ check (runes_of_ascii "packet BodyLength {} MetaData zchar zchar[ {// @lengthOf(
-42 ]
-    pack , string_
-A , char[]crc , _x trueish ,
-// " ++ [27880; 37322]%N ++ runes_of_ascii "
-// " ++ [128512]%N ++ runes_of_ascii " emoji
-zchar[
-    3 ]	T // trailing space 
-, } packet body
+u
+    =
+    ""CRC32""
+    // " ++ [128512]%N ++ runes_of_ascii " emoji
+    i64_ = u16;
+T =65535 x = ' '
+    ; u128
+= true ; }")).
+Eval vm_compute in ("<<<M3067>>>" ++ check (runes_of_ascii "
+MetaData Logon
+{ // c
+}root packet
+    Pad {
+    } 
 {
-    }
-")).
-Eval vm_compute in ("<<<M3067>>>" ++ check (runes_of_ascii "packet BodyLength {} MetaData zchar{ zchar[// @lengthOf(
-42 ]
-    pack ,")).
-Eval vm_compute in ("<<<M3099>>>" ++ check (runes_of_ascii "packet BodyLength {} MetaData zchar{ zchar[// @lengthOf(
-42 ]
-    pack , string_
-A , char[]crc , _x trueish trueish ,
-// " ++ [27880; 37322]%N ++ runes_of_ascii "
-// " ++ [128512]%N ++ runes_of_ascii " emoji
-zchar[
-    3 ]	T // trailing space 
-, } packet body
+u
+    =
+    ""CRC32""
+    // " ++ [128512]%N ++ runes_of_ascii " emoji
+    i64_ = u16;
+T =65535 x = ' '
+    ; u128
+= true ; }")).
+Eval vm_compute in ("<<<M3099>>>" ++ check (runes_of_ascii "
+MetaData Logon
+{ // c
+}root packet
+    Pad {
+    } options
 {
-    }
-")).
-Eval vm_compute in ("<<<M3131>>>" ++ check (runes_of_ascii "packet BodyLength {} MetaData zchar{ zchar[// @lengthOf(
-42 ]
-    pack , string_
-A , char[]crc , _x trueish ,
-// " ++ [27880; 37322]%N ++ runes_of_ascii "
-// " ++ [128512]%N ++ runes_of_ascii " emoji
-zchar[
-    3 ]	T // trailing space 
-char } packet body
+u
+    =
+    ""CRC32""
+    // " ++ [128512]%N ++ runes_of_ascii " emoji
+    i64_ u16 =;
+T =65535 x = ' '
+    ; u128
+= true ; }")).
+Eval vm_compute in ("<<<M3131>>>" ++ check (runes_of_ascii "
+MetaData Logon
+{ // c
+}root packet
+    Pad {
+    } options
 {
-    }
-")).
-Eval vm_compute in ("<<<M3163>>>" ++ check (runes_of_ascii "packet BodyLength {} MetaData zchar{ zchar[// @lengthOf(
-42 @leftpad]
-    pack , string_
-A , char[]crc , _x trueish ,
-// " ++ [27880; 37322]%N ++ runes_of_ascii "
-// " ++ [128512]%N ++ runes_of_ascii " emoji
-zchar[
-    3 ]	T // trailing space 
-, } packet body
+u
+    =
+    ""CRC32""
+    // " ++ [128512]%N ++ runes_of_ascii " emoji
+    i64_ = u16;
+T =65535")).
+Eval vm_compute in ("<<<M3163>>>" ++ check (runes_of_ascii "
+MetaData Logon
+{ // c
+}root packet
+    Pad {
+    } options
 {
-    }
+u
+    =
+    ""CRC32""
+    // " ++ [128512]%N ++ runes_of_ascii " emoji
+    i64_ = u16;
+T =65535 x = ' '
+    ; u128
+= true ; ; }")).
+Eval vm_compute in ("<<<M3195>>>" ++ check (runes_of_ascii "body MetaData{}
+packet	Packet { x_y_z @calculatedFrom(  ""a\\"")// `tick` ""quote"" 'q'
+, }
 ")).
-Eval vm_compute in ("<<<M3195>>>" ++ check (runes_of_ascii "packet
-string_ {@lengthOf( @lengthOf( int ) match packetx as f32a {
-    1 :	calculatedFrom , }  ,
-    } packet len
-    //	t
-    { @calculatedFrom( """ ++ [233]%N ++ runes_of_ascii "t" ++ [233]%N ++ runes_of_ascii """ ) body Header , char[] lengthOf  `two words` ,chars{repeat string_ matchKey ,
-    } ,
-    }
+Eval vm_compute in ("<<<M3227>>>" ++ check (runes_of_ascii "MetaData body{}
+packet	Packet")).
+Eval vm_compute in ("<<<M3259>>>" ++ check (runes_of_ascii "MetaData body{}
+packet	Packet { x_y_z @calculatedFrom(  ""a\\"")// `tick` ""quote")).
+Eval vm_compute in ("<<<M3291>>>" ++ check (runes_of_ascii "packet f32a }{ root packet len {repeat u // " ++ [128512]%N ++ runes_of_ascii " emoji
+`{ , }` , }
 ")).
-Eval vm_compute in ("<<<M3227>>>" ++ check (runes_of_ascii "packet
-string_ {@lengthOf( int ) match packetx as , {
-    1 :	calculatedFrom , }  ,
-    } packet len
-    //	t
-    { @calculatedFrom( """ ++ [233]%N ++ runes_of_ascii "t" ++ [233]%N ++ runes_of_ascii """ ) body Header , char[] lengthOf  `two words` ,chars{repeat string_ matchKey ,
-    } ,
-    }
+Eval vm_compute in ("<<<M3323>>>" ++ check (runes_of_ascii "packet f32a {} root packet len {")).
+Eval vm_compute in ("<<<M3355>>>" ++ check (runes_of_ascii "packet f32a {} root packet len {repeat '\x01'u // " ++ [128512]%N ++ runes_of_ascii " emoji
+`{ , }` , }
 ")).
-Eval vm_compute in ("<<<M3259>>>" ++ check (runes_of_ascii "packet
-string_ {@lengthOf( int ) match packetx as f32a {
-    1 :	calculatedFrom , }  
-    } packet len
-    //	t
-    { @calculatedFrom( """ ++ [233]%N ++ runes_of_ascii "t" ++ [233]%N ++ runes_of_ascii """ ) body Header , char[] lengthOf  `two words` ,chars{repeat string_ matchKey ,
-    } ,
-    }
-")).
-Eval vm_compute in ("<<<M3291>>>" ++ check (runes_of_ascii "packet
-string_ {@lengthOf( int ) match packetx as f32a {
-    1 :	calculatedFrom , }  ,
-    } packet len
-    //	t
-    { @calculatedFrom( ) """ ++ [233]%N ++ runes_of_ascii "t" ++ [233]%N ++ runes_of_ascii """ body Header , char[] lengthOf  `two words` ,chars{repeat string_ matchKey ,
-    } ,
-    }
-")).
-Eval vm_compute in ("<<<M3323>>>" ++ check (runes_of_ascii "packet
-string_ {@lengthOf( int ) match packetx as f32a {
-    1 :	calculatedFrom , }  ,
-    } packet len
-    //	t
-    { @calculatedFrom( """ ++ [233]%N ++ runes_of_ascii "t" ++ [233]%N ++ runes_of_ascii """ ) body Header , char[]")).
-Eval vm_compute in ("<<<M3355>>>" ++ check (runes_of_ascii "packet
-string_ {@lengthOf( int ) match packetx as f32a {
-    1 :	calculatedFrom , }  ,
-    } packet len
-    //	t
-    { @calculatedFrom( """ ++ [233]%N ++ runes_of_ascii "t" ++ [233]%N ++ runes_of_ascii """ ) body Header , char[] lengthOf  `two words` ,chars{repeat string_ matchKey matchKey ,
-    } ,
-    }
-")).
-Eval vm_compute in ("<<<M3387>>>" ++ check (runes_of_ascii "packet
-string_ {@lengthOf( int ) match packetx as f32a {
-    1 :	calculatedFrom , }  ,
-    } packet len
-    //	t
-    { @calculatedFrom( """ ++ [233]%N ++ runes_of_ascii "t" ++ [233]%N ++ runes_of_ascii """ ) body Header " ++ [127]%N ++ runes_of_ascii ", char[] lengthOf  `two words` ,chars{repeat string_ matchKey ,
-    } ,
-    }
-")).
-Eval vm_compute in ("<<<M3419>>>" ++ check (runes_of_ascii "/// triple
-root
-packet // packet A { u8 x, }
-chars { @lengthOf(charz )
-stringy,  @tag(  , ) // a // b
-asx
-    As
-,
-// trailing space 
-// trailing space 
-x_y_z {
-repeat i16 charz , } ,	int16  crc ,}
-")).
-Eval vm_compute in ("<<<M3451>>>" ++ check (runes_of_ascii "/// triple
-root
-packet // packet A { u8 x, }
-chars { @lengthOf(charz )
-stringy,  @tag(  0 ) // a // b
-asx
-    As")).
-Eval vm_compute in ("<<<M3483>>>" ++ check (runes_of_ascii "/// triple
-root
-packet // packet A { u8 x, }
-chars { @lengthOf(charz )
-stringy,  @tag(  0 0 ) // a // b
-asx
-    As
-,
-// trailing space 
-// trailing space 
-x_y_z {
-repeat i16 charz , } ,	int16  crc ,}
-")).
+Eval vm_compute in ("<<<M3387>>>" ++ check (runes_of_ascii "options{ _x=""\" ++ [233]%N ++ runes_of_ascii """;
+    Logon = 10	; Foo= 7;
+i64_= char[]} options {
+matchKey = ""// no comment"" // a // b
+falsey = string
+;  =
+    4294967296
+options1=
+    ""it's"" string_	= true } options {
+    /// triple
+    }")).
+Eval vm_compute in ("<<<M3419>>>" ++ check (runes_of_ascii "options{ _x=""\" ++ [233]%N ++ runes_of_ascii """;
+    Logon = 10	; Foo= 7;
+i64_")).
+Eval vm_compute in ("<<<M3451>>>" ++ check (runes_of_ascii "options{ _x=""\" ++ [233]%N ++ runes_of_ascii """;
+    Logon = 10	; Foo= 7;
+i64_= char[]} options {
+matchKey = ""// no comment"" // a // b
+falsey = string
+; trueish 4294967296
+    =
+options1=
+    ""it's"" string_	= true } options {
+    /// triple
+    }")).
+Eval vm_compute in ("<<<M3483>>>" ++ check (runes_of_ascii "options{ _x=""\" ++ [233]%N ++ runes_of_ascii """;
+    Logon = 10	; Fo@o= 7;
+i64_= char[]} options {
+matchKey = ""// no comment"" // a // b
+falsey = string
+; trueish =
+    4294967296
+options1=
+    ""it's"" string_	= true } options {
+    /// triple
+    }")).
 Eval vm_compute in ("<<<M3515>>>" ++ check (runes_of_ascii "falsey")).
 Eval vm_compute in ("<<<M3547>>>" ++ check (runes_of_ascii "@rightPad")).
 Eval vm_compute in ("<<<M3579>>>" ++ check (runes_of_ascii """a\
@@ -1621,11 +2005,11 @@ Eval vm_compute in ("<<<M3643>>>" ++ check (runes_of_ascii "packet A { x `d` `e`
 Eval vm_compute in ("<<<M3675>>>" ++ check (runes_of_ascii "packet A { match k as n { [1,] : B }, }")).
 Eval vm_compute in ("<<<M3707>>>" ++ check (runes_of_ascii "root root packet A { }")).
 Eval vm_compute in ("<<<M3739>>>" ++ check (runes_of_ascii "options options { }")).
-Eval vm_compute in ("<<<M3771>>>" ++ check (runes_of_ascii "u8 options float32 @calculatedFrom( false ( ] int8 ] = i64 i32")).
-Eval vm_compute in ("<<<M3803>>>" ++ check (runes_of_ascii "@lengthOf( metadata")).
-Eval vm_compute in ("<<<M3835>>>" ++ check (runes_of_ascii "false")).
-Eval vm_compute in ("<<<M3867>>>" ++ check (runes_of_ascii "match f32")).
-Eval vm_compute in ("<<<M3899>>>" ++ check (runes_of_ascii "`tab	here`")).
-Eval vm_compute in ("<<<M3931>>>" ++ check (runes_of_ascii "false float32 false packet")).
-Eval vm_compute in ("<<<M3963>>>" ++ check (runes_of_ascii "char : zchar[")).
-Eval vm_compute in ("<<<M3995>>>" ++ check (runes_of_ascii "@leftPad @calculatedFrom( [ ) } f64 ; char[ char @rightPad")).
+Eval vm_compute in ("<<<M3771>>>" ++ check (runes_of_ascii "repeat @lengthOf( } int16 char @leftPad true false packet { i16 char[")).
+Eval vm_compute in ("<<<M3803>>>" ++ check (runes_of_ascii "match , packet false , true packet options char")).
+Eval vm_compute in ("<<<M3835>>>" ++ check (runes_of_ascii "@rightPad '\x00' int32 packet 3 true as match")).
+Eval vm_compute in ("<<<M3867>>>" ++ check (runes_of_ascii "string ) `doc` char[] int32 ; u64 } = i64 @lengthOf( char[]")).
+Eval vm_compute in ("<<<M3899>>>" ++ check (runes_of_ascii ") zchar[ : uint16 ,")).
+Eval vm_compute in ("<<<M3931>>>" ++ check (runes_of_ascii ") i64 false false")).
+Eval vm_compute in ("<<<M3963>>>" ++ check (runes_of_ascii "string int8 i8 packet = `" ++ [28040; 24687; 31867; 22411]%N ++ runes_of_ascii "` [ @lengthOf( int32 repeat float32")).
+Eval vm_compute in ("<<<M3995>>>" ++ check (runes_of_ascii "match packet uint64 float64 uint32 char[ packet @tag( i32 ) float32 ;")).
